@@ -1,9 +1,12 @@
-(* C12: the protocol invariant of the barrier when exactly [count] fibers use it
-   and either every fiber performs one round or count <= 2 (the regime in which
-   the waiter list is never popped by the serial fiber of an earlier round).
-   Kernel part: well-formedness of the MPSC waiter list (two-step push, single
-   consumer, node hand-over), wake-up protocol of wait_in_mpsc_queue /
-   wake_from_mpsc_queue.  Barrier part: generations. *)
+(* C12: the protocol invariant of the REPAIRED barrier (two waiter lists alternating
+   by round parity) when exactly [count] fibers use it: any count >= 1, any number
+   of consecutive rounds, any schedule.
+   Kernel part: well-formedness of the two MPSC waiter lists (two-step push, single
+   consumer per list, node hand-over), wake-up protocol of wait_in_mpsc_queue /
+   wake_from_mpsc_queue.  Barrier part: generations; the key fact is that the list
+   of round k is empty and untouched while round k+1 fills the other list, because
+   round k+2 cannot start before the serial fiber of round k has itself entered
+   round k+1. *)
 From Coq Require Import List ZArith Lia Bool Arith.
 From LF Require Import Conc T1K Barrier BarrierProofs.
 Import ListNotations.
@@ -12,29 +15,32 @@ Local Open Scope Z_scope.
 (* ---- remaining projections of lstep ---- *)
 Lemma lstep_chain x t : chain (lstep x t) =
   match stk (base x) t with
-  | WXchg _ n :: _ => chain x ++ [(n, t)]
-  | KSetHead _ _ _ _ _ :: _ => tl (chain x)
+  | WXchg q n :: _ => upd (chain x) q (chain x q ++ [(n, t)])
+  | KSetHead q _ _ _ _ :: _ => upd (chain x) q (tl (chain x q))
   | _ => chain x
   end.
-Proof. unfold lstep. destruct (stk (base x) t) as [|[] ?]; reflexivity. Qed.
+Proof. reflexivity. Qed.
 
 Lemma lstep_infl x t : infl (lstep x t) =
   match stk (base x) t with
-  | KSetHead _ _ _ _ _ :: _ => option_map snd (hd_error (chain x))
-  | KState _ _ _ f :: _ => if fstate (mem (base x)) f =? ST_WAITING then infl x else None
-  | KReady _ _ _ _ :: _ => None
+  | KSetHead q _ _ _ _ :: _ => upd (infl x) q (option_map snd (hd_error (chain x q)))
+  | KState q _ _ f :: _ => if fstate (mem (base x)) f =? ST_WAITING then infl x else upd (infl x) q None
+  | KReady q _ _ _ :: _ => upd (infl x) q None
   | _ => infl x
   end.
-Proof. unfold lstep. destruct (stk (base x) t) as [|[] ?]; reflexivity. Qed.
+Proof. reflexivity. Qed.
 
 Lemma lstep_pw x t : pw (lstep x t) =
   match stk (base x) t with
-  | WFAdd _ _ _ :: _ => if (word (mem (base x)) 0 + 1) mod cnt (base x) =? 0 then pw x else pw x ++ [t]
-  | KState _ _ _ f :: _ => if fstate (mem (base x)) f =? ST_WAITING then pw x else remove Nat.eq_dec f (pw x)
-  | KReady _ _ _ f :: _ => remove Nat.eq_dec f (pw x)
+  | WFAdd _ _ _ :: _ =>
+      if (word (mem (base x)) 0 + 1) mod cnt (base x) =? 0 then pw x
+      else let q := lsel (two (base x)) (cnt (base x)) (word (mem (base x)) 0) in upd (pw x) q (pw x q ++ [t])
+  | KState q _ _ f :: _ => if fstate (mem (base x)) f =? ST_WAITING then pw x
+                           else upd (pw x) q (remove Nat.eq_dec f (pw x q))
+  | KReady q _ _ f :: _ => upd (pw x) q (remove Nat.eq_dec f (pw x q))
   | _ => pw x
   end.
-Proof. unfold lstep. destruct (stk (base x) t) as [|[] ?]; reflexivity. Qed.
+Proof. reflexivity. Qed.
 
 (* ---- observations on stacks ---- *)
 Definition is_ser (sg : stack bc) : Prop := exists n k, bot sg = Some (BRet n k 1).
@@ -47,6 +53,32 @@ Definition pre_round (sg : stack bc) : option nat :=
   | _ => None
   end.
 
+(* the waiter list of round k: rounds 1,3,5,.. use list 0, rounds 2,4,.. list 1 *)
+Definition lq (k : nat) : nat := Nat.b2n (Nat.even k).
+Lemma lq_lt k : (lq k < 2)%nat.
+Proof. unfold lq. destruct (Nat.even k); cbn; lia. Qed.
+Lemma lq_succ k : lq (S k) = (1 - lq k)%nat.
+Proof. unfold lq. rewrite Nat.even_succ, <- Nat.negb_even. destruct (Nat.even k); reflexivity. Qed.
+Lemma lq_succ_ne k : lq (S k) <> lq k.
+Proof. rewrite lq_succ. pose proof (lq_lt k). lia. Qed.
+Lemma lq_two q q' : (q < 2)%nat -> (q' < 2)%nat -> q <> q' -> q' = (1 - q)%nat.
+Proof. lia. Qed.
+(* what the code computes: ((new - 1) / count) & 1 with (new - 1) / count = k - 1 *)
+Lemma lsel_lq count v k : 0 <= v -> 0 < count -> Z.of_nat k = v / count + 1 -> lsel true count v = lq k.
+Proof.
+  intros Hv Hc Hk. unfold lsel, lq. destruct k as [|k]; [assert (0 <= v / count) by (apply Z.div_pos; lia); lia|].
+  replace (v / count) with (Z.of_nat k) by lia.
+  rewrite Nat.even_succ, <- Nat.negb_even.
+  rewrite <- (Nat2Z.id (Nat.b2n (negb (Nat.even k)))). f_equal.
+  destruct (Nat.even k) eqn:E.
+  - apply Nat.even_spec in E. destruct E as [j ->]. rewrite Nat2Z.inj_mul. cbn [negb Nat.b2n Z.of_nat].
+    rewrite Z.mul_comm. apply Z_mod_mult.
+  - assert (O : Nat.odd k = true) by (rewrite <- Nat.negb_even, E; reflexivity).
+    apply Nat.odd_spec in O. destruct O as [j ->]. cbn [negb Nat.b2n].
+    rewrite Nat2Z.inj_add, Nat2Z.inj_mul. change (Z.of_nat 2) with 2. change (Z.of_nat 1) with 1.
+    rewrite Z.add_comm, Z.mul_comm, Z_mod_plus_full. reflexivity.
+Qed.
+
 (* number of waiters the serial fiber has scheduled so far *)
 Definition wcof (sg : stack bc) : Z :=
   match sg with
@@ -56,7 +88,7 @@ Definition wcof (sg : stack bc) : Z :=
   | _ => 0
   end.
 
-(* a node that is in nobody's [fnode] and not in the list: carried in a frame *)
+(* a node that is in nobody's [fnode] and not in a list: carried in a frame *)
 Definition held (sg : stack bc) : nat :=
   match sg with
   | WNext _ nd :: _ | WXchg _ nd :: _ => nd
@@ -67,43 +99,44 @@ Definition held (sg : stack bc) : nat :=
 Definition linking (sg : stack bc) : Prop :=
   match sg with WLink _ _ _ :: _ => True | _ => False end.
 
-(* the list from node a on: every entry is linked to its predecessor or its
+(* list q from node a on: every entry is linked to its predecessor or its
    pusher is about to link it *)
-Fixpoint linked (m : kmem) (sf : nat -> stack bc) (a : nat) (ch : list (nat * nat)) : Prop :=
+Fixpoint linked (m : kmem) (sf : nat -> stack bc) (q a : nat) (ch : list (nat * nat)) : Prop :=
   match ch with
   | [] => nnext m a = O
   | (b, u) :: rest =>
-      ((nnext m a = b /\ ~ linking (sf u)) \/ (nnext m a = O /\ exists r, sf u = WLink 0 a b :: r))
-      /\ linked m sf b rest
+      ((nnext m a = b /\ ~ linking (sf u)) \/ (nnext m a = O /\ exists r, sf u = WLink q a b :: r))
+      /\ linked m sf q b rest
   end.
 Fixpoint lastn (a : nat) (ch : list (nat * nat)) : nat :=
   match ch with [] => a | (b, _) :: rest => lastn b rest end.
 
-Definition nodes (x : ist) : list nat := qhead (mem (base x)) 0%nat :: map fst (chain x).
+Definition nodes (x : ist) (q : nat) : list nat := qhead (mem (base x)) q :: map fst (chain x q).
 
-(* ---- per-fiber clauses ---- *)
-Definition Qp (x : ist) (u : nat) : Prop := In u (pw x).
-Definition Cp (x : ist) (u : nat) : Prop := In u (map snd (chain x)).
-Definition Fp (x : ist) (u : nat) : Prop := infl x = Some u.
+(* ---- per-fiber clauses (q = the waiter list of the fiber's round) ---- *)
+Definition Qp (x : ist) (q u : nat) : Prop := In u (pw x q).
+Definition Cp (x : ist) (q u : nat) : Prop := In u (map snd (chain x q)).
+Definition Fp (x : ist) (q u : nat) : Prop := infl x q = Some u.
 Definition quiet (m : kmem) (u : nat) : Prop := pend m u = O /\ blocked m u = false.
 
-Definition unq (x : ist) (u : nat) : Prop :=
-  Qp x u /\ ~ Cp x u /\ ~ Fp x u /\ quiet (mem (base x)) u.
-Definition presleep (x : ist) (u : nat) : Prop :=
+Definition unq (x : ist) (q u : nat) : Prop :=
+  Qp x q u /\ ~ Cp x q u /\ ~ Fp x q u /\ quiet (mem (base x)) u.
+Definition presleep (x : ist) (q u : nat) : Prop :=
   let m := mem (base x) in
   fstate m u = ST_SAVING /\ blocked m u = false /\
-  ((Qp x u /\ (Cp x u \/ Fp x u) /\ pend m u = O) \/ (~ Qp x u /\ pend m u = 1%nat /\ fnode m u <> O)).
-Definition postres (x : ist) (u : nat) : Prop :=
+  ((Qp x q u /\ (Cp x q u \/ Fp x q u) /\ pend m u = O) \/ (~ Qp x q u /\ pend m u = 1%nat /\ fnode m u <> O)).
+Definition postres (x : ist) (q u : nat) : Prop :=
   let m := mem (base x) in
-  fstate m u = ST_RUNNING /\ ~ Qp x u /\ quiet m u /\ fnode m u <> O.
-Definition asleep_ok (x : ist) (u : nat) : Prop :=
+  fstate m u = ST_RUNNING /\ ~ Qp x q u /\ quiet m u /\ fnode m u <> O.
+Definition asleep_ok (x : ist) (q u : nat) : Prop :=
   let m := mem (base x) in
-  (Qp x u /\ (Cp x u \/ Fp x u) /\ pend m u = O /\ blocked m u = true /\ fstate m u = ST_WAITING)
-  \/ (~ Qp x u /\ pend m u = O /\ blocked m u = false /\ fnode m u <> O /\
+  (Qp x q u /\ (Cp x q u \/ Fp x q u) /\ pend m u = O /\ blocked m u = true /\ fstate m u = ST_WAITING)
+  \/ (~ Qp x q u /\ pend m u = O /\ blocked m u = false /\ fnode m u <> O /\
       (fstate m u = ST_WAITING \/ fstate m u = ST_READY)).
+(* a fiber that is not waiting is in nobody's list *)
 Definition serl (x : ist) (u : nat) : Prop :=
   let m := mem (base x) in
-  ~ Qp x u /\ quiet m u /\ fnode m u <> O /\ fstate m u = ST_RUNNING.
+  (forall q, ~ Qp x q u) /\ quiet m u /\ fnode m u <> O /\ fstate m u = ST_RUNNING.
 
 Section Inv.
 Variable count : Z.
@@ -113,108 +146,115 @@ Inductive lok (x : ist) (u : nat) : stack bc -> Prop :=
 | lk_start n : quiet (mem (base x)) u -> fnode (mem (base x)) u <> O -> lok x u [Start; FC (BNext n 1)]
 | lk_fadd n k : quiet (mem (base x)) u -> fnode (mem (base x)) u <> O -> fstate (mem (base x)) u = ST_RUNNING ->
                lok x u [WFAdd 0 1 5; FC (BArrived n k)]
-| lk_wsaving n k : unq x u -> fnode (mem (base x)) u <> O -> lok x u [WSaving 0; FC (BRet n k 0)]
-| lk_wdata n k : unq x u -> fnode (mem (base x)) u <> O -> fstate (mem (base x)) u = ST_SAVING ->
-                 lok x u [WData 0; FC (BRet n k 0)]
-| lk_wnext nd n k : unq x u -> fnode (mem (base x)) u = O -> nd <> O -> ndata (mem (base x)) nd = fname u ->
-                    fstate (mem (base x)) u = ST_SAVING -> lok x u [WNext 0 nd; FC (BRet n k 0)]
-| lk_wxchg nd n k : unq x u -> fnode (mem (base x)) u = O -> nd <> O -> ndata (mem (base x)) nd = fname u ->
+| lk_wsaving n k : unq x (lq k) u -> fnode (mem (base x)) u <> O -> lok x u [WSaving (lq k); FC (BRet n k 0)]
+| lk_wdata n k : unq x (lq k) u -> fnode (mem (base x)) u <> O -> fstate (mem (base x)) u = ST_SAVING ->
+                 lok x u [WData (lq k); FC (BRet n k 0)]
+| lk_wnext nd n k : unq x (lq k) u -> fnode (mem (base x)) u = O -> nd <> O -> ndata (mem (base x)) nd = fname u ->
+                    fstate (mem (base x)) u = ST_SAVING -> lok x u [WNext (lq k) nd; FC (BRet n k 0)]
+| lk_wxchg nd n k : unq x (lq k) u -> fnode (mem (base x)) u = O -> nd <> O -> ndata (mem (base x)) nd = fname u ->
                     fstate (mem (base x)) u = ST_SAVING -> nnext (mem (base x)) nd = O ->
-                    lok x u [WXchg 0 nd; FC (BRet n k 0)]
-| lk_wlink p nd n k : Qp x u -> In (nd, u) (chain x) -> ~ Fp x u -> quiet (mem (base x)) u ->
-                      fstate (mem (base x)) u = ST_SAVING -> lok x u [WLink 0 p nd; FC (BRet n k 0)]
-| lk_yread n k : presleep x u \/ postres x u -> lok x u [YRead; FC (BRet n k 0)]
-| lk_ynext st n k : (st = ST_SAVING /\ presleep x u) \/ (st = ST_RUNNING /\ postres x u) ->
+                    lok x u [WXchg (lq k) nd; FC (BRet n k 0)]
+| lk_wlink p nd n k : Qp x (lq k) u -> In (nd, u) (chain x (lq k)) -> ~ Fp x (lq k) u -> quiet (mem (base x)) u ->
+                      fstate (mem (base x)) u = ST_SAVING -> lok x u [WLink (lq k) p nd; FC (BRet n k 0)]
+| lk_yread n k : presleep x (lq k) u \/ postres x (lq k) u -> lok x u [YRead; FC (BRet n k 0)]
+| lk_ynext st n k : (st = ST_SAVING /\ presleep x (lq k) u) \/ (st = ST_RUNNING /\ postres x (lq k) u) ->
                     lok x u [YNext st; FC (BRet n k 0)]
-| lk_swread n k : presleep x u -> lok x u [SwRead; YLoop; FC (BRet n k 0)]
-| lk_swdone n k : presleep x u -> lok x u [SwDone; YLoop; FC (BRet n k 0)]
-| lk_mread n k : presleep x u -> lok x u [MRead; YLoop; FC (BRet n k 0)]
-| lk_mflip n k : presleep x u -> lok x u [MFlip; YLoop; FC (BRet n k 0)]
-| lk_asleep n k : asleep_ok x u -> lok x u [Asleep; YLoop; FC (BRet n k 0)]
-| lk_resume n k : ~ Qp x u -> quiet (mem (base x)) u -> fnode (mem (base x)) u <> O ->
+| lk_swread n k : presleep x (lq k) u -> lok x u [SwRead; YLoop; FC (BRet n k 0)]
+| lk_swdone n k : presleep x (lq k) u -> lok x u [SwDone; YLoop; FC (BRet n k 0)]
+| lk_mread n k : presleep x (lq k) u -> lok x u [MRead; YLoop; FC (BRet n k 0)]
+| lk_mflip n k : presleep x (lq k) u -> lok x u [MFlip; YLoop; FC (BRet n k 0)]
+| lk_asleep n k : asleep_ok x (lq k) u -> lok x u [Asleep; YLoop; FC (BRet n k 0)]
+| lk_resume n k : ~ Qp x (lq k) u -> quiet (mem (base x)) u -> fnode (mem (base x)) u <> O ->
                   lok x u [Resume; YLoop; FC (BRet n k 0)]
-| lk_khead wc n k : serl x u -> infl x = None -> lok x u [KHead 0 (count - 1) wc; FC (BRet n k 1)]
-| lk_knext wc h n k : serl x u -> infl x = None -> h = qhead (mem (base x)) 0%nat ->
-                      lok x u [KNext 0 (count - 1) wc h; FC (BRet n k 1)]
-| lk_ksethead wc h nx n k : serl x u -> infl x = None -> h = qhead (mem (base x)) 0%nat -> nx <> O ->
+| lk_khead wc n k : serl x u -> infl x (lq k) = None -> lok x u [KHead (lq k) (count - 1) wc; FC (BRet n k 1)]
+| lk_knext wc h n k : serl x u -> infl x (lq k) = None -> h = qhead (mem (base x)) (lq k) ->
+                      lok x u [KNext (lq k) (count - 1) wc h; FC (BRet n k 1)]
+| lk_ksethead wc h nx n k : serl x u -> infl x (lq k) = None -> h = qhead (mem (base x)) (lq k) -> nx <> O ->
                             nnext (mem (base x)) h = nx ->
-                            lok x u [KSetHead 0 (count - 1) wc h nx; FC (BRet n k 1)]
-| lk_kdata wc h nx n k f : serl x u -> h <> O -> qhead (mem (base x)) 0%nat = nx -> infl x = Some f ->
+                            lok x u [KSetHead (lq k) (count - 1) wc h nx; FC (BRet n k 1)]
+| lk_kdata wc h nx n k f : serl x u -> h <> O -> qhead (mem (base x)) (lq k) = nx -> infl x (lq k) = Some f ->
                            ndata (mem (base x)) nx = fname f ->
-                           lok x u [KData 0 (count - 1) wc h nx; FC (BRet n k 1)]
-| lk_kcopy wc h d n k f : serl x u -> h <> O -> infl x = Some f -> d = fname f ->
-                          lok x u [KCopy 0 (count - 1) wc h d; FC (BRet n k 1)]
-| lk_kout wc h n k f : serl x u -> h <> O -> infl x = Some f -> ndata (mem (base x)) h = fname f ->
-                       lok x u [KOut 0 (count - 1) wc h; FC (BRet n k 1)]
-| lk_kstate wc f n k : serl x u -> infl x = Some f -> fnode (mem (base x)) f <> O ->
-                       lok x u [KState 0 (count - 1) wc f; FC (BRet n k 1)]
-| lk_kready wc f n k : serl x u -> infl x = Some f -> fnode (mem (base x)) f <> O ->
+                           lok x u [KData (lq k) (count - 1) wc h nx; FC (BRet n k 1)]
+| lk_kcopy wc h d n k f : serl x u -> h <> O -> infl x (lq k) = Some f -> d = fname f ->
+                          lok x u [KCopy (lq k) (count - 1) wc h d; FC (BRet n k 1)]
+| lk_kout wc h n k f : serl x u -> h <> O -> infl x (lq k) = Some f -> ndata (mem (base x)) h = fname f ->
+                       lok x u [KOut (lq k) (count - 1) wc h; FC (BRet n k 1)]
+| lk_kstate wc f n k : serl x u -> infl x (lq k) = Some f -> fnode (mem (base x)) f <> O ->
+                       lok x u [KState (lq k) (count - 1) wc f; FC (BRet n k 1)]
+| lk_kready wc f n k : serl x u -> infl x (lq k) = Some f -> fnode (mem (base x)) f <> O ->
                        fstate (mem (base x)) f = ST_WAITING ->
-                       lok x u [KReady 0 (count - 1) wc f; FC (BRet n k 1)]
-| lk_kyread wc n k : serl x u -> infl x = None -> lok x u [YRead; KSpin 0 (count - 1) wc; FC (BRet n k 1)]
-| lk_kynext wc n k : serl x u -> infl x = None ->
-                     lok x u [YNext ST_RUNNING; KSpin 0 (count - 1) wc; FC (BRet n k 1)].
+                       lok x u [KReady (lq k) (count - 1) wc f; FC (BRet n k 1)]
+| lk_kyread wc n k : serl x u -> infl x (lq k) = None -> lok x u [YRead; KSpin (lq k) (count - 1) wc; FC (BRet n k 1)]
+| lk_kynext wc n k : serl x u -> infl x (lq k) = None ->
+                     lok x u [YNext ST_RUNNING; KSpin (lq k) (count - 1) wc; FC (BRet n k 1)].
 
-Definition noser (x : ist) : Prop := forall S, ~ is_ser (stk (base x) S).
+Definition noser (x : ist) : Prop := forall sr, ~ is_ser (stk (base x) sr).
+Definition gen (x : ist) : Z := word (mem (base x)) 0%nat / count.
 
-(* generations *)
+(* generations.  gen x = number of complete groups of count arrivals; the round
+   being filled is gen x + 1 *)
 Record GA (x : ist) : Prop := {
   g_nthr : nthr (base x) = Z.to_nat count;
   g_word : 0 <= word (mem (base x)) 0%nat;
-  g_ser1 : forall S S', is_ser (stk (base x) S) -> is_ser (stk (base x) S') -> S = S';
-  g_serw : forall S, is_ser (stk (base x) S) ->
-           (S < nthr (base x))%nat /\
-           word (mem (base x)) 0%nat = Z.of_nat (rnd (stk (base x) S)) * count /\
-           Z.of_nat (length (pw x)) = count - 1 - wcof (stk (base x) S) /\
-           0 <= wcof (stk (base x) S) /\ (wcof (stk (base x) S) < count - 1 \/ count = 1);
-  g_noser : noser x -> Z.of_nat (length (pw x)) = word (mem (base x)) 0%nat mod count;
-  g_pw_nodup : NoDup (pw x);
-  g_pw : forall u, In u (pw x) ->
-         (u < nthr (base x))%nat /\ is_wait (stk (base x) u) /\
-         (forall S, is_ser (stk (base x) S) -> rnd (stk (base x) u) = rnd (stk (base x) S)) /\
-         (noser x -> Z.of_nat (rnd (stk (base x) u)) = word (mem (base x)) 0%nat / count + 1);
+  g_ser1 : forall sr sr', is_ser (stk (base x) sr) -> is_ser (stk (base x) sr') -> sr = sr';
+  (* the serial fiber S of round k: no other round has been completed since *)
+  g_serw : forall sr, is_ser (stk (base x) sr) ->
+           let k := rnd (stk (base x) sr) in
+           (sr < nthr (base x))%nat /\ Z.of_nat k = gen x /\
+           Z.of_nat (length (pw x (lq k))) = count - 1 - wcof (stk (base x) sr) /\
+           0 <= wcof (stk (base x) sr) /\ (wcof (stk (base x) sr) < count - 1 \/ count = 1) /\
+           Z.of_nat (length (pw x (lq (S k)))) = word (mem (base x)) 0%nat mod count /\
+           infl x (lq (S k)) = None;
+  g_noser : noser x ->
+            Z.of_nat (length (pw x (lq (S (Z.to_nat (gen x)))))) = word (mem (base x)) 0%nat mod count /\
+            pw x (lq (Z.to_nat (gen x))) = [] /\ (forall q, (q < 2)%nat -> infl x q = None);
+  g_pw_nodup : forall q, NoDup (pw x q);
+  g_pw : forall q u, In u (pw x q) ->
+         (u < nthr (base x))%nat /\ is_wait (stk (base x) u) /\ lq (rnd (stk (base x) u)) = q /\
+         (Z.of_nat (rnd (stk (base x) u)) = gen x \/ Z.of_nat (rnd (stk (base x) u)) = gen x + 1) /\
+         (noser x -> Z.of_nat (rnd (stk (base x) u)) = gen x + 1);
   g_pre : forall u k, (u < nthr (base x))%nat -> pre_round (stk (base x) u) = Some k ->
-          noser x /\ Z.of_nat k = word (mem (base x)) 0%nat / count + 1;
-  g_woken : forall u, is_wait (stk (base x) u) -> ~ In u (pw x) ->
-            (forall S, is_ser (stk (base x) S) -> rnd (stk (base x) u) = rnd (stk (base x) S)) /\
-            (noser x -> Z.of_nat (rnd (stk (base x) u)) = word (mem (base x)) 0%nat / count) /\
-            Z.of_nat (rnd (stk (base x) u)) * count <= word (mem (base x)) 0%nat;
+          Z.of_nat k = gen x + 1;
+  g_woken : forall u, is_wait (stk (base x) u) -> ~ In u (pw x (lq (rnd (stk (base x) u)))) ->
+            Z.of_nat (rnd (stk (base x) u)) = gen x;
   g_rets : forall t k r, In (t, k, r) (rets x) -> Z.of_nat k * count <= word (mem (base x)) 0%nat;
   g_arr : forall i t k v, nth_error (arr x) i = Some (t, k, v) -> Z.of_nat k = Z.of_nat i / count + 1;
-  g_wait_lt : forall u, is_wait (stk (base x) u) -> (u < nthr (base x))%nat;
-  g_infl_none : noser x -> infl x = None
+  g_wait_lt : forall u, is_wait (stk (base x) u) -> (u < nthr (base x))%nat
 }.
 
-(* the waiter list *)
-Record GL (x : ist) : Prop := {
-  g_nodes_nodup : NoDup (nodes x);
-  g_nodes_nz : forall nd, In nd (nodes x) -> nd <> O;
-  g_tail : qtail (mem (base x)) 0%nat = lastn (qhead (mem (base x)) 0%nat) (chain x);
-  g_linked : linked (mem (base x)) (stk (base x)) (qhead (mem (base x)) 0%nat) (chain x);
-  g_chain : forall nd u, In (nd, u) (chain x) -> ndata (mem (base x)) nd = fname u /\ In u (pw x);
-  g_chain_nodup : NoDup (map snd (chain x));
-  g_infl : forall f, infl x = Some f -> In f (pw x) /\ ~ In f (map snd (chain x))
+(* waiter list q *)
+Record GL (x : ist) (q : nat) : Prop := {
+  g_nodes_nodup : NoDup (nodes x q);
+  g_nodes_nz : forall nd, In nd (nodes x q) -> nd <> O;
+  g_tail : qtail (mem (base x)) q = lastn (qhead (mem (base x)) q) (chain x q);
+  g_linked : linked (mem (base x)) (stk (base x)) q (qhead (mem (base x)) q) (chain x q);
+  g_chain : forall nd u, In (nd, u) (chain x q) -> ndata (mem (base x)) nd = fname u /\ In u (pw x q);
+  g_chain_nodup : NoDup (map snd (chain x q));
+  g_infl : forall f, infl x q = Some f -> In f (pw x q) /\ ~ In f (map snd (chain x q))
 }.
 
 (* node ownership *)
 Record GN (x : ist) : Prop := {
+  g_disj : forall q q' nd, (q < 2)%nat -> (q' < 2)%nat -> In nd (nodes x q) -> In nd (nodes x q') -> q = q';
   g_fnode_inj : forall u u', fnode (mem (base x)) u <> O ->
                 fnode (mem (base x)) u = fnode (mem (base x)) u' -> u = u';
   g_held_inj : forall u u', held (stk (base x) u) <> O ->
                held (stk (base x) u) = held (stk (base x) u') -> u = u';
   g_fnode_held : forall u u', fnode (mem (base x)) u <> O -> fnode (mem (base x)) u <> held (stk (base x) u');
-  g_fnode_nodes : forall u, fnode (mem (base x)) u <> O -> ~ In (fnode (mem (base x)) u) (nodes x);
-  g_held_nodes : forall u, held (stk (base x) u) <> O -> ~ In (held (stk (base x) u)) (nodes x)
+  g_fnode_nodes : forall u q, (q < 2)%nat -> fnode (mem (base x)) u <> O -> ~ In (fnode (mem (base x)) u) (nodes x q);
+  g_held_nodes : forall u q, (q < 2)%nat -> held (stk (base x) u) <> O -> ~ In (held (stk (base x) u)) (nodes x q)
 }.
 
 Record GM (x : ist) : Prop := {
   g_cnt : cnt (base x) = count;
+  g_two : two (base x) = true;
   g_slots : slots_none (mem (base x));
   g_sched : forall u, slot_sched (mem (base x)) u = false;
   g_local : forall u, lok x u (stk (base x) u)
 }.
 
-Record G (x : ist) : Prop := { g_a : GA x; g_l : GL x; g_n : GN x; g_m : GM x }.
+Record G (x : ist) : Prop := {
+  g_a : GA x; g_l : forall q, (q < 2)%nat -> GL x q; g_n : GN x; g_m : GM x }.
 End Inv.
 (* ---- frame lemmas: what a clause depends on ---- *)
 Record same_at (m m' : kmem) (u : nat) : Prop := {
@@ -225,71 +265,79 @@ Record same_at (m m' : kmem) (u : nat) : Prop := {
 }.
 
 Record same_ghost (x x' : ist) (u : nat) : Prop := {
-  sg_q : Qp x' u <-> Qp x u;
-  sg_c : Cp x' u <-> Cp x u;
-  sg_f : Fp x' u <-> Fp x u;
-  sg_in : forall nd, In (nd, u) (chain x') <-> In (nd, u) (chain x)
+  sg_q : forall q, Qp x' q u <-> Qp x q u;
+  sg_c : forall q, Cp x' q u <-> Cp x q u;
+  sg_f : forall q, Fp x' q u <-> Fp x q u;
+  sg_in : forall q nd, In (nd, u) (chain x' q) <-> In (nd, u) (chain x q)
 }.
 
 Lemma quiet_frame m m' u : same_at m m' u -> quiet m u -> quiet m' u.
 Proof. intros [A B C D] [P Q]. split; congruence. Qed.
 
-Lemma unq_frame x x' u : same_at (mem (base x)) (mem (base x')) u -> same_ghost x x' u -> unq x u -> unq x' u.
+Lemma unq_frame x x' q u : same_at (mem (base x)) (mem (base x')) u -> same_ghost x x' u -> unq x q u -> unq x' q u.
 Proof.
-  intros S [Gq Gc Gf _] (A & B & C & D). split; [tauto|]. split; [tauto|]. split; [tauto|].
-  eapply quiet_frame; eauto.
+  intros S [Gq Gc Gf _] (A & B & C & D). specialize (Gq q). specialize (Gc q). specialize (Gf q).
+  split; [tauto|]. split; [tauto|]. split; [tauto|]. eapply quiet_frame; eauto.
 Qed.
 
-Lemma presleep_frame x x' u :
-  same_at (mem (base x)) (mem (base x')) u -> same_ghost x x' u -> presleep x u -> presleep x' u.
+Lemma presleep_frame x x' q u :
+  same_at (mem (base x)) (mem (base x')) u -> same_ghost x x' u -> presleep x q u -> presleep x' q u.
 Proof.
-  intros [A B C D] [Gq Gc Gf _]. unfold presleep. rewrite A, B, C, D. tauto.
+  intros [A B C D] [Gq Gc Gf _]. specialize (Gq q). specialize (Gc q). specialize (Gf q).
+  unfold presleep. rewrite A, B, C, D. tauto.
 Qed.
 
-Lemma postres_frame x x' u :
-  same_at (mem (base x)) (mem (base x')) u -> same_ghost x x' u -> postres x u -> postres x' u.
+Lemma postres_frame x x' q u :
+  same_at (mem (base x)) (mem (base x')) u -> same_ghost x x' u -> postres x q u -> postres x' q u.
 Proof.
-  intros S [Gq Gc Gf _]. unfold postres. intros (A & B & C & D). destruct S as [S1 S2 S3 S4].
+  intros S [Gq Gc Gf _]. specialize (Gq q). unfold postres. intros (A & B & C & D). destruct S as [S1 S2 S3 S4].
   split; [congruence|]. split; [tauto|]. split; [destruct C; split; congruence|congruence].
 Qed.
 
-Lemma asleep_frame x x' u :
-  same_at (mem (base x)) (mem (base x')) u -> same_ghost x x' u -> asleep_ok x u -> asleep_ok x' u.
+Lemma asleep_frame x x' q u :
+  same_at (mem (base x)) (mem (base x')) u -> same_ghost x x' u -> asleep_ok x q u -> asleep_ok x' q u.
 Proof.
-  intros [A B C D] [Gq Gc Gf _]. unfold asleep_ok. rewrite A, B, C, D. tauto.
+  intros [A B C D] [Gq Gc Gf _]. specialize (Gq q). specialize (Gc q). specialize (Gf q).
+  unfold asleep_ok. rewrite A, B, C, D. tauto.
 Qed.
 
 Lemma serl_frame x x' u :
   same_at (mem (base x)) (mem (base x')) u -> same_ghost x x' u -> serl x u -> serl x' u.
 Proof.
   intros S [Gq Gc Gf _]. unfold serl. intros (A & B & C & D). destruct S as [S1 S2 S3 S4].
-  split; [tauto|]. split; [destruct B; split; congruence|]. split; congruence.
+  split; [intros q; rewrite Gq; apply A|]. split; [destruct B; split; congruence|]. split; congruence.
 Qed.
 
 Lemma lok_frame count x x' u sg :
   same_at (mem (base x)) (mem (base x')) u -> same_ghost x x' u ->
-  (is_ser sg -> infl x' = infl x /\ qhead (mem (base x')) 0%nat = qhead (mem (base x)) 0%nat /\
-                (forall f, infl x = Some f -> fnode (mem (base x')) f = fnode (mem (base x)) f /\
+  (is_ser sg -> let q := lq (rnd sg) in
+                infl x' q = infl x q /\ qhead (mem (base x')) q = qhead (mem (base x)) q /\
+                (forall f, infl x q = Some f -> fnode (mem (base x')) f = fnode (mem (base x)) f /\
                      (fstate (mem (base x)) f = ST_WAITING -> fstate (mem (base x')) f = ST_WAITING)) /\
-                ndata (mem (base x')) (qhead (mem (base x)) 0%nat) = ndata (mem (base x)) (qhead (mem (base x)) 0%nat) /\
-                (nnext (mem (base x)) (qhead (mem (base x)) 0%nat) <> O ->
-                 nnext (mem (base x')) (qhead (mem (base x)) 0%nat) = nnext (mem (base x)) (qhead (mem (base x)) 0%nat))) ->
+                ndata (mem (base x')) (qhead (mem (base x)) q) = ndata (mem (base x)) (qhead (mem (base x)) q) /\
+                (nnext (mem (base x)) (qhead (mem (base x)) q) <> O ->
+                 nnext (mem (base x')) (qhead (mem (base x)) q) = nnext (mem (base x)) (qhead (mem (base x)) q))) ->
   (held sg <> O -> ndata (mem (base x')) (held sg) = ndata (mem (base x)) (held sg) /\
                    nnext (mem (base x')) (held sg) = nnext (mem (base x)) (held sg)) ->
   lok count x u sg -> lok count x' u sg.
 Proof.
   intros S Gh Hs Hh L.
-  pose proof (quiet_frame _ _ _ S) as Fq. pose proof (unq_frame _ _ _ S Gh) as Fu.
-  pose proof (presleep_frame _ _ _ S Gh) as Fp'. pose proof (postres_frame _ _ _ S Gh) as Fr.
-  pose proof (asleep_frame _ _ _ S Gh) as Fa. pose proof (serl_frame _ _ _ S Gh) as Fs.
+  pose proof (quiet_frame _ _ _ S) as Fq. pose proof (fun q => unq_frame _ _ q _ S Gh) as Fu.
+  pose proof (fun q => presleep_frame _ _ q _ S Gh) as Fp'. pose proof (fun q => postres_frame _ _ q _ S Gh) as Fr.
+  pose proof (fun q => asleep_frame _ _ q _ S Gh) as Fa. pose proof (serl_frame _ _ _ S Gh) as Fs.
   destruct S as [S1 S2 S3 S4]. destruct Gh as [Gq Gc Gf Gi].
-  destruct L; try solve [constructor; auto; try congruence; tauto].
+  destruct L; try solve [constructor; auto; try congruence; try tauto; try (rewrite Gq; assumption);
+                         try (rewrite Gf; assumption)].
   all: cbn [held] in Hh.
-  all: try (destruct Hs as (A & B & C & D & E); [do 2 eexists; reflexivity|]).
+  all: try (destruct Hs as (A & B & C & D & E); [do 2 eexists; reflexivity|]; unfold rnd in A, B, C, D, E;
+            cbn [bot last round_of] in A, B, C, D, E).
   all: try solve [econstructor; eauto; try congruence; try tauto].
   - destruct (Hh H1) as [A B]. constructor; auto; congruence.
   - destruct (Hh H1) as [A B]. constructor; auto; congruence.
-  - constructor; auto; try congruence; try tauto. apply Gi. assumption.
+  - constructor; auto; try congruence; try (rewrite Gq; assumption); try (rewrite Gf; assumption).
+    apply Gi. assumption.
+  - constructor. destruct H as [H|H]; [left|right]; auto.
+  - constructor. destruct H as [[H1 H]|[H1 H]]; [left|right]; auto.
   - subst h. constructor; auto; try congruence. rewrite E; [assumption|]. congruence.
   - subst nx. apply (lk_kdata count x' u wc h _ n k f); auto; congruence.
   - destruct (Hh H0) as [Hd _]. apply (lk_kout count x' u wc h n k f); auto; congruence.
@@ -307,8 +355,9 @@ Proof. repeat split; auto. Qed.
 
 Lemma GA_frame count x x' :
   nthr (base x') = nthr (base x) -> word (mem (base x')) 0%nat = word (mem (base x)) 0%nat ->
-  pw x' = pw x -> rets x' = rets x -> arr x' = arr x ->
-  (noser x -> infl x' = None) ->
+  (forall q, pw x' q = pw x q) -> rets x' = rets x -> arr x' = arr x ->
+  (forall q, infl x q = None -> infl x' q = None \/
+             exists sr, is_ser (stk (base x) sr) /\ q = lq (rnd (stk (base x) sr))) ->
   (forall u, same_obs (stk (base x) u) (stk (base x') u)) ->
   GA count x -> GA count x'.
 Proof.
@@ -317,29 +366,31 @@ Proof.
   assert (Hw : forall u, is_wait (stk (base x') u) <-> is_wait (stk (base x) u)) by (intros u; apply Ho).
   assert (Hn : noser x' <-> noser x).
   { unfold noser. split; intros H S; specialize (H S); rewrite Hs in *; exact H. }
-  destruct A as [A1 A2 A3 A4 A5 A6 A7 A8 A9 A10 A11 A12 A13].
-  constructor; rewrite ?En, ?Ew, ?Ep, ?Er, ?Ea; auto; try (intros u; rewrite Hw; apply A12);
-    try (rewrite Hn; exact Hin).
+  assert (Hg : gen count x' = gen count x) by (unfold gen; rewrite Ew; reflexivity).
+  assert (Hrw : forall u, is_wait (stk (base x) u) -> rnd (stk (base x') u) = rnd (stk (base x) u)).
+  { intros u H. apply (Ho u). auto. }
+  destruct A as [A1 A2 A3 A4 A5 A6 A7 A8 A9 A10 A11 A12].
+  constructor; rewrite ?En, ?Ew, ?Er, ?Ea, ?Hg; auto.
   - intros S S'. rewrite !Hs. apply A3.
-  - intros S HS. rewrite Hs in HS. destruct (Ho S) as (_ & _ & Hr & _).
-    destruct (Hr (or_introl HS)) as [-> ->]. apply A4. exact HS.
-  - rewrite Hn. exact A5.
-  - intros u Hu. rewrite Hw, Hn. destruct (A7 u Hu) as (B1 & B2 & B3 & B4).
-    destruct (Ho u) as (_ & _ & Hr & _). destruct (Hr (or_intror B2)) as [-> _].
-    split; [exact B1|]. split; [exact B2|]. split; [|exact B4].
-    intros S HS. rewrite Hs in HS. destruct (Ho S) as (_ & _ & Hr' & _).
-    destruct (Hr' (or_introl HS)) as [-> _]. apply B3. exact HS.
-  - intros u k Hu Hp. rewrite Hn. apply (A8 u k Hu). apply Ho. exact Hp.
-  - intros u. rewrite Hw, Hn. intros H1 H2. destruct (A9 u H1 H2) as (B1 & B2 & B3).
-    destruct (Ho u) as (_ & _ & Hr & _). destruct (Hr (or_intror H1)) as [-> _].
-    split; [|split; [exact B2|exact B3]]. intros S HS. rewrite Hs in HS. destruct (Ho S) as (_ & _ & Hr' & _).
-    destruct (Hr' (or_introl HS)) as [-> _]. apply B1. exact HS.
+  - intros S HS. cbv zeta. rewrite Hs in HS. destruct (Ho S) as (_ & _ & Hr & _).
+    destruct (Hr (or_introl HS)) as [-> ->]. rewrite !Ep.
+    destruct (A4 S HS) as (B1 & B2 & B3 & B4 & B5 & B6 & B7). repeat split; auto.
+    destruct (Hin _ B7) as [H|(sr & Hsr & Heq)]; [exact H|].
+    rewrite (A3 sr S Hsr HS) in Heq. exfalso. exact (lq_succ_ne _ Heq).
+  - rewrite Hn. intros H. destruct (A5 H) as (B1 & B2 & B3). rewrite !Ep. repeat split; auto.
+    intros q Hq. destruct (Hin q (B3 q Hq)) as [H'|(sr & Hsr & _)]; [exact H'|]. exfalso. exact (H sr Hsr).
+  - intros q. rewrite Ep. apply A6.
+  - intros q u. rewrite Ep. intros Hu. destruct (A7 q u Hu) as (B1 & B2 & B3 & B4 & B5).
+    rewrite Hw, Hn, (Hrw u B2). repeat split; auto.
+  - intros u k Hu Hp. apply (A8 u k Hu). apply Ho. exact Hp.
+  - intros u. rewrite Hw. intros H1. rewrite (Hrw u H1), Ep. apply A9. exact H1.
+  - intros u. rewrite Hw. apply A12.
 Qed.
 
-Lemma linked_frame m m' (sf sf' : nat -> stack bc) ch : forall a,
+Lemma linked_frame m m' (sf sf' : nat -> stack bc) q ch : forall a,
   (forall nd, In nd (a :: map fst ch) -> nnext m' nd = nnext m nd) ->
   (forall u, In u (map snd ch) -> (linking (sf' u) <-> linking (sf u)) /\ (linking (sf u) -> sf' u = sf u)) ->
-  linked m sf a ch -> linked m' sf' a ch.
+  linked m sf q a ch -> linked m' sf' q a ch.
 Proof.
   induction ch as [|[b u] rest IH]; intros a Hn Hs L; cbn in *.
   - rewrite Hn by auto. exact L.
@@ -349,7 +400,7 @@ Proof.
     + apply IH; auto.
 Qed.
 
-Lemma linked_last m sf ch : forall a, linked m sf a ch -> nnext m (lastn a ch) = O.
+Lemma linked_last m sf q ch : forall a, linked m sf q a ch -> nnext m (lastn a ch) = O.
 Proof. induction ch as [|[b u] rest IH]; intros a L; cbn in *; [exact L|]. apply IH. apply L. Qed.
 
 Lemma lastn_in a ch : In (lastn a ch) (a :: map fst ch).
@@ -358,19 +409,19 @@ Proof.
   right. apply (IH b).
 Qed.
 
-Lemma GL_frame x x' :
-  qhead (mem (base x')) 0%nat = qhead (mem (base x)) 0%nat ->
-  qtail (mem (base x')) 0%nat = qtail (mem (base x)) 0%nat ->
-  (forall nd, In nd (nodes x) -> nnext (mem (base x')) nd = nnext (mem (base x)) nd) ->
-  (forall nd, In nd (map fst (chain x)) -> ndata (mem (base x')) nd = ndata (mem (base x)) nd) ->
-  chain x' = chain x -> (forall u, In u (pw x) -> In u (pw x')) -> infl x' = infl x ->
-  (forall u, In u (map snd (chain x)) ->
+Lemma GL_frame x x' q :
+  qhead (mem (base x')) q = qhead (mem (base x)) q ->
+  qtail (mem (base x')) q = qtail (mem (base x)) q ->
+  (forall nd, In nd (nodes x q) -> nnext (mem (base x')) nd = nnext (mem (base x)) nd) ->
+  (forall nd, In nd (map fst (chain x q)) -> ndata (mem (base x')) nd = ndata (mem (base x)) nd) ->
+  chain x' q = chain x q -> (forall u, In u (pw x q) -> In u (pw x' q)) -> infl x' q = infl x q ->
+  (forall u, In u (map snd (chain x q)) ->
      (linking (stk (base x') u) <-> linking (stk (base x) u)) /\
      (linking (stk (base x) u) -> stk (base x') u = stk (base x) u)) ->
-  GL x -> GL x'.
+  GL x q -> GL x' q.
 Proof.
   intros Eh Et En Ed Ec Ep Ei Hs [L1 L2 L3 L4 L5 L6 L7].
-  assert (Eno : nodes x' = nodes x) by (unfold nodes; rewrite Eh, Ec; reflexivity).
+  assert (Eno : nodes x' q = nodes x q) by (unfold nodes; rewrite Eh, Ec; reflexivity).
   constructor; rewrite ?Eno, ?Eh, ?Et, ?Ec, ?Ei; auto.
   - eapply linked_frame; [| |exact L4]; auto.
   - intros nd u H. destruct (L5 _ _ H) as [A B]. split; [|auto].
@@ -381,12 +432,21 @@ Qed.
 Lemma GN_frame x x' :
   (forall u, fnode (mem (base x')) u = fnode (mem (base x)) u) ->
   (forall u, held (stk (base x') u) = held (stk (base x) u)) ->
-  nodes x' = nodes x ->
+  (forall q, (q < 2)%nat -> nodes x' q = nodes x q) ->
   GN x -> GN x'.
 Proof.
-  intros Ef Eh En [N1 N2 N3 N4 N5].
-  constructor; intros *; rewrite ?Ef, ?Eh, ?En; auto.
+  intros Ef Eh En [N0 N1 N2 N3 N4 N5].
+  constructor.
+  - intros q q' nd Hq Hq'. rewrite (En q Hq), (En q' Hq'). apply N0; assumption.
+  - intros u u'. rewrite !Ef. apply N1.
+  - intros u u'. rewrite !Eh. apply N2.
+  - intros u u'. rewrite Ef, Eh. apply N3.
+  - intros u q Hq. rewrite Ef, (En q Hq). apply N4. exact Hq.
+  - intros u q Hq. rewrite Eh, (En q Hq). apply N5. exact Hq.
 Qed.
+
+Lemma step_two s t : two (fst (step s t)) = two s.
+Proof. unfold step. destruct (kstep bc (cret (two s) (cnt s)) (mem s) t (stk s t)) as [[m1 e1] s1]. reflexivity. Qed.
 
 (* ---- steps that only touch the stepping fiber's own state/pend/blocked ---- *)
 Record priv (m m' : kmem) (t : nat) : Prop := {
@@ -428,51 +488,53 @@ Proof.
 Qed.
 
 Lemma same_ghost_refl x x' u : pw x' = pw x -> chain x' = chain x -> infl x' = infl x -> same_ghost x x' u.
-Proof. intros A B C. constructor; unfold Qp, Cp, Fp; rewrite ?A, ?B, ?C; tauto. Qed.
+Proof. intros A B C. constructor; intros; unfold Qp, Cp, Fp; rewrite ?A, ?B, ?C; tauto. Qed.
 
 Lemma private_step count x t m1 e1 s1 :
   G count x ->
-  kstep bc (cret count) (mem (base x)) t (stk (base x) t) = (m1, e1, s1) ->
+  kstep bc (cret true count) (mem (base x)) t (stk (base x) t) = (m1, e1, s1) ->
   priv (mem (base x)) m1 t ->
   same_obs (stk (base x) t) s1 -> held s1 = held (stk (base x) t) ->
   ~ linking (stk (base x) t) -> ~ linking s1 ->
   (chain (lstep x t) = chain x /\ infl (lstep x t) = infl x /\ pw (lstep x t) = pw x) ->
   (bot s1 = bot (stk (base x) t) \/ exists n k, bot (stk (base x) t) = Some (BNext n k)) ->
-  (infl x = Some t -> fstate (mem (base x)) t = ST_WAITING -> fstate m1 t = ST_WAITING) ->
+  (forall q, (q < 2)%nat -> infl x q = Some t -> fstate (mem (base x)) t = ST_WAITING -> fstate m1 t = ST_WAITING) ->
   (mem (base (lstep x t)) = m1 -> pw (lstep x t) = pw x -> chain (lstep x t) = chain x ->
    infl (lstep x t) = infl x -> lok count (lstep x t) t s1) ->
   G count (lstep x t).
 Proof.
   intros [A L N M] K P So Hh Nl Nl' Gn Hb Hw Hl.
-  pose proof (g_cnt _ _ M) as Ec.
-  assert (K' : kstep bc (cret (cnt (base x))) (mem (base x)) t (stk (base x) t) = (m1, e1, s1)) by (rewrite Ec; exact K).
+  pose proof (g_cnt _ _ M) as Ec. pose proof (g_two _ _ M) as Etw.
+  assert (K' : kstep bc (cret (two (base x)) (cnt (base x))) (mem (base x)) t (stk (base x) t) = (m1, e1, s1)) by (rewrite Ec, Etw; exact K).
   destruct (lstep_view x t m1 e1 s1 K') as (Em & Es & Eo & Ecn & Enn).
   destruct Gn as (Gc & Gi & Gp).
   assert (Eb : bot (stk (base (lstep x t)) t) = bot (stk (base x) t) \/ exists n k, bot (stk (base x) t) = Some (BNext n k))
     by (rewrite Es; exact Hb).
   destruct (bot_same_logs x t Eb) as [Gr Ga].
   destruct P as [P1 P2 P3 P4 P5 P6 P7 P8 P9 P10 P11 P12 P13].
-  assert (Eno : nodes (lstep x t) = nodes x) by (unfold nodes; rewrite Em, P4, Gc; reflexivity).
+  assert (Eno : forall q, nodes (lstep x t) q = nodes x q) by (intros q; unfold nodes; rewrite Em, P4, Gc; reflexivity).
   constructor.
-  - apply (GA_frame count x); auto; try (rewrite Em, P3; reflexivity); try (intros Hns; rewrite Gi; apply (g_infl_none _ _ A Hns)).
+  - apply (GA_frame count x); [exact Enn|rewrite Em, P3; reflexivity|intros q; rewrite Gp; reflexivity|exact Gr|exact Ga
+                              |intros q Hq; left; rewrite Gi; exact Hq| |exact A].
     intros u. destruct (Nat.eq_dec u t) as [->|Ne]; [rewrite Es; exact So|].
     rewrite Eo by exact Ne. apply same_obs_refl.
-  - apply (GL_frame x); auto; try (rewrite Em, ?P1, ?P2, ?P4, ?P5; reflexivity).
+  - intros q Hq. apply (GL_frame x); auto; try (rewrite Em, ?P1, ?P2, ?P4, ?P5; reflexivity); try (rewrite ?Gc, ?Gi; reflexivity).
     + rewrite Gp. auto.
     + intros u _. destruct (Nat.eq_dec u t) as [->|Ne]; [rewrite Es; tauto|].
-    rewrite Eo by exact Ne. tauto.
+      rewrite Eo by exact Ne. tauto.
   - apply (GN_frame x); auto; try (intros; rewrite Em, P6; reflexivity).
     intros u. destruct (Nat.eq_dec u t) as [->|Ne]; [rewrite Es; exact Hh|]. rewrite Eo by exact Ne. reflexivity.
-  - destruct M as [M1 M2 M3 M4]. constructor.
+  - destruct M as [M1 M0 M2 M3 M4]. constructor.
     + rewrite Ecn. exact M1.
+    + rewrite lstep_erase, step_two. exact M0.
     + rewrite Em. eapply slots_none_same; eauto.
     + intros u. rewrite Em, P10. apply M3.
     + intros u. destruct (Nat.eq_dec u t) as [->|Ne]; [rewrite Es; apply Hl; assumption|].
       rewrite Eo by exact Ne. apply (lok_frame count x); [| | | |apply M4].
       * rewrite Em. constructor; [apply P11|apply P12|apply P13|rewrite P6]; auto.
       * apply same_ghost_refl; assumption.
-      * intros _. rewrite Em, P4, P1, P2, P6. repeat split; auto.
-        intros Hf. destruct (Nat.eq_dec f t) as [->|Nf]; [apply Hw; assumption|].
+      * intros _. cbv zeta. rewrite Em, P4, P1, P2, P6, Gi. repeat split; auto.
+        intros Hf. destruct (Nat.eq_dec f t) as [->|Nf]; [eapply (Hw _ (lq_lt _)); eauto|].
         rewrite P11 by exact Nf. exact Hf.
       * intros _. rewrite Em, P1, P2. auto.
 Qed.
@@ -487,20 +549,38 @@ Section Steps.
 Variable count : Z.
 Hypothesis Hcount : 1 <= count.
 
-Lemma ghost_unq x x' t :
+(* the fiber whose entry is in flight on list q waits in a round that uses list q *)
+Lemma infl_own x q t :
+  G count x -> (q < 2)%nat -> infl x q = Some t ->
+  In t (pw x q) /\ ~ In t (map snd (chain x q)) /\ is_wait (stk (base x) t) /\ lq (rnd (stk (base x) t)) = q.
+Proof.
+  intros Gx Hq Hi. destruct (g_infl _ _ (g_l _ _ Gx q Hq) _ Hi) as [A B].
+  destruct (g_pw _ _ (g_a _ _ Gx) q t A) as (_ & C & D & _). auto.
+Qed.
+
+Lemma no_infl x t n k r :
+  G count x -> bot (stk (base x) t) = Some (BRet n k r) -> (~ Fp x (lq k) t \/ ~ Qp x (lq k) t \/ r = 1) ->
+  forall q, (q < 2)%nat -> infl x q = Some t -> False.
+Proof.
+  intros Gx Hb Hn q Hq Hi. destruct (infl_own x q t Gx Hq Hi) as (A & _ & (n' & k' & C) & D).
+  unfold rnd in D. rewrite Hb in D, C. cbn in D. subst q. destruct Hn as [Hn|[Hn|Hn]]; [exact (Hn Hi)|exact (Hn A)|].
+  subst r. discriminate.
+Qed.
+
+Lemma ghost_unq x x' q t :
   pw x' = pw x -> chain x' = chain x -> infl x' = infl x ->
   pend (mem (base x')) t = pend (mem (base x)) t -> blocked (mem (base x')) t = blocked (mem (base x)) t ->
-  unq x t -> unq x' t.
+  unq x q t -> unq x' q t.
 Proof.
   intros A B C D E (U1 & U2 & U3 & U4 & U5). unfold unq, Qp, Cp, Fp, quiet in *.
   rewrite A, B, C, D, E. tauto.
 Qed.
 
 Lemma step_wsaving x t n k :
-  G count x -> stk (base x) t = [WSaving 0; FC (BRet n k 0)] -> G count (lstep x t).
+  G count x -> stk (base x) t = [WSaving (lq k); FC (BRet n k 0)] -> G count (lstep x t).
 Proof.
   intros Gx E. pose proof (g_local _ _ (g_m _ _ Gx) t) as L. rewrite E in L. inversion L; subst.
-  match goal with H : unq _ _ |- _ => pose proof H as (Uq & Uc & Uf & Uqt) end.
+  match goal with H : unq _ _ _ |- _ => pose proof H as (Uq & Uc & Uf & Uqt) end.
   eapply (private_step count x t); [exact Gx|rewrite E; cbn [kstep]; reflexivity|..]; rewrite ?E.
   - priv_tac.
   - obs.
@@ -509,7 +589,7 @@ Proof.
   - cbn. tauto.
   - apply ghost_neutral_eq; rewrite E; exact I.
   - left; reflexivity.
-  - intros Hi. exfalso. exact (Uf Hi).
+  - intros q Hq Hi. exfalso. eapply (no_infl x t n k 0 Gx); eauto. rewrite E; reflexivity.
   - intros Em Ep Ech Ei. constructor.
     + eapply ghost_unq; eauto; rewrite Em; reflexivity.
     + rewrite Em. assumption.
@@ -519,13 +599,13 @@ Qed.
 Ltac inv_local Gx t E L :=
   pose proof (g_local _ _ (g_m _ _ Gx) t) as L; rewrite E in L; inversion L; subst; clear L.
 
-Lemma ghost_presleep x x' t :
+Lemma ghost_presleep x x' q t :
   pw x' = pw x -> chain x' = chain x -> infl x' = infl x -> mem (base x') = mem (base x) ->
-  presleep x t -> presleep x' t.
+  presleep x q t -> presleep x' q t.
 Proof. intros A B C D. apply presleep_frame; [rewrite D; constructor; reflexivity|apply same_ghost_refl; auto]. Qed.
-Lemma ghost_postres x x' t :
+Lemma ghost_postres x x' q t :
   pw x' = pw x -> chain x' = chain x -> infl x' = infl x -> mem (base x') = mem (base x) ->
-  postres x t -> postres x' t.
+  postres x q t -> postres x' q t.
 Proof. intros A B C D. apply postres_frame; [rewrite D; constructor; reflexivity|apply same_ghost_refl; auto]. Qed.
 Lemma ghost_serl x x' t :
   pw x' = pw x -> chain x' = chain x -> infl x' = infl x -> mem (base x') = mem (base x) ->
@@ -575,7 +655,7 @@ Lemma step_wswread x t n k :
   G count x -> stk (base x) t = [SwRead; YLoop; FC (BRet n k 0)] -> G count (lstep x t).
 Proof.
   intros Gx E. inv_local Gx t E L.
-  match goal with H : presleep _ _ |- _ => pose proof H as (Ps & _) end.
+  match goal with H : presleep _ _ _ |- _ => pose proof H as (Ps & _) end.
   eapply (private_step count x t); [exact Gx|rewrite E; cbn [kstep]; rewrite Ps; reflexivity|..]; rewrite ?E.
   - apply priv_refl.
   - obs.
@@ -608,7 +688,7 @@ Lemma step_wmread x t n k :
   G count x -> stk (base x) t = [MRead; YLoop; FC (BRet n k 0)] -> G count (lstep x t).
 Proof.
   intros Gx E. inv_local Gx t E L.
-  match goal with H : presleep _ _ |- _ => pose proof H as (Ps & _) end.
+  match goal with H : presleep _ _ _ |- _ => pose proof H as (Ps & _) end.
   eapply (private_step count x t); [exact Gx|rewrite E; cbn [kstep]; rewrite Ps; reflexivity|..]; rewrite ?E.
   - apply priv_refl.
   - obs.
@@ -625,7 +705,7 @@ Lemma step_wmflip x t n k :
   G count x -> stk (base x) t = [MFlip; YLoop; FC (BRet n k 0)] -> G count (lstep x t).
 Proof.
   intros Gx E. inv_local Gx t E L.
-  match goal with H : presleep _ _ |- _ => pose proof H as (Ps & Pb & Pc) end.
+  match goal with H : presleep _ _ _ |- _ => pose proof H as (Ps & Pb & Pc) end.
   pose proof (g_sched _ _ (g_m _ _ Gx) t) as Hsc. destruct (g_slots _ _ (g_m _ _ Gx) t) as (S1 & S2 & S3).
   destruct Pc as [(Pq & Pcf & Pp)|(Pq & Pp & Pf)].
   - eapply (private_step count x t); [exact Gx|rewrite E; cbn [kstep]; rewrite run_slots_plain by (cbn; assumption);
@@ -637,7 +717,7 @@ Proof.
     + cbn; tauto.
     + apply ghost_neutral_eq; rewrite E; exact I.
     + left; reflexivity.
-    + intros _ Hw. rewrite Ps in Hw. discriminate.
+    + intros _ _ _ Hw. rewrite Ps in Hw. discriminate.
     + intros Em Ep Ech Ei. constructor. left. unfold Qp, Cp, Fp in *. rewrite Ep, Ech, Ei, Em. cbn.
       rewrite !upd_same. auto.
   - eapply (private_step count x t); [exact Gx|rewrite E; cbn [kstep]; rewrite run_slots_plain by (cbn; assumption);
@@ -649,7 +729,7 @@ Proof.
     + cbn; tauto.
     + apply ghost_neutral_eq; rewrite E; exact I.
     + left; reflexivity.
-    + intros _ Hw. rewrite Ps in Hw. discriminate.
+    + intros _ _ _ Hw. rewrite Ps in Hw. discriminate.
     + intros Em Ep Ech Ei. constructor; unfold Qp, quiet in *; rewrite ?Ep, ?Em; cbn; rewrite ?upd_same; auto.
 Qed.
 
@@ -661,7 +741,7 @@ Proof.
   assert (Hb : blocked (mem (base x)) t = false).
   { unfold status_of in Hst. rewrite E in Hst. cbn [kstatus] in Hst.
     destruct (t <? nthr (base x))%nat; [|discriminate]. destruct (blocked (mem (base x)) t); [discriminate|reflexivity]. }
-  match goal with H : asleep_ok _ _ |- _ => destruct H as [(_ & _ & _ & Hb' & _)|(Aq & Ap & Ab & Af & As)] end; [congruence|].
+  match goal with H : asleep_ok _ _ _ |- _ => destruct H as [(_ & _ & _ & Hb' & _)|(Aq & Ap & Ab & Af & As)] end; [congruence|].
   eapply (private_step count x t); [exact Gx|rewrite E; cbn [kstep]; reflexivity|..]; rewrite ?E.
   - apply priv_refl.
   - obs.
@@ -687,7 +767,7 @@ Proof.
   - cbn; tauto.
   - apply ghost_neutral_eq; rewrite E; exact I.
   - left; reflexivity.
-  - intros Hi. exfalso. destruct (g_infl _ (g_l _ _ Gx) _ Hi) as [Hq _]. contradiction.
+  - intros q Hq Hi. exfalso. eapply (no_infl x t n k 0 Gx); eauto. rewrite E; reflexivity.
   - intros Em Ep Ech Ei. constructor. right. unfold postres, Qp, quiet in *. rewrite Ep, Em. cbn.
     rewrite !upd_same. auto.
 Qed.
@@ -695,7 +775,7 @@ Qed.
 Ltac pfin := first [apply priv_refl | obs | reflexivity | (cbn; tauto) | exact I | (left; reflexivity) | auto].
 
 Lemma step_khead x t wc n k :
-  G count x -> stk (base x) t = [KHead 0 (count - 1) wc; FC (BRet n k 1)] -> G count (lstep x t).
+  G count x -> stk (base x) t = [KHead (lq k) (count - 1) wc; FC (BRet n k 1)] -> G count (lstep x t).
 Proof.
   intros Gx E. inv_local Gx t E L.
   eapply (private_step count x t); [exact Gx|rewrite E; cbn [kstep]; reflexivity|..]; rewrite ?E.
@@ -712,7 +792,7 @@ Qed.
 
 (* KNext when the next pointer is not NULL *)
 Lemma step_knext_some x t wc h n k nx :
-  G count x -> stk (base x) t = [KNext 0 (count - 1) wc h; FC (BRet n k 1)] ->
+  G count x -> stk (base x) t = [KNext (lq k) (count - 1) wc h; FC (BRet n k 1)] ->
   nnext (mem (base x)) h = S nx -> G count (lstep x t).
 Proof.
   intros Gx E Hn. inv_local Gx t E L.
@@ -730,7 +810,7 @@ Qed.
 
 (* KNext on an empty list with more waiters to collect: yield and retry *)
 Lemma step_knext_spin x t wc h n k :
-  G count x -> stk (base x) t = [KNext 0 (count - 1) wc h; FC (BRet n k 1)] ->
+  G count x -> stk (base x) t = [KNext (lq k) (count - 1) wc h; FC (BRet n k 1)] ->
   nnext (mem (base x)) h = O -> (0 <? count - 1) = true -> G count (lstep x t).
 Proof.
   intros Gx E Hn Hc. inv_local Gx t E L.
@@ -747,7 +827,7 @@ Proof.
 Qed.
 
 Lemma step_kdata x t wc h nx n k :
-  G count x -> stk (base x) t = [KData 0 (count - 1) wc h nx; FC (BRet n k 1)] -> G count (lstep x t).
+  G count x -> stk (base x) t = [KData (lq k) (count - 1) wc h nx; FC (BRet n k 1)] -> G count (lstep x t).
 Proof.
   intros Gx E. inv_local Gx t E L.
   eapply (private_step count x t); [exact Gx|rewrite E; cbn [kstep]; reflexivity|..]; rewrite ?E.
@@ -763,7 +843,7 @@ Proof.
 Qed.
 
 Lemma step_kyread x t wc n k :
-  G count x -> stk (base x) t = [YRead; KSpin 0 (count - 1) wc; FC (BRet n k 1)] -> G count (lstep x t).
+  G count x -> stk (base x) t = [YRead; KSpin (lq k) (count - 1) wc; FC (BRet n k 1)] -> G count (lstep x t).
 Proof.
   intros Gx E. inv_local Gx t E L.
   match goal with H : serl _ _ |- _ => pose proof H as (_ & _ & _ & Hr) end.
@@ -781,7 +861,7 @@ Qed.
 
 (* the yield of a failed pop returns at once: retry *)
 Lemma step_kynext_retry x t wc n k :
-  G count x -> stk (base x) t = [YNext ST_RUNNING; KSpin 0 (count - 1) wc; FC (BRet n k 1)] ->
+  G count x -> stk (base x) t = [YNext ST_RUNNING; KSpin (lq k) (count - 1) wc; FC (BRet n k 1)] ->
   (wc <? count - 1) = true -> G count (lstep x t).
 Proof.
   intros Gx E Hc. inv_local Gx t E L.
@@ -810,13 +890,12 @@ Proof.
   - destruct n; cbn; tauto.
   - apply ghost_neutral_eq; rewrite E; exact I.
   - right. do 2 eexists. reflexivity.
-  - intros Hi. exfalso. destruct (g_infl _ (g_l _ _ Gx) _ Hi) as [Hq _].
-    destruct (g_pw _ _ (g_a _ _ Gx) _ Hq) as (_ & (n' & k' & Hw) & _). rewrite E in Hw. discriminate.
+  - intros q Hq Hi. exfalso. destruct (infl_own x q t Gx Hq Hi) as (_ & _ & (n' & k' & Hw) & _). rewrite E in Hw. discriminate.
   - intros Em Ep Ech Ei. destruct n; cbn; constructor; unfold quiet in *; rewrite ?Em; cbn; rewrite ?upd_same; auto.
 Qed.
 
 Lemma step_kstate_waiting x t wc f n k :
-  G count x -> stk (base x) t = [KState 0 (count - 1) wc f; FC (BRet n k 1)] ->
+  G count x -> stk (base x) t = [KState (lq k) (count - 1) wc f; FC (BRet n k 1)] ->
   fstate (mem (base x)) f = ST_WAITING -> G count (lstep x t).
 Proof.
   intros Gx E Hf. inv_local Gx t E L.
@@ -845,7 +924,7 @@ Record wr (m m' : kmem) (w : nat) : Prop := {
 
 Lemma held_write_step x t m1 e1 s1 w :
   G count x ->
-  kstep bc (cret count) (mem (base x)) t (stk (base x) t) = (m1, e1, s1) ->
+  kstep bc (cret true count) (mem (base x)) t (stk (base x) t) = (m1, e1, s1) ->
   w = held (stk (base x) t) -> w <> O -> held s1 = w ->
   wr (mem (base x)) m1 w ->
   same_obs (stk (base x) t) s1 -> ~ linking (stk (base x) t) -> ~ linking s1 ->
@@ -856,39 +935,42 @@ Lemma held_write_step x t m1 e1 s1 w :
   G count (lstep x t).
 Proof.
   intros [A L N M] K Hw Hnz Hh W So Nl Nl' (Gc & Gi & Gp) Hb Hl.
-  pose proof (g_cnt _ _ M) as Ec.
-  assert (K' : kstep bc (cret (cnt (base x))) (mem (base x)) t (stk (base x) t) = (m1, e1, s1)) by (rewrite Ec; exact K).
+  pose proof (g_cnt _ _ M) as Ec. pose proof (g_two _ _ M) as Etw.
+  assert (K' : kstep bc (cret (two (base x)) (cnt (base x))) (mem (base x)) t (stk (base x) t) = (m1, e1, s1)) by (rewrite Ec, Etw; exact K).
   destruct (lstep_view x t m1 e1 s1 K') as (Em & Es & Eo & Ecn & Enn).
   assert (Eb : bot (stk (base (lstep x t)) t) = bot (stk (base x) t) \/ exists n k, bot (stk (base x) t) = Some (BNext n k))
     by (left; rewrite Es; exact Hb).
   destruct (bot_same_logs x t Eb) as [Gr Ga].
   destruct W as [W1 W2 W3 W4 W5 W6 W7 W8 W9 W10 W11 W12 W13].
-  assert (Eno : nodes (lstep x t) = nodes x) by (unfold nodes; rewrite Em, W3, Gc; reflexivity).
-  assert (Hwn : ~ In w (nodes x)) by (rewrite Hw; apply (g_held_nodes _ N); rewrite <- Hw; exact Hnz).
-  assert (Hne : forall nd, In nd (nodes x) -> nd <> w) by (intros nd Hi ->; exact (Hwn Hi)).
+  assert (Eno : forall q, nodes (lstep x t) q = nodes x q) by (intros q; unfold nodes; rewrite Em, W3, Gc; reflexivity).
+  assert (Hwn : forall q, (q < 2)%nat -> ~ In w (nodes x q)).
+  { intros q Hq. rewrite Hw. apply (g_held_nodes _ N); [exact Hq|]. rewrite <- Hw; exact Hnz. }
+  assert (Hne : forall q nd, (q < 2)%nat -> In nd (nodes x q) -> nd <> w) by (intros q nd Hq Hi ->; exact (Hwn q Hq Hi)).
   constructor.
-  - apply (GA_frame count x); auto; try (rewrite Em, W2; reflexivity); try (intros Hns; rewrite Gi; apply (g_infl_none _ _ A Hns)).
+  - apply (GA_frame count x); [exact Enn|rewrite Em, W2; reflexivity|intros q; rewrite Gp; reflexivity|exact Gr|exact Ga
+                              |intros q Hq; left; rewrite Gi; exact Hq| |exact A].
     intros u. destruct (Nat.eq_dec u t) as [->|Ne]; [rewrite Es; exact So|].
     rewrite Eo by exact Ne. apply same_obs_refl.
-  - apply (GL_frame x); auto; try (rewrite Em, ?W3, ?W4; reflexivity).
-    + intros nd Hi. rewrite Em. apply W13. auto.
-    + intros nd Hi. rewrite Em. apply W12. apply Hne. right. exact Hi.
+  - intros q Hq. apply (GL_frame x); auto; try (rewrite Em, ?W3, ?W4; reflexivity); try (rewrite ?Gc, ?Gi; reflexivity).
+    + intros nd Hi. rewrite Em. apply W13. eauto.
+    + intros nd Hi. rewrite Em. apply W12. apply (Hne q); [exact Hq|]. right. exact Hi.
     + rewrite Gp. auto.
     + intros u _. destruct (Nat.eq_dec u t) as [->|Ne]; [rewrite Es; tauto|].
       rewrite Eo by exact Ne. tauto.
   - apply (GN_frame x); auto; try (intros; rewrite Em, W5; reflexivity).
     intros u. destruct (Nat.eq_dec u t) as [->|Ne]; [rewrite Es; congruence|]. rewrite Eo by exact Ne. reflexivity.
-  - destruct M as [M1 M2 M3 M4]. constructor.
+  - destruct M as [M1 M0 M2 M3 M4]. constructor.
     + rewrite Ecn. exact M1.
+    + rewrite lstep_erase, step_two. exact M0.
     + rewrite Em. eapply slots_none_same; eauto.
     + intros u. rewrite Em, W11. apply M3.
     + intros u. destruct (Nat.eq_dec u t) as [->|Ne]; [rewrite Es; apply Hl; assumption|].
       rewrite Eo by exact Ne. apply (lok_frame count x); [| | | |apply M4].
       * rewrite Em. constructor; [rewrite W1|rewrite W7|rewrite W6|rewrite W5]; reflexivity.
       * apply same_ghost_refl; assumption.
-      * intros _. rewrite Em, W3, W5, W1. repeat split; auto.
-        -- apply W12. apply Hne. left. reflexivity.
-        -- intros _. apply W13. apply Hne. left. reflexivity.
+      * intros _. cbv zeta. rewrite Em, W3, W5, W1, Gi. repeat split; auto.
+        -- apply W12. apply (Hne (lq (rnd (stk (base x) u)))); [apply lq_lt|]. left. reflexivity.
+        -- intros _. apply W13. apply (Hne (lq (rnd (stk (base x) u)))); [apply lq_lt|]. left. reflexivity.
       * intros Hu. assert (held (stk (base x) u) <> w).
         { intros Eq. apply Ne. apply (g_held_inj _ N); [exact Hu|congruence]. }
         rewrite Em. split; [apply W12|apply W13]; assumption.
@@ -897,7 +979,7 @@ Qed.
 Ltac wr_tac := constructor; try reflexivity; intros; cbn; apply upd_other; auto.
 
 Lemma step_wnext x t nd n k :
-  G count x -> stk (base x) t = [WNext 0 nd; FC (BRet n k 0)] -> G count (lstep x t).
+  G count x -> stk (base x) t = [WNext (lq k) nd; FC (BRet n k 0)] -> G count (lstep x t).
 Proof.
   intros Gx E. inv_local Gx t E L.
   eapply (held_write_step x t _ _ _ nd); [exact Gx|rewrite E; cbn [kstep]; reflexivity|..]; rewrite ?E.
@@ -915,7 +997,7 @@ Proof.
 Qed.
 
 Lemma step_kcopy x t wc h d n k :
-  G count x -> stk (base x) t = [KCopy 0 (count - 1) wc h d; FC (BRet n k 1)] -> G count (lstep x t).
+  G count x -> stk (base x) t = [KCopy (lq k) (count - 1) wc h d; FC (BRet n k 1)] -> G count (lstep x t).
 Proof.
   intros Gx E. inv_local Gx t E L.
   eapply (held_write_step x t _ _ _ h); [exact Gx|rewrite E; cbn [kstep]; reflexivity|..]; rewrite ?E.
@@ -933,15 +1015,17 @@ Proof.
 Qed.
 
 Lemma step_wdata x t n k :
-  G count x -> stk (base x) t = [WData 0; FC (BRet n k 0)] -> G count (lstep x t).
+  G count x -> stk (base x) t = [WData (lq k); FC (BRet n k 0)] -> G count (lstep x t).
 Proof.
   intros Gx E. inv_local Gx t E L.
-  match goal with H : unq _ _ |- _ => pose proof H as (Uq & Uc & Uf & Uqt) end.
+  match goal with H : unq _ _ _ |- _ => pose proof H as (Uq & Uc & Uf & Uqt) end.
+  assert (Hnf : forall q, (q < 2)%nat -> infl x q = Some t -> False).
+  { eapply (no_infl x t n k 0 Gx); eauto. rewrite E; reflexivity. }
   destruct Gx as [A Lg N M].
   set (m := mem (base x)) in *. set (nd := fnode m t) in *.
   pose proof (g_cnt _ _ M) as Ec.
-  assert (K : kstep bc (cret (cnt (base x))) m t (stk (base x) t)
-              = (set_fnode (set_ndata m nd (fname t)) t O, ev t (l_data nd) 19 (fname t), [WNext 0 nd; FC (BRet n k 0)])).
+  assert (K : kstep bc (cret (two (base x)) (cnt (base x))) m t (stk (base x) t)
+              = (set_fnode (set_ndata m nd (fname t)) t O, ev t (l_data nd) 19 (fname t), [WNext (lq k) nd; FC (BRet n k 0)])).
   { rewrite E. reflexivity. }
   destruct (lstep_view x t _ _ _ K) as (Em & Es & Eo & Ecn & Enn).
   assert (Gn : ghost_neutral (stk (base x) t)) by (rewrite E; exact I).
@@ -949,35 +1033,40 @@ Proof.
   assert (Eb : bot (stk (base (lstep x t)) t) = bot (stk (base x) t) \/ exists n k, bot (stk (base x) t) = Some (BNext n k))
     by (left; rewrite Es, E; reflexivity).
   destruct (bot_same_logs x t Eb) as [Gr Ga].
-  assert (Eno : nodes (lstep x t) = nodes x) by (unfold nodes; rewrite Em, Gc; reflexivity).
+  assert (Eno : forall q, nodes (lstep x t) q = nodes x q) by (intros q; unfold nodes; rewrite Em, Gc; reflexivity).
   assert (Hnd : nd <> O) by assumption.
-  assert (Hwn : ~ In nd (nodes x)) by (apply (g_fnode_nodes _ N); exact Hnd).
+  assert (Hwn : forall q, (q < 2)%nat -> ~ In nd (nodes x q)) by (intros q Hq; apply (g_fnode_nodes _ N); assumption).
   assert (Hf' : forall u, fnode (mem (base (lstep x t))) u = if Nat.eqb u t then O else fnode m u).
   { intros u. rewrite Em. cbn. unfold upd. reflexivity. }
   assert (Hh' : forall u, held (stk (base (lstep x t)) u) = if Nat.eqb u t then nd else held (stk (base x) u)).
   { intros u. destruct (Nat.eqb_spec u t) as [->|Ne]; [rewrite Es; reflexivity|rewrite Eo by exact Ne; reflexivity]. }
   assert (Hht : held (stk (base x) t) = O) by (rewrite E; reflexivity).
   constructor.
-  - apply (GA_frame count x); auto; try (rewrite Em; reflexivity); try (intros Hns; rewrite Gi; apply (g_infl_none _ _ A Hns));
-      try (intros Hns; exfalso; apply (Hns t); rewrite E; do 2 eexists; reflexivity).
+  - apply (GA_frame count x); [exact Enn|rewrite Em; reflexivity|intros q; rewrite Gp; reflexivity|exact Gr|exact Ga
+                              |intros q Hq; left; rewrite Gi; exact Hq| |exact A].
     intros u. destruct (Nat.eq_dec u t) as [->|Ne]; [rewrite Es, E; obs|].
     rewrite Eo by exact Ne. apply same_obs_refl.
-  - apply (GL_frame x); auto; try (rewrite Em; reflexivity).
-    + intros nd' Hi. rewrite Em. cbn. apply upd_other. intros ->. apply Hwn. right. exact Hi.
+  - intros q Hq. apply (GL_frame x); auto; try (rewrite Em; reflexivity); try (rewrite ?Gc, ?Gi; reflexivity).
+    + intros nd' Hi. rewrite Em. cbn. apply upd_other. intros ->. apply (Hwn q Hq). right. exact Hi.
     + rewrite Gp. auto.
     + intros u _. destruct (Nat.eq_dec u t) as [->|Ne]; [rewrite Es, E; cbn; tauto|].
       rewrite Eo by exact Ne. tauto.
-  - destruct N as [N1 N2 N3 N4 N5]. constructor; intros *; rewrite ?Hf', ?Hh', ?Eno.
-    + destruct (Nat.eqb_spec u t) as [->|Ne]; [congruence|]. destruct (Nat.eqb_spec u' t) as [->|Ne']; [congruence|]. apply N1.
-    + destruct (Nat.eqb_spec u t) as [->|Ne]; destruct (Nat.eqb_spec u' t) as [->|Ne']; auto.
+  - destruct N as [N0 N1 N2 N3 N4 N5]. constructor.
+    + intros q q' nd0 Hq Hq'. rewrite !Eno. apply N0; assumption.
+    + intros u u'. rewrite !Hf'.
+      destruct (Nat.eqb_spec u t) as [->|Ne]; [congruence|]. destruct (Nat.eqb_spec u' t) as [->|Ne']; [congruence|]. apply N1.
+    + intros u u'. rewrite !Hh'.
+      destruct (Nat.eqb_spec u t) as [->|Ne]; destruct (Nat.eqb_spec u' t) as [->|Ne']; auto.
       * intros _ Hq. exfalso. apply (N3 t u'); [exact Hnd|exact Hq].
       * intros _ Hq. exfalso. apply (N3 t u); [exact Hnd|symmetry; exact Hq].
-    + destruct (Nat.eqb_spec u t) as [->|Ne]; [congruence|]. destruct (Nat.eqb_spec u' t) as [->|Ne']; [|apply N3].
+    + intros u u'. rewrite Hf', Hh'.
+      destruct (Nat.eqb_spec u t) as [->|Ne]; [congruence|]. destruct (Nat.eqb_spec u' t) as [->|Ne']; [|apply N3].
       intros Hu Hq. apply Ne. apply N1; assumption.
-    + destruct (Nat.eqb_spec u t) as [->|Ne]; [congruence|apply N4].
-    + destruct (Nat.eqb_spec u t) as [->|Ne]; [intros _; exact Hwn|apply N5].
-  - destruct M as [M1 M2 M3 M4]. constructor.
+    + intros u q Hq. rewrite Hf', Eno. destruct (Nat.eqb_spec u t) as [->|Ne]; [congruence|apply N4; exact Hq].
+    + intros u q Hq. rewrite Hh', Eno. destruct (Nat.eqb_spec u t) as [->|Ne]; [intros _; exact (Hwn q Hq)|apply N5; exact Hq].
+  - destruct M as [M1 M0 M2 M3 M4]. constructor.
     + rewrite Ecn. exact M1.
+    + rewrite lstep_erase, step_two. exact M0.
     + rewrite Em. eapply slots_none_same; eauto.
     + intros u. rewrite Em. apply M3.
     + intros u. destruct (Nat.eq_dec u t) as [->|Ne].
@@ -986,10 +1075,10 @@ Proof.
       * rewrite Eo by exact Ne. apply (lok_frame count x); [| | | |apply M4].
         -- rewrite Em. constructor; cbn; try reflexivity. apply upd_other. exact Ne.
         -- apply same_ghost_refl; assumption.
-        -- intros _. rewrite Em. cbn [qhead ndata nnext fnode fstate set_fnode set_ndata].
-           split; [assumption|]. split; [reflexivity|]. split; [|split; [|intros _]].
-           ++ intros f0 Hf0. split; [|auto]. apply upd_other. intros ->. exact (Uf Hf0).
-           ++ apply upd_other. intros Hq. apply Hwn. left. exact Hq.
+        -- intros _. cbv zeta. rewrite Em, Gi. cbn [qhead ndata nnext fnode fstate set_fnode set_ndata].
+           split; [reflexivity|]. split; [reflexivity|]. split; [|split; [|intros _]].
+           ++ intros f0 Hf0. split; [|auto]. apply upd_other. intros ->. exact (Hnf _ (lq_lt _) Hf0).
+           ++ apply upd_other. intros Hq. apply (Hwn _ (lq_lt (rnd (stk (base x) u)))). left. exact Hq.
            ++ reflexivity.
         -- intros Hu. rewrite Em. cbn [qhead ndata nnext fnode fstate set_fnode set_ndata]. split; [|reflexivity]. apply upd_other.
            intros Hq. apply (g_fnode_held _ N t u); [exact Hnd|symmetry; exact Hq].
@@ -1005,19 +1094,19 @@ Proof. unfold tid_of_name, fname, Zn. replace (1000 + Z.of_nat f - 1000) with (Z
 Lemma lastn_snoc ch : forall a b u, lastn a (ch ++ [(b, u)]) = b.
 Proof. induction ch as [|[b' u'] rest IH]; intros a b u; cbn; [reflexivity|apply IH]. Qed.
 
-Lemma linked_snoc m sf ch b u : forall a,
-  linked m sf a ch -> (exists r, sf u = WLink 0 (lastn a ch) b :: r) -> nnext m b = O ->
-  linked m sf a (ch ++ [(b, u)]).
+Lemma linked_snoc m sf q ch b u : forall a,
+  linked m sf q a ch -> (exists r, sf u = WLink q (lastn a ch) b :: r) -> nnext m b = O ->
+  linked m sf q a (ch ++ [(b, u)]).
 Proof.
   induction ch as [|[b' u'] rest IH]; intros a L Hs Hb; cbn in *.
   - split; [right; split; assumption|exact Hb].
   - destruct L as [L1 L2]. split; [exact L1|]. apply IH; assumption.
 Qed.
 
-Lemma linked_link m sf sf' p b u r : forall ch a,
+Lemma linked_link m sf sf' q p b u r : forall ch a,
   NoDup (a :: map fst ch) -> NoDup (map snd ch) -> In (b, u) ch ->
-  sf u = WLink 0 p b :: r -> ~ linking (sf' u) -> (forall u', u' <> u -> sf' u' = sf u') ->
-  linked m sf a ch -> linked (set_nnext m p b) sf' a ch /\ In p (a :: map fst ch) /\ nnext m p = O.
+  sf u = WLink q p b :: r -> ~ linking (sf' u) -> (forall u', u' <> u -> sf' u' = sf u') ->
+  linked m sf q a ch -> linked (set_nnext m p b) sf' q a ch /\ In p (a :: map fst ch) /\ nnext m p = O.
 Proof.
   induction ch as [|[b' u'] rest IH]; intros a Nd Ns Hi Hs Hl Ho L; [destruct Hi|].
   cbn [linked map fst snd] in *. destruct L as [D Lr].
@@ -1028,7 +1117,7 @@ Proof.
     subst b'. destruct D as [[_ D]|[D1 [r' D2]]]; [exfalso; apply D; rewrite Hs; exact I|].
     assert (p = a) by congruence. subst p. split; [|split; [left; reflexivity|exact D1]]. split.
     + left. split; [cbn; apply upd_same|exact Hl].
-    + apply (linked_frame m _ sf sf'); [| |exact Lr].
+    + apply (linked_frame m _ sf sf' q); [| |exact Lr].
       * intros nd Hn. cbn. apply upd_other. intros ->. apply Na. exact Hn.
       * intros u' Hu'. rewrite Ho; [tauto|]. intros ->. exact (Nu Hu').
   - destruct Hi as [Hi|Hi]; [congruence|].
@@ -1037,33 +1126,61 @@ Proof.
     cbn [nnext set_nnext]. rewrite upd_other by exact H. rewrite (Ho u' Ne). exact D.
 Qed.
 
-Lemma linked_head m sf a ch nx : linked m sf a ch -> nnext m a = nx -> nx <> O ->
-  exists f rest, ch = (nx, f) :: rest /\ ~ linking (sf f) /\ linked m sf nx rest.
+Lemma linked_head m sf q a ch nx : linked m sf q a ch -> nnext m a = nx -> nx <> O ->
+  exists f rest, ch = (nx, f) :: rest /\ ~ linking (sf f) /\ linked m sf q nx rest.
 Proof.
   intros L Hn Hz. destruct ch as [|[b u] rest]; cbn in L; [congruence|].
   destruct L as [[[A B]|[A _]] Lr]; [|congruence]. exists u, rest. split; [congruence|].
   split; [exact B|]. replace nx with b by congruence. exact Lr.
 Qed.
 
+
 Section Steps2.
 Variable count : Z.
 Hypothesis Hcount : 1 <= count.
 
+(* fibers queued on the other list are in a different round *)
+Lemma not_in_chain_other x t n k r q' :
+  G count x -> bot (stk (base x) t) = Some (BRet n k r) -> (q' < 2)%nat -> q' <> lq k ->
+  ~ In t (map snd (chain x q')).
+Proof.
+  intros Gx Hb Hq Hne Hi. apply in_map_iff in Hi. destruct Hi as [[nd u] [Eq Hi]]. cbn in Eq. subst u.
+  destruct (g_chain _ _ (g_l _ _ Gx q' Hq) _ _ Hi) as [_ Hp].
+  destruct (g_pw _ _ (g_a _ _ Gx) q' t Hp) as (_ & _ & D & _). unfold rnd in D. rewrite Hb in D. cbn in D. congruence.
+Qed.
+
+(* a list that the step does not touch *)
+Lemma GL_untouched x x' t q' :
+  GL x q' ->
+  qhead (mem (base x')) q' = qhead (mem (base x)) q' -> qtail (mem (base x')) q' = qtail (mem (base x)) q' ->
+  (forall nd, In nd (nodes x q') -> nnext (mem (base x')) nd = nnext (mem (base x)) nd /\
+                                    ndata (mem (base x')) nd = ndata (mem (base x)) nd) ->
+  chain x' q' = chain x q' -> (forall u, In u (pw x q') -> In u (pw x' q')) -> infl x' q' = infl x q' ->
+  (forall u, u <> t -> stk (base x') u = stk (base x) u) -> ~ In t (map snd (chain x q')) ->
+  GL x' q'.
+Proof.
+  intros Lq Eh Et En Ec Ep Ei Eo Ht. apply (GL_frame x); auto.
+  - intros nd Hi. apply En. exact Hi.
+  - intros nd Hi. apply En. right. exact Hi.
+  - intros u Hu. rewrite Eo; [tauto|]. intros ->. exact (Ht Hu).
+Qed.
+
 (* the fiber whose entry is being consumed: its clause does not depend on its fnode *)
-Lemma lok_infl_fnode x x' f sg :
-  Qp x f -> Fp x f -> is_wait sg ->
+Lemma lok_infl_fnode x x' f sg q :
+  Qp x q f -> Fp x q f -> is_wait sg -> lq (rnd sg) = q ->
   fstate (mem (base x')) f = fstate (mem (base x)) f -> pend (mem (base x')) f = pend (mem (base x)) f ->
   blocked (mem (base x')) f = blocked (mem (base x)) f ->
   pw x' = pw x -> chain x' = chain x -> infl x' = infl x ->
   lok count x f sg -> lok count x' f sg.
 Proof.
-  intros Hq Hf Hw A B C Ep Ec Ei L.
-  assert (Q' : Qp x' f) by (unfold Qp in *; rewrite Ep; exact Hq).
-  assert (F' : Fp x' f) by (unfold Fp in *; rewrite Ei; exact Hf).
+  intros Hq Hf Hw Hrq A B C Ep Ec Ei L.
+  assert (Q' : Qp x' q f) by (unfold Qp in *; rewrite Ep; exact Hq).
+  assert (F' : Fp x' q f) by (unfold Fp in *; rewrite Ei; exact Hf).
   destruct L; try (destruct Hw as (n' & k' & Hw); discriminate);
+    unfold rnd in Hrq; cbn in Hrq; subst q;
     repeat match goal with
-           | H : unq _ _ |- _ => destruct H as (_ & _ & Hnf & _); contradiction
-           | H : serl _ _ |- _ => destruct H as (Hnq & _); contradiction
+           | H : unq _ _ _ |- _ => destruct H as (_ & _ & Hnf & _); contradiction
+           | H : serl _ _ |- _ => destruct H as (Hnq & _); exfalso; exact (Hnq _ Hq)
            end; try contradiction.
   - constructor. destruct H as [P|P].
     + left. destruct P as (P1 & P2 & [(P3 & P4 & P5)|(P3 & _)]); [|contradiction].
@@ -1086,20 +1203,21 @@ Proof.
 Qed.
 
 Lemma step_kout x t wc h n k :
-  G count x -> stk (base x) t = [KOut 0 (count - 1) wc h; FC (BRet n k 1)] -> G count (lstep x t).
+  G count x -> stk (base x) t = [KOut (lq k) (count - 1) wc h; FC (BRet n k 1)] -> G count (lstep x t).
 Proof.
   intros Gx E. inv_local Gx t E L.
   match goal with H : serl _ _ |- _ => pose proof H as (Sq & Squ & Sfn & Sfs) end.
-  match goal with H : infl x = Some _ |- _ => rename H into Hi end.
+  match goal with H : infl x _ = Some _ |- _ => rename H into Hi end.
   match goal with H : ndata _ h = _ |- _ => rename H into Hd end.
-  destruct (g_infl _ (g_l _ _ Gx) _ Hi) as [Fq Fnc].
-  destruct (g_pw _ _ (g_a _ _ Gx) _ Fq) as (Flt & Fw & _).
-  assert (Ntf : t <> f) by (intros ->; exact (Sq Fq)).
+  destruct (infl_own count x _ _ Gx (lq_lt k) Hi) as (Fq & Fnc & Fw & Frq).
+  assert (Ntf : t <> f) by (intros ->; exact (Sq _ Fq)).
+  assert (Hs1 : forall u, is_ser (stk (base x) u) -> u = t).
+  { intros u Hu. apply (g_ser1 _ _ (g_a _ _ Gx)); [exact Hu|rewrite E; do 2 eexists; reflexivity]. }
   destruct Gx as [A Lg N M].
   set (m := mem (base x)) in *.
   pose proof (g_cnt _ _ M) as Ec.
-  assert (K : kstep bc (cret (cnt (base x))) m t (stk (base x) t)
-              = (set_fnode m f h, ev t (l_data h) 9 (ndata m h), [KState 0 (count - 1) wc f; FC (BRet n k 1)])).
+  assert (K : kstep bc (cret (two (base x)) (cnt (base x))) m t (stk (base x) t)
+              = (set_fnode m f h, ev t (l_data h) 9 (ndata m h), [KState (lq k) (count - 1) wc f; FC (BRet n k 1)])).
   { rewrite E. cbn [kstep]. fold m. rewrite Hd, tid_fname. reflexivity. }
   destruct (lstep_view x t _ _ _ K) as (Em & Es & Eo & Ecn & Enn).
   assert (Gn : ghost_neutral (stk (base x) t)) by (rewrite E; exact I).
@@ -1107,33 +1225,39 @@ Proof.
   assert (Eb : bot (stk (base (lstep x t)) t) = bot (stk (base x) t) \/ exists n k, bot (stk (base x) t) = Some (BNext n k))
     by (left; rewrite Es, E; reflexivity).
   destruct (bot_same_logs x t Eb) as [Gr Ga].
-  assert (Eno : nodes (lstep x t) = nodes x) by (unfold nodes; rewrite Em, Gc; reflexivity).
+  assert (Eno : forall q, nodes (lstep x t) q = nodes x q) by (intros q; unfold nodes; rewrite Em, Gc; reflexivity).
   assert (Hht : held (stk (base x) t) = h) by (rewrite E; reflexivity).
-  assert (Hhn : ~ In h (nodes x)) by (rewrite <- Hht; apply (g_held_nodes _ N); rewrite Hht; assumption).
+  assert (Hhn : forall q, (q < 2)%nat -> ~ In h (nodes x q)).
+  { intros q Hq. rewrite <- Hht. apply (g_held_nodes _ N); [exact Hq|]. rewrite Hht; assumption. }
   assert (Hf' : forall u, fnode (mem (base (lstep x t))) u = if Nat.eqb u f then h else fnode m u).
   { intros u. rewrite Em. cbn. unfold upd. reflexivity. }
   assert (Hh' : forall u, held (stk (base (lstep x t)) u) = if Nat.eqb u t then O else held (stk (base x) u)).
   { intros u. destruct (Nat.eqb_spec u t) as [->|Ne]; [rewrite Es; reflexivity|rewrite Eo by exact Ne; reflexivity]. }
   constructor.
-  - apply (GA_frame count x); auto; try (rewrite Em; reflexivity); try (intros Hns; rewrite Gi; apply (g_infl_none _ _ A Hns));
-      try (intros Hns; exfalso; apply (Hns t); rewrite E; do 2 eexists; reflexivity).
+  - apply (GA_frame count x); [exact Enn|rewrite Em; reflexivity|intros q; rewrite Gp; reflexivity|exact Gr|exact Ga
+                              |intros q Hq; left; rewrite Gi; exact Hq| |exact A].
     intros u. destruct (Nat.eq_dec u t) as [->|Ne]; [rewrite Es, E; obs|].
     rewrite Eo by exact Ne. apply same_obs_refl.
-  - apply (GL_frame x); auto; try (rewrite Em; reflexivity).
+  - intros q Hq. apply (GL_frame x); auto; try (rewrite Em; reflexivity); try (rewrite ?Gc, ?Gi; reflexivity).
     + rewrite Gp. auto.
     + intros u _. destruct (Nat.eq_dec u t) as [->|Ne]; [rewrite Es, E; cbn; tauto|].
       rewrite Eo by exact Ne. tauto.
-  - destruct N as [N1 N2 N3 N4 N5]. constructor; intros *; rewrite ?Hf', ?Hh', ?Eno; subst m.
-    + destruct (Nat.eqb_spec u f) as [->|Ne]; destruct (Nat.eqb_spec u' f) as [->|Ne']; auto.
+  - destruct N as [N0 N1 N2 N3 N4 N5]. subst m. constructor.
+    + intros q q' nd0 Hq Hq'. rewrite !Eno. apply N0; assumption.
+    + intros u u'. rewrite !Hf'.
+      destruct (Nat.eqb_spec u f) as [->|Ne]; destruct (Nat.eqb_spec u' f) as [->|Ne']; auto.
       * intros Hz Hq. exfalso. apply (N3 u' t); [rewrite <- Hq; exact Hz|rewrite Hht; symmetry; exact Hq].
       * intros Hu Hq. exfalso. apply (N3 u t); [exact Hu|rewrite Hht; exact Hq].
-    + destruct (Nat.eqb_spec u t) as [->|Ne]; [congruence|]. destruct (Nat.eqb_spec u' t) as [->|Ne']; [congruence|apply N2].
-    + destruct (Nat.eqb_spec u f) as [->|Ne]; destruct (Nat.eqb_spec u' t) as [->|Ne']; auto.
+    + intros u u'. rewrite !Hh'.
+      destruct (Nat.eqb_spec u t) as [->|Ne]; [congruence|]. destruct (Nat.eqb_spec u' t) as [->|Ne']; [congruence|apply N2].
+    + intros u u'. rewrite Hf', Hh'.
+      destruct (Nat.eqb_spec u f) as [->|Ne]; destruct (Nat.eqb_spec u' t) as [->|Ne']; auto.
       intros _ Hq. apply Ne'. symmetry. apply N2; [rewrite Hht; assumption|congruence].
-    + destruct (Nat.eqb_spec u f) as [->|Ne]; [intros _; exact Hhn|apply N4].
-    + destruct (Nat.eqb_spec u t) as [->|Ne]; [congruence|apply N5].
-  - destruct M as [M1 M2 M3 M4]. constructor.
+    + intros u q Hq. rewrite Hf', Eno. destruct (Nat.eqb_spec u f) as [->|Ne]; [intros _; exact (Hhn q Hq)|apply N4; exact Hq].
+    + intros u q Hq. rewrite Hh', Eno. destruct (Nat.eqb_spec u t) as [->|Ne]; [congruence|apply N5; exact Hq].
+  - destruct M as [M1 M0 M2 M3 M4]. constructor.
     + rewrite Ecn. exact M1.
+    + rewrite lstep_erase, step_two. exact M0.
     + rewrite Em. eapply slots_none_same; eauto.
     + intros u. rewrite Em. apply M3.
     + intros u. destruct (Nat.eq_dec u t) as [->|Ne].
@@ -1143,92 +1267,123 @@ Proof.
         -- rewrite Gi. exact Hi.
         -- rewrite Em. cbn. rewrite upd_same. assumption.
       * rewrite Eo by exact Ne. destruct (Nat.eq_dec u f) as [->|Nuf].
-        -- apply (lok_infl_fnode x); auto; rewrite ?Em; try reflexivity.
+        -- apply (lok_infl_fnode x _ f _ (lq k)); auto; rewrite ?Em; try reflexivity.
         -- apply (lok_frame count x); [| | | |apply M4].
            ++ rewrite Em. constructor; cbn; try reflexivity. apply upd_other. exact Nuf.
            ++ apply same_ghost_refl; assumption.
-           ++ intros Hs. exfalso. apply Ne. apply (g_ser1 _ _ A); [exact Hs|rewrite E; do 2 eexists; reflexivity].
+           ++ intros Hs. exfalso. apply Ne. apply Hs1. exact Hs.
            ++ intros _. rewrite Em. auto.
 Qed.
 
 Lemma step_wxchg x t nd n k :
-  G count x -> stk (base x) t = [WXchg 0 nd; FC (BRet n k 0)] -> G count (lstep x t).
+  G count x -> stk (base x) t = [WXchg (lq k) nd; FC (BRet n k 0)] -> G count (lstep x t).
 Proof.
   intros Gx E. inv_local Gx t E L.
-  match goal with H : unq _ _ |- _ => pose proof H as (Uq & Uc & Uf & Uqt) end.
+  match goal with H : unq _ _ _ |- _ => pose proof H as (Uq & Uc & Uf & Uqt) end.
+  assert (Eb0 : bot (stk (base x) t) = Some (BRet n k 0)) by (rewrite E; reflexivity).
+  pose proof (fun q' Hq Hne => not_in_chain_other x t n k 0 q' Gx Eb0 Hq Hne) as Hoth.
+  assert (Hs1 : forall u, is_ser (stk (base x) u) -> u <> t).
+  { intros u (n' & k' & Hu) ->. rewrite Eb0 in Hu. discriminate. }
   destruct Gx as [A Lg N M].
-  set (m := mem (base x)) in *. set (p := qtail m 0%nat).
+  set (q := lq k) in *. assert (Hq2 : (q < 2)%nat) by apply lq_lt.
+  set (m := mem (base x)) in *. set (p := qtail m q).
   pose proof (g_cnt _ _ M) as Ec.
-  assert (K : kstep bc (cret (cnt (base x))) m t (stk (base x) t)
-              = (set_qtail m 0%nat nd, ev t (l_tail 0) 43 (Zn p), [WLink 0 p nd; FC (BRet n k 0)])).
+  assert (K : kstep bc (cret (two (base x)) (cnt (base x))) m t (stk (base x) t)
+              = (set_qtail m q nd, ev t (l_tail q) 43 (Zn p), [WLink q p nd; FC (BRet n k 0)])).
   { rewrite E. reflexivity. }
   destruct (lstep_view x t _ _ _ K) as (Em & Es & Eo & Ecn & Enn).
-  assert (Gc : chain (lstep x t) = chain x ++ [(nd, t)]) by (rewrite lstep_chain, E; reflexivity).
+  assert (Gc : chain (lstep x t) = upd (chain x) q (chain x q ++ [(nd, t)])) by (rewrite lstep_chain, E; reflexivity).
   assert (Gi : infl (lstep x t) = infl x) by (rewrite lstep_infl, E; reflexivity).
   assert (Gp : pw (lstep x t) = pw x) by (rewrite lstep_pw, E; reflexivity).
   assert (Eb : bot (stk (base (lstep x t)) t) = bot (stk (base x) t) \/ exists n k, bot (stk (base x) t) = Some (BNext n k))
     by (left; rewrite Es, E; reflexivity).
   destruct (bot_same_logs x t Eb) as [Gr Ga].
-  assert (Eno : nodes (lstep x t) = nodes x ++ [nd]).
-  { unfold nodes. rewrite Em, Gc, map_app. reflexivity. }
+  assert (Enoq : nodes (lstep x t) q = nodes x q ++ [nd]).
+  { unfold nodes. rewrite Em, Gc, upd_same, map_app. reflexivity. }
+  assert (Eno' : forall q', q' <> q -> nodes (lstep x t) q' = nodes x q').
+  { intros q' Ne. unfold nodes. rewrite Em, Gc, upd_other by exact Ne. reflexivity. }
   assert (Hht : held (stk (base x) t) = nd) by (rewrite E; reflexivity).
-  assert (Hnn : ~ In nd (nodes x)) by (rewrite <- Hht; apply (g_held_nodes _ N); rewrite Hht; assumption).
+  assert (Hnn : forall q', (q' < 2)%nat -> ~ In nd (nodes x q')).
+  { intros q' Hq'. rewrite <- Hht. apply (g_held_nodes _ N); [exact Hq'|]. rewrite Hht; assumption. }
   assert (Hh' : forall u, held (stk (base (lstep x t)) u) = if Nat.eqb u t then O else held (stk (base x) u)).
   { intros u. destruct (Nat.eqb_spec u t) as [->|Ne]; [rewrite Es; reflexivity|rewrite Eo by exact Ne; reflexivity]. }
-  destruct Lg as [L1 L2 L3 L4 L5 L6 L7].
   constructor.
-  - apply (GA_frame count x); auto; try (rewrite Em; reflexivity); try (intros Hns; rewrite Gi; apply (g_infl_none _ _ A Hns));
-      try (intros Hns; exfalso; apply (Hns t); rewrite E; do 2 eexists; reflexivity).
+  - apply (GA_frame count x); [exact Enn|rewrite Em; reflexivity|intros q0; rewrite Gp; reflexivity|exact Gr|exact Ga
+                              |intros q0 Hq0; left; rewrite Gi; exact Hq0| |exact A].
     intros u. destruct (Nat.eq_dec u t) as [->|Ne]; [rewrite Es, E; obs|].
     rewrite Eo by exact Ne. apply same_obs_refl.
-  - constructor; rewrite ?Eno, ?Gc, ?Gi, ?Gp.
-    + apply nodup_snoc; assumption.
-    + intros nd' Hi. apply in_app_iff in Hi. destruct Hi as [Hi|[<-|[]]]; auto.
-    + rewrite Em. cbn [qtail qhead set_qtail]. rewrite upd_same, lastn_snoc. reflexivity.
-    + rewrite Em. cbn [qhead set_qtail]. apply linked_snoc.
-      * apply (linked_frame m _ (stk (base x))); [reflexivity| |exact L4].
-        intros u Hu. rewrite Eo; [tauto|]. intros ->. exact (Uc Hu).
-      * rewrite Es. fold m in L3. rewrite <- L3. eexists. reflexivity.
-      * assumption.
-    + intros nd' u Hi. rewrite Em. cbn [ndata set_qtail]. apply in_app_iff in Hi.
-      destruct Hi as [Hi|[Hi|[]]]; [apply L5; exact Hi|]. injection Hi as <- <-. split; assumption.
-    + rewrite map_app. cbn. apply nodup_snoc; assumption.
-    + intros f Hf. destruct (L7 f Hf) as [B1 B2]. split; [exact B1|]. rewrite map_app. cbn.
-      intros Hi. apply in_app_iff in Hi. destruct Hi as [Hi|[<-|[]]]; [exact (B2 Hi)|exact (Uf Hf)].
-  - destruct N as [N1 N2 N3 N4 N5]. constructor; intros *; rewrite ?Hh', ?Eno, ?Em; cbn [fnode set_qtail]; fold m.
-    + apply N1.
-    + destruct (Nat.eqb_spec u t) as [->|Ne]; [congruence|]. destruct (Nat.eqb_spec u' t) as [->|Ne']; [congruence|apply N2].
-    + destruct (Nat.eqb_spec u' t) as [->|Ne']; [auto|apply N3].
-    + intros Hu Hi. apply in_app_iff in Hi. destruct Hi as [Hi|[Hi|[]]]; [exact (N4 u Hu Hi)|].
-      apply (N3 u t Hu). rewrite Hht. symmetry. exact Hi.
-    + destruct (Nat.eqb_spec u t) as [->|Ne]; [congruence|]. intros Hu Hi. apply in_app_iff in Hi.
-      destruct Hi as [Hi|[Hi|[]]]; [exact (N5 u Hu Hi)|]. apply Ne. apply N2; [exact Hu|congruence].
-  - destruct M as [M1 M2 M3 M4]. constructor.
+  - intros q' Hq'. destruct (Nat.eq_dec q' q) as [->|Nq].
+    + destruct (Lg q Hq2) as [L1 L2 L3 L4 L5 L6 L7].
+      constructor; rewrite ?Enoq, ?Gc, ?Gi, ?Gp, ?upd_same.
+      * apply nodup_snoc; auto.
+      * intros nd' Hi. apply in_app_iff in Hi. destruct Hi as [Hi|[<-|[]]]; auto.
+      * rewrite Em. cbn [qtail qhead set_qtail]. rewrite upd_same, lastn_snoc. reflexivity.
+      * rewrite Em. cbn [qhead set_qtail]. apply linked_snoc.
+        -- apply (linked_frame m _ (stk (base x))); [reflexivity| |exact L4].
+           intros u Hu. rewrite Eo; [tauto|]. intros ->. exact (Uc Hu).
+        -- rewrite Es. fold m in L3. unfold p. rewrite L3. eexists. reflexivity.
+        -- assumption.
+      * intros nd' u Hi. rewrite Em. cbn [ndata set_qtail]. apply in_app_iff in Hi.
+        destruct Hi as [Hi|[Hi|[]]]; [apply L5; exact Hi|]. injection Hi as <- <-. split; assumption.
+      * rewrite map_app. cbn. apply nodup_snoc; assumption.
+      * intros f Hf. destruct (L7 f Hf) as [B1 B2]. split; [exact B1|]. rewrite map_app. cbn.
+        intros Hi. apply in_app_iff in Hi. destruct Hi as [Hi|[<-|[]]]; [exact (B2 Hi)|exact (Uf Hf)].
+    + apply (GL_untouched x _ t q'); auto; rewrite ?Em, ?Gc, ?Gi, ?Gp; cbn [qhead qtail nnext ndata set_qtail]; auto.
+      * apply upd_other. exact Nq.
+      * apply upd_other. exact Nq.
+  - destruct N as [N0 N1 N2 N3 N4 N5]. subst m. constructor.
+    + intros q1 q2 nd0 H1 H2 I1 I2.
+      destruct (Nat.eq_dec q1 q) as [->|Ne1]; destruct (Nat.eq_dec q2 q) as [->|Ne2]; auto.
+      * rewrite Enoq in I1. rewrite (Eno' q2 Ne2) in I2. apply in_app_iff in I1.
+        destruct I1 as [I1|[<-|[]]]; [apply (N0 q q2 nd0); assumption|exfalso; exact (Hnn q2 H2 I2)].
+      * rewrite Enoq in I2. rewrite (Eno' q1 Ne1) in I1. apply in_app_iff in I2.
+        destruct I2 as [I2|[<-|[]]]; [apply (N0 q1 q nd0); assumption|exfalso; exact (Hnn q1 H1 I1)].
+      * rewrite (Eno' q1 Ne1) in I1. rewrite (Eno' q2 Ne2) in I2. apply (N0 q1 q2 nd0); assumption.
+    + intros u u'. rewrite Em. apply N1.
+    + intros u u'. rewrite !Hh'.
+      destruct (Nat.eqb_spec u t) as [->|Ne]; [congruence|]. destruct (Nat.eqb_spec u' t) as [->|Ne']; [congruence|apply N2].
+    + intros u u'. rewrite Em, Hh'. cbn [fnode set_qtail]. destruct (Nat.eqb_spec u' t) as [->|Ne']; [auto|apply N3].
+    + intros u q1 H1 Hu. rewrite Em in *. cbn [fnode set_qtail] in *. destruct (Nat.eq_dec q1 q) as [->|Ne1].
+      * rewrite Enoq. intros Hi. apply in_app_iff in Hi. destruct Hi as [Hi|[Hi|[]]]; [exact (N4 u q H1 Hu Hi)|].
+        apply (N3 u t Hu). rewrite Hht. symmetry. exact Hi.
+      * rewrite (Eno' q1 Ne1). apply N4; assumption.
+    + intros u q1 H1. rewrite Hh'. destruct (Nat.eqb_spec u t) as [->|Ne]; [congruence|]. intros Hu.
+      destruct (Nat.eq_dec q1 q) as [->|Ne1].
+      * rewrite Enoq. intros Hi. apply in_app_iff in Hi.
+        destruct Hi as [Hi|[Hi|[]]]; [exact (N5 u q H1 Hu Hi)|]. apply Ne. apply N2; [exact Hu|congruence].
+      * rewrite (Eno' q1 Ne1). apply N5; assumption.
+  - destruct M as [M1 M0 M2 M3 M4]. constructor.
     + rewrite Ecn. exact M1.
+    + rewrite lstep_erase, step_two. exact M0.
     + rewrite Em. eapply slots_none_same; eauto.
     + intros u. rewrite Em. apply M3.
     + intros u. destruct (Nat.eq_dec u t) as [->|Ne].
-      * rewrite Es. constructor; unfold Qp, Fp, quiet in *; rewrite ?Gp, ?Gc, ?Gi, ?Em; auto.
+      * rewrite Es. constructor; unfold Qp, Fp, quiet in *; rewrite ?Gp, ?Gc, ?Gi, ?Em, ?upd_same; auto.
         apply in_app_iff. right. left. reflexivity.
       * rewrite Eo by exact Ne. apply (lok_frame count x); [| | | |apply M4].
         -- rewrite Em. constructor; reflexivity.
-        -- constructor; unfold Qp, Cp, Fp; rewrite ?Gp, ?Gc, ?Gi; try tauto.
-           ++ rewrite map_app, in_app_iff. cbn. split; [intros [H|[H|[]]]; [exact H|congruence]|auto].
-           ++ intros nd'. rewrite in_app_iff. cbn. split; [intros [H|[H|[]]]; [exact H|congruence]|auto].
-        -- intros _. rewrite Em. cbn. auto.
+        -- constructor; intros q0; unfold Qp, Cp, Fp; rewrite ?Gp, ?Gc, ?Gi; try tauto.
+           ++ destruct (Nat.eq_dec q0 q) as [->|Nq0]; [rewrite upd_same|rewrite upd_other by exact Nq0; tauto].
+              rewrite map_app, in_app_iff. cbn. split; [intros [Hx|[Hx|[]]]; [exact Hx|congruence]|auto].
+           ++ intros nd'. destruct (Nat.eq_dec q0 q) as [->|Nq0]; [rewrite upd_same|rewrite upd_other by exact Nq0; tauto].
+              rewrite in_app_iff. cbn. split; [intros [Hx|[Hx|[]]]; [exact Hx|congruence]|auto].
+        -- intros _. cbv zeta. rewrite Em, Gi. cbn. auto 6.
         -- intros _. rewrite Em. auto.
 Qed.
 
 Lemma step_wlink x t p nd n k :
-  G count x -> stk (base x) t = [WLink 0 p nd; FC (BRet n k 0)] -> G count (lstep x t).
+  G count x -> stk (base x) t = [WLink (lq k) p nd; FC (BRet n k 0)] -> G count (lstep x t).
 Proof.
   intros Gx E. inv_local Gx t E L.
   match goal with H : quiet _ _ |- _ => pose proof H as (Hpe & Hbl) end.
   match goal with H : In (nd, t) _ |- _ => rename H into Hin end.
+  assert (Eb0 : bot (stk (base x) t) = Some (BRet n k 0)) by (rewrite E; reflexivity).
+  pose proof (fun q' Hq Hne => not_in_chain_other x t n k 0 q' Gx Eb0 Hq Hne) as Hoth.
   destruct Gx as [A Lg N M].
+  set (q := lq k) in *. assert (Hq2 : (q < 2)%nat) by apply lq_lt.
   set (m := mem (base x)) in *.
   pose proof (g_cnt _ _ M) as Ec.
-  assert (K : kstep bc (cret (cnt (base x))) m t (stk (base x) t)
+  assert (K : kstep bc (cret (two (base x)) (cnt (base x))) m t (stk (base x) t)
               = (set_nnext m p nd, ev t (l_next p) 19 (Zn nd), [YRead; FC (BRet n k 0)])).
   { rewrite E. reflexivity. }
   destruct (lstep_view x t _ _ _ K) as (Em & Es & Eo & Ecn & Enn).
@@ -1237,23 +1392,28 @@ Proof.
   assert (Eb : bot (stk (base (lstep x t)) t) = bot (stk (base x) t) \/ exists n k, bot (stk (base x) t) = Some (BNext n k))
     by (left; rewrite Es, E; reflexivity).
   destruct (bot_same_logs x t Eb) as [Gr Ga].
-  assert (Eno : nodes (lstep x t) = nodes x) by (unfold nodes; rewrite Em, Gc; reflexivity).
-  destruct Lg as [L1 L2 L3 L4 L5 L6 L7].
-  destruct (linked_link m (stk (base x)) (stk (base (lstep x t))) p nd t [FC (BRet n k 0)]
-              (chain x) (qhead m 0%nat) L1 L6 Hin E) as (Ll & Hp & Hz); [rewrite Es; cbn; tauto|exact Eo|exact L4|].
+  assert (Eno : forall q0, nodes (lstep x t) q0 = nodes x q0) by (intros q0; unfold nodes; rewrite Em, Gc; reflexivity).
+  destruct (Lg q Hq2) as [L1 L2 L3 L4 L5 L6 L7].
+  destruct (linked_link m (stk (base x)) (stk (base (lstep x t))) q p nd t [FC (BRet n k 0)]
+              (chain x q) (qhead m q) L1 L6 Hin E) as (Ll & Hp & Hz); [rewrite Es; cbn; tauto|exact Eo|exact L4|].
   constructor.
-  - apply (GA_frame count x); auto; try (rewrite Em; reflexivity); try (intros Hns; rewrite Gi; apply (g_infl_none _ _ A Hns));
-      try (intros Hns; exfalso; apply (Hns t); rewrite E; do 2 eexists; reflexivity).
+  - apply (GA_frame count x); [exact Enn|rewrite Em; reflexivity|intros q0; rewrite Gp; reflexivity|exact Gr|exact Ga
+                              |intros q0 Hq0; left; rewrite Gi; exact Hq0| |exact A].
     intros u. destruct (Nat.eq_dec u t) as [->|Ne]; [rewrite Es, E; obs|].
     rewrite Eo by exact Ne. apply same_obs_refl.
-  - constructor; rewrite ?Eno, ?Gc, ?Gi, ?Gp; auto.
-    + rewrite Em. exact L3.
-    + rewrite Em. exact Ll.
-    + rewrite Em. exact L5.
+  - intros q' Hq'. destruct (Nat.eq_dec q' q) as [->|Nq].
+    + constructor; rewrite ?Eno, ?Gc, ?Gi, ?Gp; auto.
+      * rewrite Em. exact L3.
+      * rewrite Em. exact Ll.
+      * rewrite Em. exact L5.
+    + apply (GL_untouched x _ t q'); auto; rewrite ?Em, ?Gc, ?Gi, ?Gp; cbn [qhead qtail nnext ndata set_nnext]; auto.
+      intros nd' Hi. split; [|reflexivity]. apply upd_other. intros ->.
+      apply Nq. apply (g_disj _ N q' q p); auto.
   - apply (GN_frame x); auto; try (intros; rewrite Em; reflexivity).
     intros u. destruct (Nat.eq_dec u t) as [->|Ne]; [rewrite Es, E; reflexivity|]. rewrite Eo by exact Ne. reflexivity.
-  - destruct M as [M1 M2 M3 M4]. constructor.
+  - destruct M as [M1 M0 M2 M3 M4]. constructor.
     + rewrite Ecn. exact M1.
+    + rewrite lstep_erase, step_two. exact M0.
     + rewrite Em. eapply slots_none_same; eauto.
     + intros u. rewrite Em. apply M3.
     + intros u. destruct (Nat.eq_dec u t) as [->|Ne].
@@ -1263,32 +1423,29 @@ Proof.
       * rewrite Eo by exact Ne. apply (lok_frame count x); [| | | |apply M4].
         -- rewrite Em. constructor; reflexivity.
         -- apply same_ghost_refl; assumption.
-        -- intros _. rewrite Em. cbn [qhead ndata nnext fnode fstate set_nnext]. fold m.
-           split; [assumption|]. split; [reflexivity|]. split; [auto|]. split; [reflexivity|].
+        -- intros _. cbv zeta. rewrite Em, Gi. cbn [qhead ndata nnext fnode fstate set_nnext]. fold m.
+           split; [reflexivity|]. split; [reflexivity|]. split; [auto|]. split; [reflexivity|].
            intros Hnz. apply upd_other. intros Hq. apply Hnz. rewrite Hq. exact Hz.
         -- intros Hu. rewrite Em. cbn [ndata nnext set_nnext]. split; [reflexivity|]. apply upd_other.
-           intros Hq. apply (g_held_nodes _ N u Hu). rewrite Hq. exact Hp.
+           intros Hq. apply (g_held_nodes _ N u q Hq2 Hu). rewrite Hq. exact Hp.
 Qed.
 
 (* the fiber whose entry is consumed by a head update: queued -> in flight *)
-Lemma lok_pop x x' f sg :
-  Qp x f -> Cp x f -> is_wait sg -> ~ linking sg ->
-  mem (base x') = mem (base x) \/ (fstate (mem (base x')) f = fstate (mem (base x)) f /\
+Lemma lok_pop x x' f sg q :
+  Qp x q f -> Cp x q f -> is_wait sg -> lq (rnd sg) = q -> ~ linking sg ->
+  (fstate (mem (base x')) f = fstate (mem (base x)) f /\
      pend (mem (base x')) f = pend (mem (base x)) f /\ blocked (mem (base x')) f = blocked (mem (base x)) f) ->
-  pw x' = pw x -> infl x' = Some f ->
+  pw x' = pw x -> infl x' q = Some f ->
   lok count x f sg -> lok count x' f sg.
 Proof.
-  intros Hq Hc Hw Hl Hm Ep Ei L.
-  assert (Hm' : fstate (mem (base x')) f = fstate (mem (base x)) f /\
-     pend (mem (base x')) f = pend (mem (base x)) f /\ blocked (mem (base x')) f = blocked (mem (base x)) f).
-  { destruct Hm as [->|Hm]; auto. }
-  destruct Hm' as (A & B & C).
-  assert (Q' : Qp x' f) by (unfold Qp in *; rewrite Ep; exact Hq).
-  assert (F' : Fp x' f) by (unfold Fp in *; exact Ei).
+  intros Hq Hc Hw Hrq Hl (A & B & C) Ep Ei L.
+  assert (Q' : Qp x' q f) by (unfold Qp in *; rewrite Ep; exact Hq).
+  assert (F' : Fp x' q f) by (unfold Fp in *; exact Ei).
   destruct L; try (destruct Hw as (n' & k' & Hw); discriminate);
+    unfold rnd in Hrq; cbn in Hrq; subst q;
     repeat match goal with
-           | H : unq _ _ |- _ => destruct H as (_ & Hnc & _); contradiction
-           | H : serl _ _ |- _ => destruct H as (Hnq & _); contradiction
+           | H : unq _ _ _ |- _ => destruct H as (_ & Hnc & _); contradiction
+           | H : serl _ _ |- _ => destruct H as (Hnq & _); exfalso; exact (Hnq _ Hq)
            end; try contradiction; try (exfalso; apply Hl; exact I).
   - constructor. destruct H as [P|P].
     + left. destruct P as (P1 & P2 & [(P3 & P4 & P5)|(P3 & _)]); [|contradiction].
@@ -1311,90 +1468,124 @@ Proof.
 Qed.
 
 Lemma step_ksethead x t wc h nx n k :
-  G count x -> stk (base x) t = [KSetHead 0 (count - 1) wc h nx; FC (BRet n k 1)] -> G count (lstep x t).
+  G count x -> stk (base x) t = [KSetHead (lq k) (count - 1) wc h nx; FC (BRet n k 1)] -> G count (lstep x t).
 Proof.
   intros Gx E.
-  assert (Hinv : serl x t /\ infl x = None /\ h = qhead (mem (base x)) 0%nat /\ nx <> O /\ nnext (mem (base x)) h = nx).
+  assert (Hinv : serl x t /\ infl x (lq k) = None /\ h = qhead (mem (base x)) (lq k) /\ nx <> O /\ nnext (mem (base x)) h = nx).
   { pose proof (g_local _ _ (g_m _ _ Gx) t) as L. rewrite E in L. inversion L; auto. }
   destruct Hinv as (Hser & Hi & Hh & Hz & Hn).
   pose proof Hser as (Sq & Squ & Sfn & Sfs).
+  assert (Eb0 : bot (stk (base x) t) = Some (BRet n k 1)) by (rewrite E; reflexivity).
+  assert (Hs1 : forall u, is_ser (stk (base x) u) -> u = t).
+  { intros u Hu. apply (g_ser1 _ _ (g_a _ _ Gx)); [exact Hu|rewrite E; do 2 eexists; reflexivity]. }
+  pose proof (g_pw _ _ (g_a _ _ Gx)) as Hpw.
   destruct Gx as [A Lg N M].
+  set (q := lq k) in *. assert (Hq2 : (q < 2)%nat) by apply lq_lt.
   set (m := mem (base x)) in *. rewrite Hh in Hn.
-  destruct Lg as [L1 L2 L3 L4 L5 L6 L7].
-  destruct (linked_head _ _ _ _ _ L4 Hn Hz) as (f & rest & Ech & Hlf & Lr).
-  assert (Hfc : In (nx, f) (chain x)) by (rewrite Ech; left; reflexivity).
+  destruct (Lg q Hq2) as [L1 L2 L3 L4 L5 L6 L7].
+  destruct (linked_head _ _ _ _ _ _ L4 Hn Hz) as (f & rest & Ech & Hlf & Lr).
+  assert (Hfc : In (nx, f) (chain x q)) by (rewrite Ech; left; reflexivity).
   destruct (L5 _ _ Hfc) as [Hdf Hfq].
-  assert (Ntf : t <> f) by (intros ->; exact (Sq Hfq)).
+  assert (Ntf : t <> f) by (intros ->; exact (Sq _ Hfq)).
   pose proof (g_cnt _ _ M) as Ec.
-  assert (K : kstep bc (cret (cnt (base x))) m t (stk (base x) t)
-              = (set_qhead m 0%nat nx, ev t (l_head 0) 19 (Zn nx), [KData 0 (count - 1) wc (qhead m 0%nat) nx; FC (BRet n k 1)])).
+  assert (K : kstep bc (cret (two (base x)) (cnt (base x))) m t (stk (base x) t)
+              = (set_qhead m q nx, ev t (l_head q) 19 (Zn nx), [KData q (count - 1) wc (qhead m q) nx; FC (BRet n k 1)])).
   { rewrite E, Hh. reflexivity. }
   destruct (lstep_view x t _ _ _ K) as (Em & Es & Eo & Ecn & Enn).
-  assert (Gc : chain (lstep x t) = rest) by (rewrite lstep_chain, E, Ech; reflexivity).
-  assert (Gi : infl (lstep x t) = Some f) by (rewrite lstep_infl, E, Ech; reflexivity).
+  assert (Gc : chain (lstep x t) = upd (chain x) q rest) by (rewrite lstep_chain, E, Ech; reflexivity).
+  assert (Gi : infl (lstep x t) = upd (infl x) q (Some f)) by (rewrite lstep_infl, E, Ech; reflexivity).
   assert (Gp : pw (lstep x t) = pw x) by (rewrite lstep_pw, E; reflexivity).
   assert (Eb : bot (stk (base (lstep x t)) t) = bot (stk (base x) t) \/ exists n k, bot (stk (base x) t) = Some (BNext n k))
     by (left; rewrite Es, E; reflexivity).
   destruct (bot_same_logs x t Eb) as [Gr Ga].
-  assert (Eno : nodes x = qhead m 0%nat :: nx :: map fst rest) by (unfold nodes; rewrite Ech; reflexivity).
-  assert (Eno' : nodes (lstep x t) = nx :: map fst rest).
-  { unfold nodes. rewrite Em, Gc. reflexivity. }
+  assert (Eno : nodes x q = qhead m q :: nx :: map fst rest) by (unfold nodes; rewrite Ech; reflexivity).
+  assert (Enoq : nodes (lstep x t) q = nx :: map fst rest).
+  { unfold nodes. rewrite Em, Gc, upd_same. cbn [qhead set_qhead]. rewrite upd_same. reflexivity. }
+  assert (Eno' : forall q', q' <> q -> nodes (lstep x t) q' = nodes x q').
+  { intros q' Ne. unfold nodes. rewrite Em, Gc, upd_other by exact Ne. cbn [qhead set_qhead]. rewrite upd_other by exact Ne. reflexivity. }
   rewrite Eno in L1, L2. apply NoDup_cons_iff in L1. destruct L1 as [Nh Nd'].
-  assert (Hh' : forall u, held (stk (base (lstep x t)) u) = if Nat.eqb u t then qhead m 0%nat else held (stk (base x) u)).
+  assert (Hh' : forall u, held (stk (base (lstep x t)) u) = if Nat.eqb u t then qhead m q else held (stk (base x) u)).
   { intros u. destruct (Nat.eqb_spec u t) as [->|Ne]; [rewrite Es; reflexivity|rewrite Eo by exact Ne; reflexivity]. }
   assert (Hht : held (stk (base x) t) = O) by (rewrite E; reflexivity).
   rewrite Ech in L6. cbn in L6. apply NoDup_cons_iff in L6. destruct L6 as [Nf Ns'].
+  assert (Hsub : forall nd0, In nd0 (nodes (lstep x t) q) -> In nd0 (nodes x q)).
+  { intros nd0. rewrite Enoq, Eno. intros Hin. right. exact Hin. }
+  assert (Hhq : In (qhead m q) (nodes x q)) by (rewrite Eno; left; reflexivity).
   constructor.
-  - apply (GA_frame count x); auto; try (rewrite Em; reflexivity); try (intros Hns; rewrite Gi; apply (g_infl_none _ _ A Hns));
-      try (intros Hns; exfalso; apply (Hns t); rewrite E; do 2 eexists; reflexivity).
-    intros u. destruct (Nat.eq_dec u t) as [->|Ne]; [rewrite Es, E; obs|].
-    rewrite Eo by exact Ne. apply same_obs_refl.
-  - constructor; rewrite ?Eno', ?Gc, ?Gi, ?Gp.
-    + exact Nd'.
-    + intros nd' Hi'. apply L2. right. exact Hi'.
-    + rewrite Em. cbn [qtail qhead set_qhead]. unfold upd; cbn [Nat.eqb]. fold m in L3. rewrite L3, Ech. reflexivity.
-    + rewrite Em. cbn [qhead set_qhead]. unfold upd; cbn [Nat.eqb].
-      apply (linked_frame m _ (stk (base x))); [reflexivity| |exact Lr].
-      intros u Hu. rewrite Eo; [tauto|]. intros ->. apply Sq.
-      apply in_map_iff in Hu. destruct Hu as [[nd' u'] [Eq Hu]]. cbn in Eq. subst u'.
-      apply (L5 nd' t). rewrite Ech. right. exact Hu.
-    + intros nd' u Hi'. rewrite Em. cbn [ndata set_qhead]. apply L5. rewrite Ech. right. exact Hi'.
-    + exact Ns'.
-    + intros f' Hf'. injection Hf' as <-. split; assumption.
-  - destruct N as [N1 N2 N3 N4 N5]. constructor; intros *; rewrite ?Hh', ?Eno', ?Em; cbn [fnode set_qhead]; subst m.
-    + apply N1.
-    + destruct (Nat.eqb_spec u t) as [->|Ne]; destruct (Nat.eqb_spec u' t) as [->|Ne']; auto.
-      * intros _ Hq. exfalso. apply (N5 u'); [rewrite <- Hq; apply L2; left; reflexivity|].
-        rewrite <- Hq, Eno. left. reflexivity.
-      * intros Hu Hq. exfalso. apply (N5 u Hu). rewrite Hq, Eno. left. reflexivity.
-    + destruct (Nat.eqb_spec u' t) as [->|Ne']; [|apply N3].
-      intros Hu Hq. apply (N4 u Hu). rewrite Hq, Eno. left. reflexivity.
-    + intros Hu Hi'. apply (N4 u Hu). rewrite Eno. right. exact Hi'.
-    + destruct (Nat.eqb_spec u t) as [->|Ne]; [intros _; exact Nh|].
-      intros Hu Hi'. apply (N5 u Hu). rewrite Eno. right. exact Hi'.
-  - destruct M as [M1 M2 M3 M4]. constructor.
+  - apply (GA_frame count x); [exact Enn|rewrite Em; reflexivity|intros q0; rewrite Gp; reflexivity|exact Gr|exact Ga
+                              | |  |exact A].
+    + intros q0 Hq0. rewrite Gi. destruct (Nat.eq_dec q0 q) as [->|Nq0]; [|left; rewrite upd_other by exact Nq0; exact Hq0].
+      right. exists t. split; [do 2 eexists; exact Eb0|]. unfold rnd. rewrite Eb0. reflexivity.
+    + intros u. destruct (Nat.eq_dec u t) as [->|Ne]; [rewrite Es, E; obs|].
+      rewrite Eo by exact Ne. apply same_obs_refl.
+  - intros q' Hq'. destruct (Nat.eq_dec q' q) as [->|Nq].
+    + constructor; rewrite ?Enoq, ?Gc, ?Gi, ?Gp, ?upd_same.
+      * exact Nd'.
+      * intros nd' Hi'. apply L2. right. exact Hi'.
+      * rewrite Em. cbn [qtail qhead set_qhead]. rewrite upd_same. fold m in L3. rewrite L3, Ech. reflexivity.
+      * rewrite Em. cbn [qhead set_qhead]. rewrite upd_same.
+        apply (linked_frame m _ (stk (base x))); [reflexivity| |exact Lr].
+        intros u Hu. rewrite Eo; [tauto|]. intros ->. apply (Sq q).
+        apply in_map_iff in Hu. destruct Hu as [[nd' u'] [Eq Hu]]. cbn in Eq. subst u'.
+        apply (L5 nd' t). rewrite Ech. right. exact Hu.
+      * intros nd' u Hi'. rewrite Em. cbn [ndata set_qhead]. apply L5. rewrite Ech. right. exact Hi'.
+      * exact Ns'.
+      * intros f' Hf'. injection Hf' as <-. split; assumption.
+    + apply (GL_untouched x _ t q'); auto; rewrite ?Em, ?Gc, ?Gi, ?Gp; cbn [qhead qtail nnext ndata set_qhead];
+        try (apply upd_other; exact Nq); auto.
+      intros Hi'. apply in_map_iff in Hi'. destruct Hi' as [[nd' u'] [Eq Hu]]. cbn in Eq. subst u'.
+      apply (Sq q'). apply (g_chain _ _ (Lg q' Hq') _ _ Hu).
+  - destruct N as [N0 N1 N2 N3 N4 N5]. subst m. constructor.
+    + intros q1 q2 nd0 H1 H2 I1 I2.
+      assert (J1 : In nd0 (nodes x q1)).
+      { destruct (Nat.eq_dec q1 q) as [->|Ne1]; [apply Hsub; exact I1|rewrite <- (Eno' q1 Ne1); exact I1]. }
+      assert (J2 : In nd0 (nodes x q2)).
+      { destruct (Nat.eq_dec q2 q) as [->|Ne2]; [apply Hsub; exact I2|rewrite <- (Eno' q2 Ne2); exact I2]. }
+      apply (N0 q1 q2 nd0); assumption.
+    + intros u u'. rewrite Em. apply N1.
+    + intros u u'. rewrite !Hh'.
+      destruct (Nat.eqb_spec u t) as [->|Ne]; destruct (Nat.eqb_spec u' t) as [->|Ne']; auto.
+      * intros _ Hq. exfalso. apply (N5 u' q Hq2); [rewrite <- Hq; apply L2; left; reflexivity|].
+        rewrite <- Hq. exact Hhq.
+      * intros Hu Hq. exfalso. apply (N5 u q Hq2 Hu). rewrite Hq. exact Hhq.
+    + intros u u'. rewrite Em, Hh'. cbn [fnode set_qhead]. destruct (Nat.eqb_spec u' t) as [->|Ne']; [|apply N3].
+      intros Hu Hq. apply (N4 u q Hq2 Hu). rewrite Hq. exact Hhq.
+    + intros u q1 H1 Hu. rewrite Em in *. cbn [fnode set_qhead] in *. intros Hi'.
+      apply (N4 u q1 H1 Hu). destruct (Nat.eq_dec q1 q) as [->|Ne1]; [apply Hsub; exact Hi'|rewrite <- (Eno' q1 Ne1); exact Hi'].
+    + intros u q1 H1. rewrite Hh'. destruct (Nat.eqb_spec u t) as [->|Ne].
+      * intros _ Hi'. destruct (Nat.eq_dec q1 q) as [->|Ne1].
+        -- rewrite Enoq in Hi'. exact (Nh Hi').
+        -- rewrite (Eno' q1 Ne1) in Hi'. apply Ne1. apply (N0 q1 q (qhead (mem (base x)) q)); auto.
+      * intros Hu Hi'. apply (N5 u q1 H1 Hu).
+        destruct (Nat.eq_dec q1 q) as [->|Ne1]; [apply Hsub; exact Hi'|rewrite <- (Eno' q1 Ne1); exact Hi'].
+  - destruct M as [M1 M0 M2 M3 M4]. constructor.
     + rewrite Ecn. exact M1.
+    + rewrite lstep_erase, step_two. exact M0.
     + rewrite Em. eapply slots_none_same; eauto.
     + intros u. rewrite Em. apply M3.
     + intros u. destruct (Nat.eq_dec u t) as [->|Ne].
       * rewrite Es. apply (lk_kdata count _ _ wc _ _ n k f).
         -- unfold serl, Qp, quiet in *. rewrite Gp, Em. auto.
         -- apply L2. left. reflexivity.
-        -- rewrite Em. reflexivity.
-        -- exact Gi.
+        -- rewrite Em. cbn. apply upd_same.
+        -- rewrite Gi. apply upd_same.
         -- rewrite Em. exact Hdf.
       * rewrite Eo by exact Ne. destruct (Nat.eq_dec u f) as [->|Nuf].
-        -- apply (lok_pop x); auto.
+        -- destruct (Hpw q f Hfq) as (_ & Fw & Frq & _).
+           apply (lok_pop x _ f _ q); auto.
            ++ unfold Cp. rewrite Ech. left. reflexivity.
-           ++ apply (g_pw _ _ A f Hfq).
-           ++ right. rewrite Em. auto.
+           ++ rewrite Em. auto.
+           ++ rewrite Gi. apply upd_same.
         -- apply (lok_frame count x); [| | | |apply M4].
            ++ rewrite Em. constructor; reflexivity.
-           ++ constructor; unfold Qp, Cp, Fp; rewrite ?Gp, ?Gc, ?Gi, ?Hi, ?Ech; try tauto.
-              ** cbn. split; [auto|intros [H|H]; [congruence|exact H]].
-              ** split; [intros H; congruence|discriminate].
-              ** intros nd'. cbn. split; [auto|intros [H|H]; [congruence|exact H]].
-           ++ intros Hs. exfalso. apply Ne. apply (g_ser1 _ _ A); [exact Hs|rewrite E; do 2 eexists; reflexivity].
+           ++ constructor; intros q0; unfold Qp, Cp, Fp; rewrite ?Gp, ?Gc, ?Gi; try tauto.
+              ** destruct (Nat.eq_dec q0 q) as [->|Nq0]; [rewrite upd_same, Ech|rewrite upd_other by exact Nq0; tauto].
+                 cbn. split; [auto|intros [Hx|Hx]; [congruence|exact Hx]].
+              ** destruct (Nat.eq_dec q0 q) as [->|Nq0]; [rewrite upd_same, Hi|rewrite upd_other by exact Nq0; tauto].
+                 split; [intros Hx; congruence|discriminate].
+              ** intros nd'. destruct (Nat.eq_dec q0 q) as [->|Nq0]; [rewrite upd_same, Ech|rewrite upd_other by exact Nq0; tauto].
+                 cbn. split; [auto|intros [Hx|Hx]; [congruence|exact Hx]].
+           ++ intros Hs. exfalso. apply Ne. apply Hs1. exact Hs.
            ++ intros _. rewrite Em. auto.
 Qed.
 End Steps2.
@@ -1415,64 +1606,6 @@ Proof.
   - cbn. f_equal. apply IH; [assumption|]. destruct H; [congruence|assumption].
 Qed.
 
-Section GAsteps.
-Variable count : Z.
-Hypothesis Hcount : 1 <= count.
-
-(* the serial fiber t schedules f and goes on popping *)
-Lemma GA_wake_continue x x' t f wc :
-  GA count x ->
-  (forall u, u <> t -> same_obs (stk (base x) u) (stk (base x') u)) ->
-  is_ser (stk (base x) t) -> is_ser (stk (base x') t) ->
-  rnd (stk (base x') t) = rnd (stk (base x) t) ->
-  wcof (stk (base x) t) = wc -> wcof (stk (base x') t) = wc + 1 -> wc + 1 < count - 1 ->
-  nthr (base x') = nthr (base x) -> word (mem (base x')) 0%nat = word (mem (base x)) 0%nat ->
-  pw x' = remove Nat.eq_dec f (pw x) -> In f (pw x) -> rets x' = rets x -> arr x' = arr x ->
-  GA count x'.
-Proof.
-  intros A Ho St St' Er Ew Ew' Hlt En Ewd Ep Hf Err Ea.
-  assert (Hs : forall u, is_ser (stk (base x') u) <-> is_ser (stk (base x) u)).
-  { intros u. destruct (Nat.eq_dec u t) as [->|Ne]; [tauto|apply (Ho u Ne)]. }
-  assert (Hnw : ~ is_wait (stk (base x) t) /\ ~ is_wait (stk (base x') t)).
-  { destruct St as (n1 & k1 & B1). destruct St' as (n2 & k2 & B2). unfold is_wait. rewrite B1, B2.
-    split; intros (? & ? & ?); discriminate. }
-  assert (Hw : forall u, is_wait (stk (base x') u) <-> is_wait (stk (base x) u)).
-  { intros u. destruct (Nat.eq_dec u t) as [->|Ne]; [tauto|apply (Ho u Ne)]. }
-  assert (Hr : forall u, is_ser (stk (base x) u) \/ is_wait (stk (base x) u) ->
-                         rnd (stk (base x') u) = rnd (stk (base x) u)).
-  { intros u H. destruct (Nat.eq_dec u t) as [->|Ne]; [exact Er|]. apply (Ho u Ne). exact H. }
-  assert (Hn : noser x' <-> noser x).
-  { unfold noser. split; intros H S; specialize (H S); rewrite Hs in *; exact H. }
-  assert (Nn : ~ noser x) by (intros H; exact (H t St)).
-  assert (Uq : forall S, is_ser (stk (base x) S) -> S = t) by (intros S HS; apply (g_ser1 _ _ A); assumption).
-  destruct A as [A1 A2 A3 A4 A5 A6 A7 A8 A9 A10 A11 A12 A13].
-  destruct (A4 t St) as (B1 & B2 & B3 & B4 & B5).
-  constructor; rewrite ?En, ?Ewd, ?Err, ?Ea; auto.
-  - intros S S'. rewrite !Hs. apply A3.
-  - intros S HS. rewrite Hs in HS. pose proof (Uq S HS) as ->. rewrite Er, Ew', Ep.
-    split; [exact B1|]. split; [exact B2|]. pose proof (remove_length _ f A6 Hf). rewrite Ew in B3. lia.
-  - rewrite Hn. tauto.
-  - rewrite Ep. apply remove_nodup. exact A6.
-  - intros u Hu. rewrite Ep in Hu. apply in_remove in Hu. destruct Hu as [Hu _].
-    destruct (A7 u Hu) as (C1 & C2 & C3 & C4). rewrite Hw, Hn, (Hr u (or_intror C2)).
-    split; [exact C1|]. split; [exact C2|]. split; [|tauto].
-    intros S HS. rewrite Hs in HS. rewrite (Hr S (or_introl HS)). apply C3. exact HS.
-  - intros u k Hu Hp. rewrite Hn. destruct (Nat.eq_dec u t) as [->|Ne].
-    + exfalso. destruct St' as (n2 & k2 & B). unfold pre_round in Hp. unfold bot in B.
-      destruct (stk (base x') t) as [|[] [|[] [|]]]; try discriminate; cbn in B; destruct c; discriminate.
-    + apply (A8 u k Hu). apply (Ho u Ne). exact Hp.
-  - intros u. rewrite Hw, Hn. intros H1 H2. rewrite (Hr u (or_intror H1)). split; [|split; [tauto|]].
-    + intros S HS. rewrite Hs in HS. rewrite (Hr S (or_introl HS)).
-      destruct (in_dec Nat.eq_dec u (pw x)) as [Hi|Hi].
-      * apply (A7 u Hi). exact HS.
-      * apply (A9 u H1 Hi). exact HS.
-    + destruct (in_dec Nat.eq_dec u (pw x)) as [Hi|Hi].
-      * destruct (A7 u Hi) as (_ & _ & C3 & _). rewrite (C3 t St). lia.
-      * apply (A9 u H1 Hi).
-  - intros u. rewrite Hw. apply A12.
-  - intros H. exfalso. apply Nn. apply Hn. exact H.
-Qed.
-
 Lemma start_stack_obs t n k : ~ is_ser (start_stack t n k) /\ ~ is_wait (start_stack t n k) /\
   (forall k', pre_round (start_stack t n k) = Some k' -> k' = k).
 Proof.
@@ -1480,96 +1613,19 @@ Proof.
   injection H as <-. reflexivity.
 Qed.
 
-(* the serial fiber t returns (all its waiters have been scheduled) *)
-Lemma GA_serial_return x x' t n k :
-  GA count x ->
-  (forall u, u <> t -> same_obs (stk (base x) u) (stk (base x') u)) ->
-  bot (stk (base x) t) = Some (BRet n k 1) -> stk (base x') t = start_stack t n (S k) ->
-  nthr (base x') = nthr (base x) -> word (mem (base x')) 0%nat = word (mem (base x)) 0%nat ->
-  pw x' = [] -> rets x' = rets x ++ [(t, k, 1)] -> arr x' = arr x -> infl x' = None ->
-  GA count x'.
+Lemma pre_round_obs sg k : pre_round sg = Some k -> ~ is_ser sg /\ ~ is_wait sg.
 Proof.
-  intros A Ho Bt Es En Ewd Ep Err Ea Ei.
-  assert (St : is_ser (stk (base x) t)) by (do 2 eexists; exact Bt).
-  assert (Rt : rnd (stk (base x) t) = k) by (unfold rnd; rewrite Bt; reflexivity).
-  destruct (start_stack_obs t n (S k)) as (O1 & O2 & O3). rewrite <- Es in O1, O2, O3.
-  assert (Uq : forall S, is_ser (stk (base x) S) -> S = t) by (intros S HS; apply (g_ser1 _ _ A); assumption).
-  assert (Nn' : noser x').
-  { intros S HS. destruct (Nat.eq_dec S t) as [->|Ne]; [exact (O1 HS)|].
-    apply (Ho S Ne) in HS. apply Ne. apply Uq. exact HS. }
-  destruct A as [A1 A2 A3 A4 A5 A6 A7 A8 A9 A10 A11 A12 A13].
-  destruct (A4 t St) as (B1 & B2 & B3 & B4 & B5). rewrite Rt in B2.
-  assert (Hcz : count <> 0) by lia.
-  constructor; rewrite ?En, ?Ewd, ?Ea, ?Ep; auto.
-  - intros S S' HS. exfalso. exact (Nn' S HS).
-  - intros S HS. exfalso. exact (Nn' S HS).
-  - intros _. cbn. rewrite B2. symmetry. apply Z_mod_mult.
-  - constructor.
-  - intros u [].
-  - intros u k' Hu Hp. split; [exact Nn'|]. destruct (Nat.eq_dec u t) as [->|Ne].
-    + rewrite (O3 _ Hp), B2, Z.div_mul by exact Hcz. lia.
-    + exfalso. apply (Ho u Ne) in Hp. destruct (A8 u k' Hu Hp) as [Hns _]. exact (Hns t St).
-  - intros u Hw _. split; [intros S HS; exfalso; exact (Nn' S HS)|].
-    destruct (Nat.eq_dec u t) as [->|Ne]; [exfalso; exact (O2 Hw)|].
-    pose proof (proj1 (proj1 (proj2 (Ho u Ne))) Hw) as Hw0.
-    destruct (Ho u Ne) as (_ & _ & Hr & _). destruct (Hr (or_intror Hw0)) as [-> _].
-    assert (Hk : rnd (stk (base x) u) = k).
-    { rewrite <- Rt. destruct (in_dec Nat.eq_dec u (pw x)) as [Hi|Hi].
-      - apply (A7 u Hi). exact St.
-      - apply (A9 u Hw0 Hi). exact St. }
-    rewrite Hk, B2, Z.div_mul by exact Hcz. split; [reflexivity|lia].
-  - intros t0 k0 r0. rewrite Err, in_app_iff. intros [H|[H|[]]]; [eauto|]. injection H as <- <- <-. lia.
-  - intros u Hw. destruct (Nat.eq_dec u t) as [->|Ne]; [exfalso; exact (O2 Hw)|]. apply A12. apply (Ho u Ne). exact Hw.
+  unfold pre_round, is_ser, is_wait. intros H.
+  destruct sg as [|f1 [|f2 [|f3 r]]]; try discriminate.
+  - destruct f1; discriminate.
+  - destruct f1; try discriminate; destruct f2; try discriminate; destruct c; try discriminate; cbn;
+      split; intros (? & ? & ?); discriminate.
+  - destruct f1; try discriminate; destruct f2; try discriminate; destruct c; discriminate.
 Qed.
 
-(* a woken waiter t returns; it may re-enter only if no serial fiber is active *)
-Lemma GA_waiter_return x x' t n k :
-  GA count x ->
-  (forall u, u <> t -> same_obs (stk (base x) u) (stk (base x') u)) ->
-  bot (stk (base x) t) = Some (BRet n k 0) -> ~ In t (pw x) -> stk (base x') t = start_stack t n (S k) ->
-  (n = O \/ noser x) ->
-  nthr (base x') = nthr (base x) -> word (mem (base x')) 0%nat = word (mem (base x)) 0%nat ->
-  pw x' = pw x -> rets x' = rets x ++ [(t, k, 0)] -> arr x' = arr x -> infl x' = infl x ->
-  GA count x'.
+Lemma ser_not_pre sg : is_ser sg -> pre_round sg = None.
 Proof.
-  intros A Ho Bt Hq Es Hreg En Ewd Ep Err Ea Ei.
-  assert (Wt : is_wait (stk (base x) t)) by (do 2 eexists; exact Bt).
-  assert (Nst : ~ is_ser (stk (base x) t)) by (unfold is_ser; rewrite Bt; intros (? & ? & ?); discriminate).
-  assert (Rt : rnd (stk (base x) t) = k) by (unfold rnd; rewrite Bt; reflexivity).
-  destruct (start_stack_obs t n (S k)) as (O1 & O2 & O3). rewrite <- Es in O1, O2, O3.
-  assert (Hs : forall u, is_ser (stk (base x') u) <-> is_ser (stk (base x) u)).
-  { intros u. destruct (Nat.eq_dec u t) as [->|Ne]; [tauto|apply (Ho u Ne)]. }
-  assert (Hn : noser x' <-> noser x).
-  { unfold noser. split; intros H S; specialize (H S); rewrite Hs in *; exact H. }
-  assert (Hob : forall u, u <> t -> is_ser (stk (base x) u) \/ is_wait (stk (base x) u) ->
-                rnd (stk (base x') u) = rnd (stk (base x) u) /\ wcof (stk (base x') u) = wcof (stk (base x) u)).
-  { intros u Ne. apply (Ho u Ne). }
-  destruct A as [A1 A2 A3 A4 A5 A6 A7 A8 A9 A10 A11 A12 A13].
-  destruct (A9 t Wt Hq) as (T1 & T2 & T3). rewrite Rt in T1, T2, T3.
-  constructor; rewrite ?En, ?Ewd, ?Ea, ?Ep; auto.
-  - intros S S'. rewrite !Hs. apply A3.
-  - intros S HS. rewrite Hs in HS. assert (Ne : S <> t) by (intros ->; exact (Nst HS)).
-    destruct (Hob S Ne (or_introl HS)) as [-> ->]. apply A4. exact HS.
-  - rewrite Hn. exact A5.
-  - intros u Hu. assert (Ne : u <> t) by (intros ->; exact (Hq Hu)).
-    destruct (A7 u Hu) as (C1 & C2 & C3 & C4). destruct (Hob u Ne (or_intror C2)) as [-> _].
-    rewrite Hn. split; [exact C1|]. split; [apply (Ho u Ne); exact C2|]. split; [|exact C4].
-    intros S HS. rewrite Hs in HS. assert (NeS : S <> t) by (intros ->; exact (Nst HS)).
-    destruct (Hob S NeS (or_introl HS)) as [-> _]. apply C3. exact HS.
-  - intros u k' Hu Hp. rewrite Hn. destruct (Nat.eq_dec u t) as [->|Ne].
-    + rewrite (O3 _ Hp). destruct Hreg as [->|Hns].
-      * exfalso. rewrite Es in Hp. cbn in Hp. discriminate.
-      * split; [exact Hns|]. rewrite <- (T2 Hns). lia.
-    + apply (A8 u k' Hu). apply (Ho u Ne). exact Hp.
-  - intros u Hw Hi. destruct (Nat.eq_dec u t) as [->|Ne]; [exfalso; exact (O2 Hw)|].
-    pose proof (proj1 (proj1 (proj2 (Ho u Ne))) Hw) as Hw0.
-    destruct (Hob u Ne (or_intror Hw0)) as [-> _]. rewrite Hn.
-    destruct (A9 u Hw0 Hi) as (C1 & C2 & C3). split; [|split; [exact C2|exact C3]].
-    intros S HS. rewrite Hs in HS. assert (NeS : S <> t) by (intros ->; exact (Nst HS)).
-    destruct (Hob S NeS (or_introl HS)) as [-> _]. apply C1. exact HS.
-  - intros t0 k0 r0. rewrite Err, in_app_iff. intros [H|[H|[]]]; [eauto|]. injection H as <- <- <-. exact T3.
-  - intros u Hw. destruct (Nat.eq_dec u t) as [->|Ne]; [exfalso; exact (O2 Hw)|]. apply A12. apply (Ho u Ne). exact Hw.
-  - intros H. rewrite Ei. apply A13. apply Hn. exact H.
+  intros H. destruct (pre_round sg) eqn:E; [|reflexivity]. destruct (pre_round_obs _ _ E) as [C _]. contradiction.
 Qed.
 
 Lemma pigeon (l : list nat) n t :
@@ -1585,6 +1641,15 @@ Proof.
   destruct (Hincl u) as [H|H]; [apply in_seq; lia|left; auto|right; exact H].
 Qed.
 
+Lemma lq_inj_step a b : lq a = lq b -> (a = b \/ a = S b \/ b = S a -> a = b).
+Proof.
+  intros H [E|[E|E]]; [exact E| |]; subst; exfalso; [exact (lq_succ_ne _ H)|exact (lq_succ_ne _ (eq_sym H))].
+Qed.
+
+Section GAsteps.
+Variable count : Z.
+Hypothesis Hcount : 1 <= count.
+
 Lemma div_mod_succ v : 0 <= v ->
   ((v + 1) mod count <> 0 -> (v + 1) / count = v / count /\ (v + 1) mod count = v mod count + 1) /\
   ((v + 1) mod count = 0 -> (v + 1) / count = v / count + 1 /\ v mod count = count - 1).
@@ -1599,23 +1664,176 @@ Proof.
   split; intros H'; nia.
 Qed.
 
-Lemma pre_round_obs sg k : pre_round sg = Some k -> ~ is_ser sg /\ ~ is_wait sg.
+(* observations about the other fibers are unchanged *)
+Definition others_same (x x' : ist) (t : nat) : Prop :=
+  forall u, u <> t -> same_obs (stk (base x) u) (stk (base x') u).
+
+(* the serial fiber t schedules f and goes on popping *)
+Lemma GA_wake_continue x x' t f wc :
+  GA count x -> others_same x x' t ->
+  is_ser (stk (base x) t) -> is_ser (stk (base x') t) ->
+  rnd (stk (base x') t) = rnd (stk (base x) t) ->
+  wcof (stk (base x) t) = wc -> wcof (stk (base x') t) = wc + 1 -> wc + 1 < count - 1 ->
+  nthr (base x') = nthr (base x) -> word (mem (base x')) 0%nat = word (mem (base x)) 0%nat ->
+  let q := lq (rnd (stk (base x) t)) in
+  pw x' = upd (pw x) q (remove Nat.eq_dec f (pw x q)) -> In f (pw x q) ->
+  rets x' = rets x -> arr x' = arr x -> infl x' = upd (infl x) q None ->
+  GA count x'.
 Proof.
-  unfold pre_round, is_ser, is_wait. intros H.
-  destruct sg as [|[] [|[] [|]]]; try discriminate; destruct c; try discriminate; cbn;
-    split; intros (? & ? & ?); discriminate.
+  intros A Ho St St' Er Ew Ew' Hlt En Ewd q Ep Hf Err Ea Ei.
+  assert (Hs : forall u, is_ser (stk (base x') u) <-> is_ser (stk (base x) u)).
+  { intros u. destruct (Nat.eq_dec u t) as [->|Ne]; [tauto|apply (Ho u Ne)]. }
+  assert (Hnw : ~ is_wait (stk (base x) t) /\ ~ is_wait (stk (base x') t)).
+  { destruct St as (n1 & k1 & B1). destruct St' as (n2 & k2 & B2). unfold is_wait. rewrite B1, B2.
+    split; intros (? & ? & ?); discriminate. }
+  assert (Hw : forall u, is_wait (stk (base x') u) <-> is_wait (stk (base x) u)).
+  { intros u. destruct (Nat.eq_dec u t) as [->|Ne]; [tauto|apply (Ho u Ne)]. }
+  assert (Hr : forall u, is_ser (stk (base x) u) \/ is_wait (stk (base x) u) ->
+                         rnd (stk (base x') u) = rnd (stk (base x) u)).
+  { intros u H. destruct (Nat.eq_dec u t) as [->|Ne]; [exact Er|]. apply (Ho u Ne). exact H. }
+  assert (Hn : noser x' <-> noser x).
+  { unfold noser. split; intros H S; specialize (H S); rewrite Hs in *; exact H. }
+  assert (Nn : ~ noser x) by (intros H; exact (H t St)).
+  assert (Uq : forall sr, is_ser (stk (base x) sr) -> sr = t) by (intros sr HS; apply (g_ser1 _ _ A); assumption).
+  assert (Hg : gen count x' = gen count x) by (unfold gen; rewrite Ewd; reflexivity).
+  assert (Hsub : forall q0 u, In u (pw x' q0) -> In u (pw x q0)).
+  { intros q0 u. rewrite Ep. destruct (Nat.eq_dec q0 q) as [->|Nq]; [rewrite upd_same|rewrite upd_other by exact Nq; auto].
+    intros H. apply in_remove in H. tauto. }
+  destruct A as [A1 A2 A3 A4 A5 A6 A7 A8 A9 A10 A11 A12].
+  destruct (A4 t St) as (B1 & B2 & B3 & B4 & B5 & B6 & B7). cbv zeta in B2, B3, B6, B7. fold q in B3.
+  constructor; rewrite ?En, ?Ewd, ?Err, ?Ea, ?Hg; auto.
+  - intros sr sr'. rewrite !Hs. apply A3.
+  - intros sr HS. cbv zeta. rewrite Hs in HS. pose proof (Uq sr HS) as ->. rewrite Er, Ew', Ep, Ei. fold q.
+    rewrite upd_same, (upd_other _ q), (upd_other _ q) by (apply lq_succ_ne).
+    pose proof (remove_length _ f (A6 q) Hf). rewrite Ew in B3. repeat split; auto; lia.
+  - rewrite Hn. tauto.
+  - intros q0. rewrite Ep. destruct (Nat.eq_dec q0 q) as [->|Nq]; [rewrite upd_same; apply remove_nodup; auto|rewrite upd_other by exact Nq; auto].
+  - intros q0 u Hu. apply Hsub in Hu. destruct (A7 q0 u Hu) as (C1 & C2 & C3 & C4 & C5).
+    rewrite Hw, Hn, (Hr u (or_intror C2)). repeat split; auto.
+  - intros u k Hu Hp. destruct (Nat.eq_dec u t) as [->|Ne]; [rewrite (ser_not_pre _ St') in Hp; discriminate|].
+    apply (A8 u k Hu). apply (Ho u Ne). exact Hp.
+  - intros u. rewrite Hw. intros H1. rewrite (Hr u (or_intror H1)). intros H2.
+    destruct (in_dec Nat.eq_dec u (pw x (lq (rnd (stk (base x) u))))) as [Hi|Hi]; [|apply A9; assumption].
+    destruct (A7 _ u Hi) as (_ & _ & C3 & C4 & _).
+    (* u was removed: it is f, on the serial fiber's list *)
+    assert (Hlq : lq (rnd (stk (base x) u)) = q).
+    { destruct (Nat.eq_dec (lq (rnd (stk (base x) u))) q) as [E|Nq]; [exact E|].
+      exfalso. apply H2. rewrite Ep, upd_other by exact Nq. exact Hi. }
+    destruct C4 as [C4|C4]; [exact C4|]. exfalso.
+    assert (rnd (stk (base x) u) = S (rnd (stk (base x) t))) by lia.
+    rewrite H in Hlq. exact (lq_succ_ne _ Hlq).
+  - intros u. rewrite Hw. apply A12.
 Qed.
 
-(* a fiber arrives and is not the last of its group: it will wait *)
+(* the serial fiber t of round k returns (all its waiters have been scheduled) *)
+Lemma GA_serial_return x x' t n k :
+  GA count x -> others_same x x' t ->
+  bot (stk (base x) t) = Some (BRet n k 1) -> stk (base x') t = start_stack t n (S k) ->
+  nthr (base x') = nthr (base x) -> word (mem (base x')) 0%nat = word (mem (base x)) 0%nat ->
+  pw x' (lq k) = [] -> (forall q, q <> lq k -> pw x' q = pw x q) ->
+  rets x' = rets x ++ [(t, k, 1)] -> arr x' = arr x ->
+  infl x' (lq k) = None -> (forall q, q <> lq k -> infl x' q = infl x q) ->
+  GA count x'.
+Proof.
+  intros A Ho Bt Es En Ewd Ep Ep' Err Ea Ei Ei'.
+  assert (St : is_ser (stk (base x) t)) by (do 2 eexists; exact Bt).
+  assert (Rt : rnd (stk (base x) t) = k) by (unfold rnd; rewrite Bt; reflexivity).
+  destruct (start_stack_obs t n (S k)) as (O1 & O2 & O3). rewrite <- Es in O1, O2, O3.
+  assert (Uq : forall sr, is_ser (stk (base x) sr) -> sr = t) by (intros sr HS; apply (g_ser1 _ _ A); assumption).
+  assert (Nn' : noser x').
+  { intros sr HS. destruct (Nat.eq_dec sr t) as [->|Ne]; [exact (O1 HS)|].
+    apply (Ho sr Ne) in HS. apply Ne. apply Uq. exact HS. }
+  assert (Hg : gen count x' = gen count x) by (unfold gen; rewrite Ewd; reflexivity).
+  assert (Hrw : forall u, u <> t -> is_wait (stk (base x) u) -> rnd (stk (base x') u) = rnd (stk (base x) u)).
+  { intros u Ne H. apply (Ho u Ne). auto. }
+  destruct A as [A1 A2 A3 A4 A5 A6 A7 A8 A9 A10 A11 A12].
+  destruct (A4 t St) as (B1 & B2 & B3 & B4 & B5 & B6 & B7). cbv zeta in B2, B3, B6, B7. rewrite Rt in B2, B3, B6, B7.
+  assert (Hcz : count <> 0) by lia.
+  assert (Hgk : Z.to_nat (gen count x) = k) by (rewrite <- B2; apply Nat2Z.id).
+  assert (Hsub : forall q u, In u (pw x' q) -> In u (pw x q) /\ q <> lq k).
+  { intros q u Hu. destruct (Nat.eq_dec q (lq k)) as [->|Nq]; [rewrite Ep in Hu; destruct Hu|].
+    rewrite (Ep' q Nq) in Hu. auto. }
+  constructor; rewrite ?En, ?Ewd, ?Ea, ?Hg; auto.
+  - intros sr sr' HS. exfalso. exact (Nn' sr HS).
+  - intros sr HS. exfalso. exact (Nn' sr HS).
+  - intros _. rewrite Hgk. split; [|split].
+    + rewrite (Ep' _ (lq_succ_ne k)). exact B6.
+    + exact Ep.
+    + intros q Hq. destruct (Nat.eq_dec q (lq k)) as [->|Nq]; [exact Ei|]. rewrite (Ei' q Nq).
+      rewrite (lq_two (lq k) q (lq_lt k) Hq (fun H => Nq (eq_sym H))), <- lq_succ. exact B7.
+  - intros q. destruct (Nat.eq_dec q (lq k)) as [->|Nq]; [rewrite Ep; constructor|rewrite (Ep' q Nq); apply A6].
+  - intros q u Hu. destruct (Hsub q u Hu) as [Hu0 Nq]. destruct (A7 q u Hu0) as (C1 & C2 & C3 & C4 & C5).
+    assert (Ne : u <> t). { intros ->. destruct C2 as (? & ? & C2). rewrite Bt in C2. discriminate. }
+    rewrite (Hrw u Ne C2). split; [exact C1|]. split; [apply (Ho u Ne); exact C2|]. split; [exact C3|].
+    split; [exact C4|]. intros _. destruct C4 as [C4|C4]; [|exact C4]. exfalso. apply Nq. rewrite <- C3. f_equal. lia.
+  - intros u k' Hu Hp. destruct (Nat.eq_dec u t) as [->|Ne].
+    + rewrite (O3 _ Hp). lia.
+    + apply (A8 u k' Hu). apply (Ho u Ne). exact Hp.
+  - intros u Hw Hni. destruct (Nat.eq_dec u t) as [->|Ne]; [exfalso; exact (O2 Hw)|].
+    pose proof (proj1 (proj1 (proj2 (Ho u Ne))) Hw) as Hw0. rewrite (Hrw u Ne Hw0) in *.
+    destruct (in_dec Nat.eq_dec u (pw x (lq (rnd (stk (base x) u))))) as [Hi|Hi]; [|apply A9; assumption].
+    destruct (A7 _ u Hi) as (_ & _ & C3 & C4 & _).
+    destruct (Nat.eq_dec (lq (rnd (stk (base x) u))) (lq k)) as [E|Nq].
+    + destruct C4 as [C4|C4]; [exact C4|]. exfalso.
+      assert (rnd (stk (base x) u) = S k) by lia. rewrite H in E. exact (lq_succ_ne _ E).
+    + exfalso. apply Hni. rewrite (Ep' _ Nq). exact Hi.
+  - intros t0 k0 r0. rewrite Err, in_app_iff. intros [H|[H|[]]]; [eauto|]. injection H as <- <- <-.
+    rewrite B2. unfold gen. rewrite Z.mul_comm. apply Z.mul_div_le. lia.
+  - intros u Hw. destruct (Nat.eq_dec u t) as [->|Ne]; [exfalso; exact (O2 Hw)|]. apply A12. apply (Ho u Ne). exact Hw.
+Qed.
+
+(* a woken waiter t returns and possibly enters the next round *)
+Lemma GA_waiter_return x x' t n k :
+  GA count x -> others_same x x' t ->
+  bot (stk (base x) t) = Some (BRet n k 0) -> ~ In t (pw x (lq k)) -> stk (base x') t = start_stack t n (S k) ->
+  nthr (base x') = nthr (base x) -> word (mem (base x')) 0%nat = word (mem (base x)) 0%nat ->
+  pw x' = pw x -> rets x' = rets x ++ [(t, k, 0)] -> arr x' = arr x -> infl x' = infl x ->
+  GA count x'.
+Proof.
+  intros A Ho Bt Hq Es En Ewd Ep Err Ea Ei.
+  assert (Wt : is_wait (stk (base x) t)) by (do 2 eexists; exact Bt).
+  assert (Nst : ~ is_ser (stk (base x) t)) by (unfold is_ser; rewrite Bt; intros (? & ? & ?); discriminate).
+  assert (Rt : rnd (stk (base x) t) = k) by (unfold rnd; rewrite Bt; reflexivity).
+  destruct (start_stack_obs t n (S k)) as (O1 & O2 & O3). rewrite <- Es in O1, O2, O3.
+  assert (Hs : forall u, is_ser (stk (base x') u) <-> is_ser (stk (base x) u)).
+  { intros u. destruct (Nat.eq_dec u t) as [->|Ne]; [tauto|apply (Ho u Ne)]. }
+  assert (Hn : noser x' <-> noser x).
+  { unfold noser. split; intros H sr; specialize (H sr); rewrite Hs in *; exact H. }
+  assert (Hob : forall u, u <> t -> is_ser (stk (base x) u) \/ is_wait (stk (base x) u) ->
+                rnd (stk (base x') u) = rnd (stk (base x) u) /\ wcof (stk (base x') u) = wcof (stk (base x) u)).
+  { intros u Ne. apply (Ho u Ne). }
+  assert (Hg : gen count x' = gen count x) by (unfold gen; rewrite Ewd; reflexivity).
+  destruct A as [A1 A2 A3 A4 A5 A6 A7 A8 A9 A10 A11 A12].
+  pose proof (A9 t Wt) as T1. rewrite Rt in T1. specialize (T1 Hq).
+  constructor; rewrite ?En, ?Ewd, ?Ea, ?Ep, ?Ei, ?Hg; auto.
+  - intros sr sr'. rewrite !Hs. apply A3.
+  - intros sr HS. cbv zeta. rewrite Hs in HS. assert (Ne : sr <> t) by (intros ->; exact (Nst HS)).
+    destruct (Hob sr Ne (or_introl HS)) as [-> ->]. apply A4. exact HS.
+  - rewrite Hn. exact A5.
+  - intros q u Hu. destruct (A7 q u Hu) as (C1 & C2 & C3 & C4 & C5).
+    assert (Ne : u <> t). { intros ->. apply Hq. rewrite Rt in C3. rewrite C3. exact Hu. }
+    destruct (Hob u Ne (or_intror C2)) as [-> _].
+    rewrite Hn. split; [exact C1|]. split; [apply (Ho u Ne); exact C2|]. auto.
+  - intros u k' Hu Hp. destruct (Nat.eq_dec u t) as [->|Ne].
+    + rewrite (O3 _ Hp). lia.
+    + apply (A8 u k' Hu). apply (Ho u Ne). exact Hp.
+  - intros u Hw. destruct (Nat.eq_dec u t) as [->|Ne]; [exfalso; exact (O2 Hw)|].
+    pose proof (proj1 (proj1 (proj2 (Ho u Ne))) Hw) as Hw0.
+    destruct (Hob u Ne (or_intror Hw0)) as [-> _]. apply A9. exact Hw0.
+  - intros t0 k0 r0. rewrite Err, in_app_iff. intros [H|[H|[]]]; [eauto|]. injection H as <- <- <-.
+    rewrite T1. unfold gen. rewrite Z.mul_comm. apply Z.mul_div_le. lia.
+  - intros u Hw. destruct (Nat.eq_dec u t) as [->|Ne]; [exfalso; exact (O2 Hw)|]. apply A12. apply (Ho u Ne). exact Hw.
+Qed.
+
+(* a fiber arrives and is not the last of its group: it will wait on list lq k *)
 Lemma GA_arrive_wait x x' t n k :
-  GA count x ->
-  (forall u, u <> t -> same_obs (stk (base x) u) (stk (base x') u)) ->
+  GA count x -> others_same x x' t ->
   pre_round (stk (base x) t) = Some k -> (t < nthr (base x))%nat ->
   bot (stk (base x') t) = Some (BRet n k 0) ->
   nthr (base x') = nthr (base x) ->
   word (mem (base x')) 0%nat = word (mem (base x)) 0%nat + 1 ->
   (word (mem (base x)) 0%nat + 1) mod count <> 0 ->
-  pw x' = pw x ++ [t] -> rets x' = rets x ->
+  pw x' = upd (pw x) (lq k) (pw x (lq k) ++ [t]) -> rets x' = rets x ->
   arr x' = arr x ++ [(t, k, word (mem (base x)) 0%nat)] ->
   Z.of_nat (length (arr x)) = word (mem (base x)) 0%nat -> infl x' = infl x ->
   GA count x'.
@@ -1628,39 +1846,51 @@ Proof.
   assert (Hs : forall u, is_ser (stk (base x') u) <-> is_ser (stk (base x) u)).
   { intros u. destruct (Nat.eq_dec u t) as [->|Ne]; [tauto|apply (Ho u Ne)]. }
   assert (Hn : noser x' <-> noser x).
-  { unfold noser. split; intros H S; specialize (H S); rewrite Hs in *; exact H. }
+  { unfold noser. split; intros H sr; specialize (H sr); rewrite Hs in *; exact H. }
   assert (Hob : forall u, u <> t -> is_ser (stk (base x) u) \/ is_wait (stk (base x) u) ->
                 rnd (stk (base x') u) = rnd (stk (base x) u) /\ wcof (stk (base x') u) = wcof (stk (base x) u)).
   { intros u Ne. apply (Ho u Ne). }
-  destruct A as [A1 A2 A3 A4 A5 A6 A7 A8 A9 A10 A11 A12 A13].
-  destruct (A8 t k Htn Hp) as [Ns Hk].
-  assert (Ns' : noser x') by (apply Hn; exact Ns).
+  destruct A as [A1 A2 A3 A4 A5 A6 A7 A8 A9 A10 A11 A12].
+  pose proof (A8 t k Htn Hp) as Hk.
   set (v := word (mem (base x)) 0%nat) in *.
   destruct (div_mod_succ v A2) as [D _]. destruct (D Hmod) as [Dq Dr].
-  assert (Htq : ~ In t (pw x)).
-  { intros Hi. destruct (A7 t Hi) as (_ & C2 & _). exact (Nwt C2). }
-  constructor; rewrite ?En, ?Ewd, ?Err; auto.
+  assert (Hg : gen count x' = gen count x) by (unfold gen; rewrite Ewd; exact Dq).
+  assert (Hgk : S (Z.to_nat (gen count x)) = k).
+  { apply Nat2Z.inj. rewrite Nat2Z.inj_succ, Z2Nat.id; [lia|]. unfold gen. apply Z.div_pos; lia. }
+  assert (Htq : forall q, ~ In t (pw x q)).
+  { intros q Hi. destruct (A7 q t Hi) as (_ & C2 & _). exact (Nwt C2). }
+  constructor; rewrite ?En, ?Ewd, ?Err, ?Ei, ?Hg; auto.
   - lia.
-  - intros S S' HS. exfalso. exact (Ns' S HS).
-  - intros S HS. exfalso. exact (Ns' S HS).
-  - intros _. rewrite Ep, app_length, Nat2Z.inj_add, (A5 Ns), Dr. cbn. lia.
-  - rewrite Ep. apply nodup_snoc; assumption.
-  - intros u Hu. rewrite Ep in Hu. apply in_app_iff in Hu. destruct Hu as [Hu|[<-|[]]].
-    + assert (Ne : u <> t) by (intros ->; exact (Htq Hu)).
-      destruct (A7 u Hu) as (C1 & C2 & C3 & C4). destruct (Hob u Ne (or_intror C2)) as [-> _].
-      split; [exact C1|]. split; [apply (Ho u Ne); exact C2|].
-      split; [intros S HS; exfalso; exact (Ns' S HS)|]. intros _. rewrite Dq. apply C4. exact Ns.
-    + split; [exact Htn|]. split; [exact Wt'|]. split; [intros S HS; exfalso; exact (Ns' S HS)|].
-      intros _. rewrite Rt', Dq. exact Hk.
-  - intros u k' Hu Hp'. split; [exact Ns'|]. destruct (Nat.eq_dec u t) as [->|Ne].
+  - intros sr sr'. rewrite !Hs. apply A3.
+  - intros sr HS. cbv zeta. rewrite Hs in HS. assert (Ne : sr <> t) by (intros ->; exact (Nst HS)).
+    destruct (Hob sr Ne (or_introl HS)) as [-> ->].
+    destruct (A4 sr HS) as (B1 & B2 & B3 & B4 & B5 & B6 & B7). cbv zeta in B2, B3, B6, B7.
+    assert (Hks : S (rnd (stk (base x) sr)) = k) by (apply Nat2Z.inj; rewrite Nat2Z.inj_succ; lia).
+    rewrite Ep, Hks, upd_same. rewrite <- Hks at 1. rewrite upd_other by (apply not_eq_sym; apply lq_succ_ne).
+    rewrite Hks in B6. rewrite app_length, Nat2Z.inj_add, B6, Dr. cbn. rewrite Hks in B7. repeat split; auto.
+  - rewrite Hn. intros H. destruct (A5 H) as (B1 & B2 & B3). rewrite Hgk in B1. rewrite Ep, Hgk, upd_same.
+    rewrite upd_other by (rewrite <- Hgk; apply not_eq_sym; apply lq_succ_ne).
+    rewrite app_length, Nat2Z.inj_add, B1, Dr. cbn. repeat split; auto.
+  - intros q. rewrite Ep. destruct (Nat.eq_dec q (lq k)) as [->|Nq]; [rewrite upd_same|rewrite upd_other by exact Nq; apply A6].
+    apply nodup_snoc; [apply A6|apply Htq].
+  - intros q u. rewrite Ep. destruct (Nat.eq_dec q (lq k)) as [->|Nq]; [rewrite upd_same|rewrite upd_other by exact Nq].
+    + intros Hu. apply in_app_iff in Hu. destruct Hu as [Hu|[<-|[]]].
+      * assert (Ne : u <> t) by (intros ->; exact (Htq _ Hu)).
+        destruct (A7 _ u Hu) as (C1 & C2 & C3 & C4 & C5). destruct (Hob u Ne (or_intror C2)) as [-> _].
+        rewrite Hn. split; [exact C1|]. split; [apply (Ho u Ne); exact C2|]. auto.
+      * rewrite Rt'. split; [exact Htn|]. split; [exact Wt'|]. split; [reflexivity|]. split; [right; exact Hk|]. intros _. exact Hk.
+    + intros Hu. assert (Ne : u <> t) by (intros ->; exact (Htq _ Hu)).
+      destruct (A7 _ u Hu) as (C1 & C2 & C3 & C4 & C5). destruct (Hob u Ne (or_intror C2)) as [-> _].
+      rewrite Hn. split; [exact C1|]. split; [apply (Ho u Ne); exact C2|]. auto.
+  - intros u k' Hu Hp'. destruct (Nat.eq_dec u t) as [->|Ne].
     + exfalso. destruct (pre_round_obs _ _ Hp') as [_ H]. exact (H Wt').
-    + rewrite Dq. apply (A8 u k' Hu). apply (Ho u Ne). exact Hp'.
+    + apply (A8 u k' Hu). apply (Ho u Ne). exact Hp'.
   - intros u Hw Hi. assert (Ne : u <> t).
-    { intros ->. apply Hi. rewrite Ep. apply in_app_iff. right. left. reflexivity. }
+    { intros ->. apply Hi. rewrite Rt', Ep, upd_same. apply in_app_iff. right. left. reflexivity. }
     pose proof (proj1 (proj1 (proj2 (Ho u Ne))) Hw) as Hw0.
-    assert (Hi0 : ~ In u (pw x)) by (intros H; apply Hi; rewrite Ep; apply in_app_iff; left; exact H).
-    destruct (Hob u Ne (or_intror Hw0)) as [-> _]. destruct (A9 u Hw0 Hi0) as (C1 & C2 & C3).
-    split; [intros S HS; exfalso; exact (Ns' S HS)|]. split; [intros _; rewrite Dq; apply C2; exact Ns|lia].
+    destruct (Hob u Ne (or_intror Hw0)) as [E _]. rewrite E in *. apply A9; [exact Hw0|].
+    intros H. apply Hi. rewrite Ep. destruct (Nat.eq_dec (lq (rnd (stk (base x) u))) (lq k)) as [Eq|Nq];
+      [rewrite Eq in *; rewrite upd_same; apply in_app_iff; left; exact H|rewrite upd_other by exact Nq; exact H].
   - intros t0 k0 r0 H. specialize (A10 _ _ _ H). lia.
   - intros i t0 k0 v0. rewrite Ea. intros Hnth.
     destruct (Nat.lt_ge_cases i (length (arr x))) as [Lt|Ge].
@@ -1669,13 +1899,12 @@ Proof.
       destruct (i - length (arr x))%nat eqn:Di; cbn in Hnth; [|destruct n0; discriminate].
       injection Hnth as <- <- <-. replace (Z.of_nat i) with v by lia. exact Hk.
   - intros u Hw. destruct (Nat.eq_dec u t) as [->|Ne]; [exact Htn|]. apply A12. apply (Ho u Ne). exact Hw.
-  - intros _. rewrite Ei. apply A13. exact Ns.
 Qed.
 
-(* the last fiber of a group arrives: it becomes the serial fiber; everybody else is waiting *)
+(* the last fiber of a group arrives: nobody else is popping, it becomes the serial
+   fiber, everybody else is waiting on its list and the other list is empty *)
 Lemma GA_arrive_serial x x' t n k :
-  GA count x ->
-  (forall u, u <> t -> same_obs (stk (base x) u) (stk (base x') u)) ->
+  GA count x -> others_same x x' t ->
   pre_round (stk (base x) t) = Some k -> (t < nthr (base x))%nat ->
   bot (stk (base x') t) = Some (BRet n k 1) -> wcof (stk (base x') t) = 0 ->
   nthr (base x') = nthr (base x) ->
@@ -1683,10 +1912,10 @@ Lemma GA_arrive_serial x x' t n k :
   (word (mem (base x)) 0%nat + 1) mod count = 0 ->
   pw x' = pw x -> rets x' = rets x ->
   arr x' = arr x ++ [(t, k, word (mem (base x)) 0%nat)] ->
-  Z.of_nat (length (arr x)) = word (mem (base x)) 0%nat ->
-  GA count x'.
+  Z.of_nat (length (arr x)) = word (mem (base x)) 0%nat -> infl x' = infl x ->
+  GA count x' /\ noser x.
 Proof.
-  intros A Ho Hp Htn Bt Hwc En Ewd Hmod Ep Err Ea Hlen.
+  intros A Ho Hp Htn Bt Hwc En Ewd Hmod Ep Err Ea Hlen Ei.
   destruct (pre_round_obs _ _ Hp) as [Nst Nwt].
   assert (St' : is_ser (stk (base x') t)) by (do 2 eexists; exact Bt).
   assert (Nwt' : ~ is_wait (stk (base x') t)) by (unfold is_wait; rewrite Bt; intros (? & ? & ?); discriminate).
@@ -1694,40 +1923,60 @@ Proof.
   assert (Hob : forall u, u <> t -> is_ser (stk (base x) u) \/ is_wait (stk (base x) u) ->
                 rnd (stk (base x') u) = rnd (stk (base x) u) /\ wcof (stk (base x') u) = wcof (stk (base x) u)).
   { intros u Ne. apply (Ho u Ne). }
-  destruct A as [A1 A2 A3 A4 A5 A6 A7 A8 A9 A10 A11 A12 A13].
-  destruct (A8 t k Htn Hp) as [Ns Hk].
-  assert (Uq : forall S, is_ser (stk (base x') S) -> S = t).
-  { intros S HS. destruct (Nat.eq_dec S t) as [->|Ne]; [reflexivity|]. exfalso. apply (Ns S). apply (Ho S Ne). exact HS. }
-  assert (Nn' : ~ noser x') by (intros H; exact (H t St')).
+  destruct A as [A1 A2 A3 A4 A5 A6 A7 A8 A9 A10 A11 A12].
+  pose proof (A8 t k Htn Hp) as Hk.
   set (v := word (mem (base x)) 0%nat) in *.
   destruct (div_mod_succ v A2) as [_ D]. destruct (D Hmod) as [Dq Dr].
-  assert (Htq : ~ In t (pw x)).
-  { intros Hi. destruct (A7 t Hi) as (_ & C2 & _). exact (Nwt C2). }
-  assert (Hlen' : S (length (pw x)) = nthr (base x)).
-  { pose proof (A5 Ns) as H. rewrite Dr in H. rewrite A1. lia. }
-  assert (Hall : forall u, (u < nthr (base x))%nat -> u = t \/ In u (pw x)).
-  { apply pigeon; auto. intros u Hu. apply (A7 u Hu). }
+  assert (Htq : forall q, ~ In t (pw x q)).
+  { intros q Hi. destruct (A7 q t Hi) as (_ & C2 & _). exact (Nwt C2). }
+  (* nobody is popping: otherwise count-1 waiters of the next round, the serial fiber and t
+     would be count+1 distinct fibers *)
+  assert (Ns : noser x).
+  { intros sr HS. destruct (A4 sr HS) as (B1 & B2 & B3 & B4 & B5 & B6 & B7). cbv zeta in B6.
+    set (l := pw x (lq (S (rnd (stk (base x) sr))))) in *.
+    assert (Nd : NoDup (sr :: t :: l)).
+    { constructor; [|constructor; [apply Htq|apply A6]].
+      intros [E|Hi]; [subst; exact (Nst HS)|].
+      destruct (A7 _ sr Hi) as (_ & (n1 & k1 & C2) & _). destruct HS as (n2 & k2 & HS). congruence. }
+    assert (Hin : incl (sr :: t :: l) (seq 0 (nthr (base x)))).
+    { intros u [<-|[<-|Hu]]; apply in_seq; try lia. destruct (A7 _ u Hu) as (C1 & _). lia. }
+    pose proof (NoDup_incl_length Nd Hin) as Hlen'. cbn in Hlen'. rewrite seq_length, A1 in Hlen'.
+    fold v in B6. rewrite Dr in B6. lia. }
+  split; [|exact Ns].
+  destruct (A5 Ns) as (B1 & B2 & B3).
+  assert (Hgk : S (Z.to_nat (gen count x)) = k).
+  { apply Nat2Z.inj. rewrite Nat2Z.inj_succ, Z2Nat.id; [lia|]. unfold gen. apply Z.div_pos; lia. }
+  rewrite Hgk in B1. fold v in B1. rewrite Dr in B1.
+  assert (Hg : gen count x' = gen count x + 1) by (unfold gen; rewrite Ewd; exact Dq).
+  assert (Uq : forall sr, is_ser (stk (base x') sr) -> sr = t).
+  { intros sr HS. destruct (Nat.eq_dec sr t) as [->|Ne]; [reflexivity|]. exfalso. apply (Ns sr). apply (Ho sr Ne). exact HS. }
+  assert (Nn' : ~ noser x') by (intros H; exact (H t St')).
+  assert (Hlen' : S (length (pw x (lq k))) = nthr (base x)) by (rewrite A1; lia).
+  assert (Hall : forall u, (u < nthr (base x))%nat -> u = t \/ In u (pw x (lq k))).
+  { apply pigeon; auto. intros u Hu. apply (A7 _ u Hu). }
   assert (Hk' : v + 1 = Z.of_nat k * count).
-  { pose proof (Z.div_mod (v + 1) count ltac:(lia)) as E. rewrite Hmod, Dq in E. lia. }
-  constructor; rewrite ?En, ?Ewd, ?Err, ?Ep; auto.
+  { pose proof (Z.div_mod (v + 1) count ltac:(lia)) as E. rewrite Hmod, Dq in E. unfold gen in Hk. fold v in Hk. lia. }
+  assert (Hoth : lq (S k) = lq (Z.to_nat (gen count x))) by (rewrite <- Hgk, !lq_succ; pose proof (lq_lt (Z.to_nat (gen count x))); lia).
+  constructor; rewrite ?En, ?Ewd, ?Err, ?Ep, ?Ei, ?Hg; auto.
   - lia.
-  - intros S S' HS HS'. rewrite (Uq S HS), (Uq S' HS'). reflexivity.
-  - intros S HS. rewrite (Uq S HS), Rt', Hwc. split; [exact Htn|]. split; [exact Hk'|].
-    split; [rewrite (A5 Ns), Dr; lia|]. split; lia.
+  - intros sr sr' HS HS'. rewrite (Uq sr HS), (Uq sr' HS'). reflexivity.
+  - intros sr HS. cbv zeta. rewrite (Uq sr HS), Rt', Hwc. split; [exact Htn|]. split; [lia|].
+    split; [lia|]. split; [lia|]. split; [lia|]. rewrite Hoth, B2. cbn [length]. rewrite Hmod.
+    split; [reflexivity|]. apply B3. apply lq_lt.
   - intros H. exfalso. exact (Nn' H).
-  - intros u Hu. assert (Ne : u <> t) by (intros ->; exact (Htq Hu)).
-    destruct (A7 u Hu) as (C1 & C2 & C3 & C4). destruct (Hob u Ne (or_intror C2)) as [-> _].
-    split; [exact C1|]. split; [apply (Ho u Ne); exact C2|]. split; [|intros H; exfalso; exact (Nn' H)].
-    intros S HS. rewrite (Uq S HS), Rt'. apply Nat2Z.inj. rewrite (C4 Ns). lia.
+  - intros q u Hu. assert (Ne : u <> t) by (intros ->; exact (Htq _ Hu)).
+    destruct (A7 q u Hu) as (C1 & C2 & C3 & C4 & C5). destruct (Hob u Ne (or_intror C2)) as [-> _].
+    split; [exact C1|]. split; [apply (Ho u Ne); exact C2|]. split; [exact C3|].
+    split; [left; rewrite (C5 Ns); reflexivity|]. intros H; exfalso; exact (Nn' H).
   - intros u k' Hu Hp'. exfalso. destruct (Hall u Hu) as [->|Hi].
-    + destruct (pre_round_obs _ _ Hp') as [H _]. exact (H St').
-    + assert (Ne : u <> t) by (intros ->; exact (Htq Hi)).
-      apply (Ho u Ne) in Hp'. destruct (pre_round_obs _ _ Hp') as [_ H]. apply H. apply (A7 u Hi).
+    + rewrite (ser_not_pre _ St') in Hp'. discriminate.
+    + assert (Ne : u <> t) by (intros ->; exact (Htq _ Hi)).
+      apply (Ho u Ne) in Hp'. destruct (pre_round_obs _ _ Hp') as [_ H]. apply H. apply (A7 _ u Hi).
   - intros u Hw Hi. exfalso. assert (Ne : u <> t) by (intros ->; exact (Nwt' Hw)).
     pose proof (proj1 (proj1 (proj2 (Ho u Ne))) Hw) as Hw0.
-    destruct (A9 u Hw0 Hi) as (_ & _ & C3).
-    assert (Hu : (u < nthr (base x))%nat) by (apply A12; exact Hw0).
-    destruct (Hall u Hu) as [->|Hi']; [exact (Ne eq_refl)|exact (Hi Hi')].
+    destruct (Hob u Ne (or_intror Hw0)) as [E _]. rewrite E in Hi.
+    destruct (Hall u (A12 u Hw0)) as [->|Hi']; [exact (Ne eq_refl)|].
+    destruct (A7 _ u Hi') as (_ & _ & C3 & _). rewrite C3 in Hi. exact (Hi Hi').
   - intros t0 k0 r0 H. specialize (A10 _ _ _ H). lia.
   - intros i t0 k0 v0. rewrite Ea. intros Hnth.
     destruct (Nat.lt_ge_cases i (length (arr x))) as [Lt|Ge].
@@ -1736,7 +1985,6 @@ Proof.
       destruct (i - length (arr x))%nat eqn:Di; cbn in Hnth; [|destruct n0; discriminate].
       injection Hnth as <- <- <-. replace (Z.of_nat i) with v by lia. exact Hk.
   - intros u Hw. destruct (Nat.eq_dec u t) as [->|Ne]; [exact Htn|]. apply A12. apply (Ho u Ne). exact Hw.
-  - intros H. exfalso. exact (Nn' H).
 Qed.
 End GAsteps.
 
@@ -1758,110 +2006,114 @@ Proof.
   pose proof (ready_lt _ _ Hst) as Htn.
   destruct Gx as [A Lg N M].
   set (m := mem (base x)) in *. set (v := word m 0%nat) in *.
-  pose proof (g_cnt _ _ M) as Ec.
+  pose proof (g_cnt _ _ M) as Ec. pose proof (g_two _ _ M) as Etw.
   assert (Hp : pre_round (stk (base x) t) = Some k) by (rewrite E; reflexivity).
-  destruct (g_pre _ _ A t k Htn Hp) as [Ns Hk].
-  assert (Htq : ~ In t (pw x)).
-  { intros Hi. destruct (g_pw _ _ A t Hi) as (_ & (n' & k' & C2) & _). rewrite E in C2. discriminate. }
+  pose proof (g_pre _ _ A t k Htn Hp) as Hk.
+  assert (Hv0 : 0 <= v) by apply (g_word _ _ A).
+  assert (Hsel : lsel true count v = lq k) by (apply lsel_lq; [exact Hv0|lia|exact Hk]).
+  assert (Htq : forall q, ~ In t (pw x q)).
+  { intros q Hi. destruct (g_pw _ _ A q t Hi) as (_ & (n' & k' & C2) & _). rewrite E in C2. discriminate. }
   assert (Hlen : Z.of_nat (length (arr x)) = v) by (symmetry; apply (l1_word _ _ Lx)).
   assert (Eb0 : bot (stk (base x) t) = Some (BArrived n k)) by (rewrite E; reflexivity).
-  assert (Hin : infl x = None) by (apply (g_infl_none _ _ A Ns)).
+  assert (Gc : chain (lstep x t) = chain x) by (rewrite lstep_chain, E; reflexivity).
+  assert (Gi : infl (lstep x t) = infl x) by (rewrite lstep_infl, E; reflexivity).
+  assert (Gr : rets (lstep x t) = rets x).
+  { rewrite lstep_rets. rewrite <- lstep_erase. rewrite Eb0. reflexivity. }
   destruct ((v + 1) mod count =? 0) eqn:Eq.
   - (* serial *)
     apply Z.eqb_eq in Eq.
-    assert (K : kstep bc (cret (cnt (base x))) m t (stk (base x) t)
+    assert (K : kstep bc (cret (two (base x)) (cnt (base x))) m t (stk (base x) t)
                 = (set_word m 0%nat (v + 1), ev t (l_word 0) (50 + 5) (pc64 v) ++ [],
-                   [KHead 0 (count - 1) 0; FC (BRet n k 1)])).
-    { rewrite E, Ec. cbn [kstep ret cret]. fold m. fold v. rewrite Eq. cbn. reflexivity. }
+                   [KHead (lq k) (count - 1) 0; FC (BRet n k 1)])).
+    { rewrite E, Ec, Etw. cbn [kstep ret cret]. fold m. fold v. rewrite Eq, Hsel. cbn. reflexivity. }
     destruct (lstep_view x t _ _ _ K) as (Em & Es & Eo & Ecn & Enn).
-    assert (Gc : chain (lstep x t) = chain x) by (rewrite lstep_chain, E; reflexivity).
-    assert (Gi : infl (lstep x t) = infl x) by (rewrite lstep_infl, E; reflexivity).
     assert (Gp : pw (lstep x t) = pw x).
     { rewrite lstep_pw, E, Ec. fold m. fold v. rewrite Eq. reflexivity. }
     assert (Ga : arr (lstep x t) = arr x ++ [(t, k, v)]).
     { rewrite lstep_arr. rewrite <- lstep_erase. rewrite Eb0, Es. reflexivity. }
-    assert (Gr : rets (lstep x t) = rets x).
-    { rewrite lstep_rets. rewrite <- lstep_erase. rewrite Eb0. reflexivity. }
-    assert (Eno : nodes (lstep x t) = nodes x) by (unfold nodes; rewrite Em, Gc; reflexivity).
-    assert (Hobs : forall u, u <> t -> same_obs (stk (base x) u) (stk (base (lstep x t)) u)).
+    assert (Eno : forall q, nodes (lstep x t) q = nodes x q) by (intros q; unfold nodes; rewrite Em, Gc; reflexivity).
+    assert (Hobs : others_same x (lstep x t) t).
     { intros u Ne. rewrite Eo by exact Ne. apply same_obs_refl. }
+    destruct (GA_arrive_serial count Hcount x (lstep x t) t n k A Hobs Hp Htn) as [A' Ns]; auto;
+      try (rewrite Es; reflexivity); try (rewrite Em; cbn; unfold upd; reflexivity).
+    destruct (g_noser _ _ A Ns) as (_ & _ & Hinf).
     constructor.
-    + apply (GA_arrive_serial count Hcount x _ t n k); auto; try (rewrite Es; reflexivity).
-      rewrite Em. cbn. unfold upd. reflexivity.
-    + apply (GL_frame x); auto; try (rewrite Em; reflexivity).
+    + exact A'.
+    + intros q Hq. apply (GL_frame x); auto; try (rewrite Em; reflexivity); try (rewrite ?Gc, ?Gi; reflexivity).
       * rewrite Gp. auto.
       * intros u _. destruct (Nat.eq_dec u t) as [->|Ne]; [rewrite Es, E; cbn; tauto|].
         rewrite Eo by exact Ne. tauto.
     + apply (GN_frame x); auto; try (intros; rewrite Em; reflexivity).
       intros u. destruct (Nat.eq_dec u t) as [->|Ne]; [rewrite Es, E; reflexivity|]. rewrite Eo by exact Ne. reflexivity.
-    + destruct M as [M1 M2 M3 M4]. constructor.
+    + destruct M as [M1 M0 M2 M3 M4]. constructor.
       * rewrite Ecn. exact M1.
+      * rewrite lstep_erase, step_two. exact M0.
       * rewrite Em. eapply slots_none_same; eauto.
       * intros u. rewrite Em. apply M3.
       * intros u. destruct (Nat.eq_dec u t) as [->|Ne].
-        -- rewrite Es. constructor; [|congruence]. unfold serl, Qp, quiet. rewrite Gp, Em. auto.
+        -- rewrite Es. constructor; [|rewrite Gi; apply Hinf; apply lq_lt].
+           unfold serl, Qp, quiet. rewrite Gp, Em. auto.
         -- rewrite Eo by exact Ne. apply (lok_frame count x); [| | | |apply M4].
            ++ rewrite Em. constructor; reflexivity.
            ++ apply same_ghost_refl; assumption.
-           ++ intros _. rewrite Em. cbn. auto.
+           ++ intros _. cbv zeta. rewrite Em, Gi. cbn. auto 6.
            ++ intros _. rewrite Em. auto.
   - (* waiter *)
     apply Z.eqb_neq in Eq.
-    assert (K : kstep bc (cret (cnt (base x))) m t (stk (base x) t)
+    assert (K : kstep bc (cret (two (base x)) (cnt (base x))) m t (stk (base x) t)
                 = (set_word m 0%nat (v + 1), ev t (l_word 0) (50 + 5) (pc64 v) ++ [],
-                   [WSaving 0; FC (BRet n k 0)])).
-    { rewrite E, Ec. cbn [kstep ret cret]. fold m. fold v. apply Z.eqb_neq in Eq. rewrite Eq. cbn. reflexivity. }
+                   [WSaving (lq k); FC (BRet n k 0)])).
+    { rewrite E, Ec, Etw. cbn [kstep ret cret]. fold m. fold v. apply Z.eqb_neq in Eq. rewrite Eq, Hsel. cbn. reflexivity. }
     destruct (lstep_view x t _ _ _ K) as (Em & Es & Eo & Ecn & Enn).
-    assert (Gc : chain (lstep x t) = chain x) by (rewrite lstep_chain, E; reflexivity).
-    assert (Gi : infl (lstep x t) = infl x) by (rewrite lstep_infl, E; reflexivity).
-    assert (Gp : pw (lstep x t) = pw x ++ [t]).
-    { rewrite lstep_pw, E, Ec. fold m. fold v. apply Z.eqb_neq in Eq. rewrite Eq. reflexivity. }
+    assert (Gp : pw (lstep x t) = upd (pw x) (lq k) (pw x (lq k) ++ [t])).
+    { rewrite lstep_pw, E, Ec, Etw. fold m. fold v. apply Z.eqb_neq in Eq. rewrite Eq. cbv zeta. rewrite Hsel. reflexivity. }
     assert (Ga : arr (lstep x t) = arr x ++ [(t, k, v)]).
     { rewrite lstep_arr. rewrite <- lstep_erase. rewrite Eb0, Es. reflexivity. }
-    assert (Gr : rets (lstep x t) = rets x).
-    { rewrite lstep_rets. rewrite <- lstep_erase. rewrite Eb0. reflexivity. }
-    assert (Eno : nodes (lstep x t) = nodes x) by (unfold nodes; rewrite Em, Gc; reflexivity).
-    assert (Hobs : forall u, u <> t -> same_obs (stk (base x) u) (stk (base (lstep x t)) u)).
+    assert (Eno : forall q, nodes (lstep x t) q = nodes x q) by (intros q; unfold nodes; rewrite Em, Gc; reflexivity).
+    assert (Hobs : others_same x (lstep x t) t).
     { intros u Ne. rewrite Eo by exact Ne. apply same_obs_refl. }
+    assert (Hpin : forall q u, In u (pw x q) -> In u (pw (lstep x t) q)).
+    { intros q u Hu. rewrite Gp. destruct (Nat.eq_dec q (lq k)) as [->|Nq]; [rewrite upd_same; apply in_app_iff; auto|rewrite upd_other by exact Nq; exact Hu]. }
     constructor.
     + apply (GA_arrive_wait count Hcount x _ t n k); auto; try (rewrite Es; reflexivity).
       rewrite Em. cbn. unfold upd. reflexivity.
-    + apply (GL_frame x); auto; try (rewrite Em; reflexivity).
-      * rewrite Gp. intros u Hu. apply in_app_iff. auto.
-      * intros u _. destruct (Nat.eq_dec u t) as [->|Ne]; [rewrite Es, E; cbn; tauto|].
-        rewrite Eo by exact Ne. tauto.
+    + intros q Hq. apply (GL_frame x); auto; try (rewrite Em; reflexivity); try (rewrite ?Gc, ?Gi; reflexivity).
+      intros u _. destruct (Nat.eq_dec u t) as [->|Ne]; [rewrite Es, E; cbn; tauto|].
+      rewrite Eo by exact Ne. tauto.
     + apply (GN_frame x); auto; try (intros; rewrite Em; reflexivity).
       intros u. destruct (Nat.eq_dec u t) as [->|Ne]; [rewrite Es, E; reflexivity|]. rewrite Eo by exact Ne. reflexivity.
-    + destruct M as [M1 M2 M3 M4]. constructor.
+    + destruct M as [M1 M0 M2 M3 M4]. constructor.
       * rewrite Ecn. exact M1.
+      * rewrite lstep_erase, step_two. exact M0.
       * rewrite Em. eapply slots_none_same; eauto.
       * intros u. rewrite Em. apply M3.
       * intros u. destruct (Nat.eq_dec u t) as [->|Ne].
         -- rewrite Es. constructor; [|rewrite Em; assumption].
-           unfold unq, Qp, Cp, Fp, quiet. rewrite Gp, Gc, Gi, Em. split; [apply in_app_iff; right; left; reflexivity|].
-           split; [|split; [congruence|auto]].
-           intros Hc. apply in_map_iff in Hc. destruct Hc as [[nd u] [Eq' Hc]]. cbn in Eq'. subst u.
-           apply Htq. apply (g_chain _ Lg _ _ Hc).
+           unfold unq, Qp, Cp, Fp, quiet. rewrite Gp, Gc, Gi, Em, upd_same. split; [apply in_app_iff; right; left; reflexivity|].
+           split; [|split; [|auto]].
+           ++ intros Hc. apply in_map_iff in Hc. destruct Hc as [[nd u] [Eq' Hc]]. cbn in Eq'. subst u.
+              apply (Htq (lq k)). apply (g_chain _ _ (Lg _ (lq_lt k)) _ _ Hc).
+           ++ intros Hf. apply (Htq (lq k)). apply (g_infl _ _ (Lg _ (lq_lt k)) _ Hf).
         -- rewrite Eo by exact Ne. apply (lok_frame count x); [| | | |apply M4].
            ++ rewrite Em. constructor; reflexivity.
-           ++ constructor; unfold Qp, Cp, Fp; rewrite ?Gp, ?Gc, ?Gi; try tauto.
-              rewrite in_app_iff. cbn. split; [intros [H|[H|[]]]; [exact H|congruence]|auto].
-           ++ intros _. rewrite Em. cbn. auto.
+           ++ constructor; intros q0; unfold Qp, Cp, Fp; rewrite ?Gp, ?Gc, ?Gi; try tauto.
+              destruct (Nat.eq_dec q0 (lq k)) as [->|Nq0]; [rewrite upd_same|rewrite upd_other by exact Nq0; tauto].
+              rewrite in_app_iff. cbn. split; [intros [Hx|[Hx|[]]]; [exact Hx|congruence]|auto].
+           ++ intros _. cbv zeta. rewrite Em, Gi. cbn. auto 6.
            ++ intros _. rewrite Em. auto.
 Qed.
 
 (* a woken waiter returns from fiber_barrier_wait *)
 Lemma step_wreturn x t n k :
-  G count x -> stk (base x) t = [YNext ST_RUNNING; FC (BRet n k 0)] -> (n = O \/ noser x) ->
-  G count (lstep x t).
+  G count x -> stk (base x) t = [YNext ST_RUNNING; FC (BRet n k 0)] -> G count (lstep x t).
 Proof.
-  intros Gx E Hreg. inv_local Gx t E L.
+  intros Gx E. inv_local Gx t E L.
   match goal with H : _ \/ _ |- _ => destruct H as [[Hd _]|[_ P]]; [discriminate|] end.
   destruct P as (Pf & Pq & (Pp & Pb) & Pn).
   destruct Gx as [A Lg N M].
   set (m := mem (base x)) in *.
-  pose proof (g_cnt _ _ M) as Ec.
-  assert (K : kstep bc (cret (cnt (base x))) m t (stk (base x) t)
+  pose proof (g_cnt _ _ M) as Ec. pose proof (g_two _ _ M) as Etw.
+  assert (K : kstep bc (cret (two (base x)) (cnt (base x))) m t (stk (base x) t)
               = (m, ev t 900 99 0 ++ retev t k 0 ++ fst (start t n (S k)), start_stack t n (S k))).
   { rewrite E, Ec. cbn [kstep]. cbn [Z.eqb orb ST_RUNNING ST_WAITING ST_DONE ST_SAVING Pos.eqb]. rewrite ret_bret. reflexivity. }
   destruct (lstep_view x t _ _ _ K) as (Em & Es & Eo & Ecn & Enn).
@@ -1872,19 +2124,20 @@ Proof.
   { rewrite lstep_rets. rewrite <- lstep_erase. rewrite Eb0, Es. destruct n; reflexivity. }
   assert (Ga : arr (lstep x t) = arr x).
   { rewrite lstep_arr. rewrite <- lstep_erase. rewrite Eb0. reflexivity. }
-  assert (Eno : nodes (lstep x t) = nodes x) by (unfold nodes; rewrite Em, Gc; reflexivity).
-  assert (Hobs : forall u, u <> t -> same_obs (stk (base x) u) (stk (base (lstep x t)) u)).
+  assert (Eno : forall q, nodes (lstep x t) q = nodes x q) by (intros q; unfold nodes; rewrite Em, Gc; reflexivity).
+  assert (Hobs : others_same x (lstep x t) t).
   { intros u Ne. rewrite Eo by exact Ne. apply same_obs_refl. }
   constructor.
-  - apply (GA_waiter_return count x _ t n k); auto; rewrite Em; reflexivity.
-  - apply (GL_frame x); auto; try (rewrite Em; reflexivity).
+  - apply (GA_waiter_return count Hcount x _ t n k); auto; rewrite Em; reflexivity.
+  - intros q Hq. apply (GL_frame x); auto; try (rewrite Em; reflexivity); try (rewrite ?Gc, ?Gi; reflexivity).
     + rewrite Gp. auto.
     + intros u _. destruct (Nat.eq_dec u t) as [->|Ne]; [rewrite Es, E; destruct n; cbn; tauto|].
       rewrite Eo by exact Ne. tauto.
   - apply (GN_frame x); auto; try (intros; rewrite Em; reflexivity).
     intros u. destruct (Nat.eq_dec u t) as [->|Ne]; [rewrite Es, E; destruct n; reflexivity|]. rewrite Eo by exact Ne. reflexivity.
-  - destruct M as [M1 M2 M3 M4]. constructor.
+  - destruct M as [M1 M0 M2 M3 M4]. constructor.
     + rewrite Ecn. exact M1.
+    + rewrite lstep_erase, step_two. exact M0.
     + rewrite Em. exact M2.
     + intros u. rewrite Em. apply M3.
     + intros u. destruct (Nat.eq_dec u t) as [->|Ne].
@@ -1892,7 +2145,7 @@ Proof.
       * rewrite Eo by exact Ne. apply (lok_frame count x); [| | | |apply M4].
         -- rewrite Em. constructor; reflexivity.
         -- apply same_ghost_refl; assumption.
-        -- intros _. rewrite Em. auto 6.
+        -- intros _. cbv zeta. rewrite Em, Gi. auto 6.
         -- intros _. rewrite Em. auto.
 Qed.
 
@@ -1900,37 +2153,40 @@ Qed.
 Lemma serial_return_nowake x t n k e :
   G count x -> bot (stk (base x) t) = Some (BRet n k 1) -> ~ linking (stk (base x) t) ->
   held (stk (base x) t) = O -> ghost_neutral (stk (base x) t) ->
-  serl x t -> infl x = None -> ~ (wcof (stk (base x) t) < count - 1) ->
-  kstep bc (cret count) (mem (base x)) t (stk (base x) t) = (mem (base x), e, start_stack t n (S k)) ->
+  serl x t -> infl x (lq k) = None -> ~ (wcof (stk (base x) t) < count - 1) ->
+  kstep bc (cret true count) (mem (base x)) t (stk (base x) t) = (mem (base x), e, start_stack t n (S k)) ->
   G count (lstep x t).
 Proof.
   intros Gx Eb0 Nl Hh Gn (Sq & (Sp & Sb) & Sn & Sf) Hin Hwc K0.
   destruct Gx as [A Lg N M].
   set (m := mem (base x)) in *.
-  pose proof (g_cnt _ _ M) as Ec.
-  assert (K : kstep bc (cret (cnt (base x))) m t (stk (base x) t) = (m, e, start_stack t n (S k))) by (rewrite Ec; exact K0).
+  pose proof (g_cnt _ _ M) as Ec. pose proof (g_two _ _ M) as Etw.
+  assert (K : kstep bc (cret (two (base x)) (cnt (base x))) m t (stk (base x) t) = (m, e, start_stack t n (S k))) by (rewrite Ec, Etw; exact K0).
   destruct (lstep_view x t _ _ _ K) as (Em & Es & Eo & Ecn & Enn).
   destruct (ghost_neutral_eq x t Gn) as (Gc & Gi & Gp).
   assert (Gr : rets (lstep x t) = rets x ++ [(t, k, 1)]).
   { rewrite lstep_rets. rewrite <- lstep_erase. rewrite Eb0, Es. destruct n; reflexivity. }
   assert (Ga : arr (lstep x t) = arr x).
   { rewrite lstep_arr. rewrite <- lstep_erase. rewrite Eb0. reflexivity. }
-  assert (Eno : nodes (lstep x t) = nodes x) by (unfold nodes; rewrite Em, Gc; reflexivity).
-  assert (Hobs : forall u, u <> t -> same_obs (stk (base x) u) (stk (base (lstep x t)) u)).
+  assert (Eno : forall q, nodes (lstep x t) q = nodes x q) by (intros q; unfold nodes; rewrite Em, Gc; reflexivity).
+  assert (Hobs : others_same x (lstep x t) t).
   { intros u Ne. rewrite Eo by exact Ne. apply same_obs_refl. }
   assert (St : is_ser (stk (base x) t)) by (do 2 eexists; exact Eb0).
-  assert (Hpw : pw x = []).
-  { destruct (g_serw _ _ A t St) as (_ & _ & B3 & B4 & B5). destruct (pw x); [reflexivity|]. cbn in B3. lia. }
+  assert (Rt : rnd (stk (base x) t) = k) by (unfold rnd; rewrite Eb0; reflexivity).
+  assert (Hpw : pw x (lq k) = []).
+  { destruct (g_serw _ _ A t St) as (_ & _ & B3 & B4 & B5 & _). cbv zeta in B3. rewrite Rt in B3.
+    destruct (pw x (lq k)); [reflexivity|]. cbn in B3. lia. }
   constructor.
-  - apply (GA_serial_return count Hcount x _ t n k); auto; try (rewrite Em; reflexivity); congruence.
-  - apply (GL_frame x); auto; try (rewrite Em; reflexivity).
+  - apply (GA_serial_return count Hcount x _ t n k); auto; try (rewrite Em; reflexivity); try (rewrite ?Gp, ?Gi; auto).
+  - intros q Hq. apply (GL_frame x); auto; try (rewrite Em; reflexivity); try (rewrite ?Gc, ?Gi; reflexivity).
     + rewrite Gp. auto.
     + intros u _. destruct (Nat.eq_dec u t) as [->|Ne]; [rewrite Es; destruct n; cbn; tauto|].
       rewrite Eo by exact Ne. tauto.
   - apply (GN_frame x); auto; try (intros; rewrite Em; reflexivity).
     intros u. destruct (Nat.eq_dec u t) as [->|Ne]; [rewrite Es, Hh; destruct n; reflexivity|]. rewrite Eo by exact Ne. reflexivity.
-  - destruct M as [M1 M2 M3 M4]. constructor.
+  - destruct M as [M1 M0 M2 M3 M4]. constructor.
     + rewrite Ecn. exact M1.
+    + rewrite lstep_erase, step_two. exact M0.
     + rewrite Em. exact M2.
     + intros u. rewrite Em. apply M3.
     + intros u. destruct (Nat.eq_dec u t) as [->|Ne].
@@ -1938,18 +2194,18 @@ Proof.
       * rewrite Eo by exact Ne. apply (lok_frame count x); [| | | |apply M4].
         -- rewrite Em. constructor; reflexivity.
         -- apply same_ghost_refl; assumption.
-        -- intros _. rewrite Em. auto 6.
+        -- intros _. cbv zeta. rewrite Em, Gi. auto 6.
         -- intros _. rewrite Em. auto.
 Qed.
 
 Lemma in_remove_iff (l : list nat) f u : u <> f -> (In u (remove Nat.eq_dec f l) <-> In u l).
 Proof. intros N. split; [intros H; apply in_remove in H; tauto|intros H; apply in_in_remove; auto]. Qed.
 
-Lemma presleep_woken x x' f :
-  presleep x f -> Qp x f -> fnode (mem (base x)) f <> O ->
+Lemma presleep_woken x x' q f :
+  presleep x q f -> Qp x q f -> fnode (mem (base x)) f <> O ->
   ((fstate (mem (base x)) f <> ST_WAITING /\ mem (base x') = wake (mem (base x)) f) \/
    (fstate (mem (base x)) f = ST_WAITING /\ mem (base x') = wake (set_fstate (mem (base x)) f ST_READY) f)) ->
-  ~ Qp x' f -> presleep x' f.
+  ~ Qp x' q f -> presleep x' q f.
 Proof.
   intros (P1 & P2 & [(P3 & P4 & P5)|(P3 & _)]) Hq Hn Hm Hq'; [|contradiction].
   destruct Hm as [[Hm1 Hm2]|[Hm1 _]]; [|rewrite P1 in Hm1; discriminate].
@@ -1958,18 +2214,19 @@ Proof.
 Qed.
 
 (* the scheduled fiber: in flight -> woken *)
-Lemma lok_woken x x' f sg :
-  lok count x f sg -> Qp x f -> Fp x f -> is_wait sg -> fnode (mem (base x)) f <> O ->
+Lemma lok_woken x x' f sg q :
+  lok count x f sg -> Qp x q f -> Fp x q f -> is_wait sg -> lq (rnd sg) = q -> fnode (mem (base x)) f <> O ->
   ((fstate (mem (base x)) f <> ST_WAITING /\ mem (base x') = wake (mem (base x)) f) \/
    (fstate (mem (base x)) f = ST_WAITING /\ mem (base x') = wake (set_fstate (mem (base x)) f ST_READY) f)) ->
-  ~ Qp x' f -> lok count x' f sg.
+  ~ Qp x' q f -> lok count x' f sg.
 Proof.
-  intros L Hq Hf Hw Hn Hm Hq'.
-  pose proof (fun P => presleep_woken x x' f P Hq Hn Hm Hq') as PW.
+  intros L Hq Hf Hw Hrq Hn Hm Hq'.
+  pose proof (fun P => presleep_woken x x' q f P Hq Hn Hm Hq') as PW.
   destruct L; try (destruct Hw as (n' & k' & Hw); discriminate);
+    unfold rnd in Hrq; cbn in Hrq; subst q;
     repeat match goal with
-           | H : unq _ _ |- _ => destruct H as (_ & _ & Hnf & _); contradiction
-           | H : serl _ _ |- _ => destruct H as (Hnq & _); contradiction
+           | H : unq _ _ _ |- _ => destruct H as (_ & _ & Hnf & _); contradiction
+           | H : serl _ _ |- _ => destruct H as (Hnq & _); exfalso; exact (Hnq _ Hq)
            end; try contradiction.
   - constructor. destruct H as [H|H]; [left; auto|destruct H as (_ & H & _); contradiction].
   - constructor. destruct H as [[Hst H]|[_ H]]; [left; auto|destruct H as (_ & H & _); contradiction].
@@ -1983,33 +2240,32 @@ Proof.
     cbn [fstate blocked pend fnode set_blocked set_fstate]. rewrite !upd_same. auto 6.
 Qed.
 
-Lemma wake_same_at m f u : u <> f -> same_at m (wake m f) u.
-Proof.
-  intros N. unfold wake. destruct (blocked m f); constructor; cbn; try reflexivity; apply upd_other; exact N.
-Qed.
-
 (* the serial fiber schedules the fiber whose entry it consumed *)
 Lemma ksched_step x t f wc n k fr m0 e :
   G count x -> stk (base x) t = [fr; FC (BRet n k 1)] ->
-  serl x t -> infl x = Some f -> fnode (mem (base x)) f <> O ->
+  serl x t -> infl x (lq k) = Some f -> fnode (mem (base x)) f <> O ->
   wcof [fr; FC (BRet n k 1)] = wc -> held [fr; FC (BRet n k 1)] = O -> ~ linking [fr; FC (BRet n k 1)] ->
   ((fstate (mem (base x)) f <> ST_WAITING /\ m0 = mem (base x)) \/
    (fstate (mem (base x)) f = ST_WAITING /\ m0 = set_fstate (mem (base x)) f ST_READY)) ->
-  kstep bc (cret count) (mem (base x)) t [fr; FC (BRet n k 1)]
-    = ksched bc (cret count) m0 t 0 (count - 1) wc f e [FC (BRet n k 1)] ->
-  chain (lstep x t) = chain x -> infl (lstep x t) = None -> pw (lstep x t) = remove Nat.eq_dec f (pw x) ->
+  kstep bc (cret true count) (mem (base x)) t [fr; FC (BRet n k 1)]
+    = ksched bc (cret true count) m0 t (lq k) (count - 1) wc f e [FC (BRet n k 1)] ->
+  chain (lstep x t) = chain x -> infl (lstep x t) = upd (infl x) (lq k) None ->
+  pw (lstep x t) = upd (pw x) (lq k) (remove Nat.eq_dec f (pw x (lq k))) ->
   G count (lstep x t).
 Proof.
   intros Gx E Hser Hi Hfn Hwc Hh Hl Hm0 K0 Gc Gi Gp.
   pose proof Hser as (Sq & (Sp & Sb) & Sn & Sf).
-  destruct (g_infl _ (g_l _ _ Gx) _ Hi) as [Fq Fnc].
-  destruct (g_pw _ _ (g_a _ _ Gx) _ Fq) as (Flt & Fw & _).
-  assert (Ntf : t <> f) by (intros ->; exact (Sq Fq)).
+  destruct (infl_own count x _ _ Gx (lq_lt k) Hi) as (Fq & Fnc & Fw & Frq).
+  assert (Ntf : t <> f) by (intros ->; exact (Sq _ Fq)).
   assert (Eb0 : bot (stk (base x) t) = Some (BRet n k 1)) by (rewrite E; reflexivity).
   assert (St : is_ser (stk (base x) t)) by (do 2 eexists; exact Eb0).
+  assert (Rt : rnd (stk (base x) t) = k) by (unfold rnd; rewrite Eb0; reflexivity).
+  assert (Hs1 : forall u, is_ser (stk (base x) u) -> u = t).
+  { intros u Hu. apply (g_ser1 _ _ (g_a _ _ Gx)); assumption. }
   destruct Gx as [A Lg N M].
+  set (q := lq k) in *. assert (Hq2 : (q < 2)%nat) by apply lq_lt.
   set (m := mem (base x)) in *.
-  pose proof (g_cnt _ _ M) as Ec.
+  pose proof (g_cnt _ _ M) as Ec. pose proof (g_two _ _ M) as Etw.
   rewrite ksched_cases in K0.
   set (m1 := wake m0 f) in *.
   assert (Wf : fstate m1 = (if fstate m f =? ST_WAITING then upd (fstate m) f ST_READY else fstate m) /\
@@ -2025,85 +2281,95 @@ Proof.
   { intros u Ne. rewrite W1. destruct (fstate m f =? ST_WAITING); [apply upd_other; exact Ne|reflexivity]. }
   assert (Hmm : (fstate m f <> ST_WAITING /\ m1 = wake m f) \/ (fstate m f = ST_WAITING /\ m1 = wake (set_fstate m f ST_READY) f)).
   { unfold m1. destruct Hm0 as [[H1 ->]|[H1 ->]]; auto. }
-  assert (Hlok : forall x', mem (base x') = m1 -> pw x' = remove Nat.eq_dec f (pw x) -> chain x' = chain x ->
-                 infl x' = None -> forall u, u <> t -> lok count x u (stk (base x) u) -> lok count x' u (stk (base x) u)).
+  assert (Hlok : forall x', mem (base x') = m1 -> pw x' = upd (pw x) q (remove Nat.eq_dec f (pw x q)) -> chain x' = chain x ->
+                 infl x' = upd (infl x) q None -> forall u, u <> t -> lok count x u (stk (base x) u) -> lok count x' u (stk (base x) u)).
   { intros x' Em' Ep' Ec' Ei' u Ne Lu. destruct (Nat.eq_dec u f) as [->|Nf].
-    - apply (lok_woken x); auto.
+    - apply (lok_woken x _ f _ q); auto.
       + destruct Hmm as [[H1 H2]|[H1 H2]]; [left|right]; split; auto; rewrite Em'; exact H2.
-      + unfold Qp. rewrite Ep'. apply remove_In.
+      + unfold Qp. rewrite Ep', upd_same. apply remove_In.
     - apply (lok_frame count x); [| | | |exact Lu].
       + rewrite Em'. constructor; [apply W1'; exact Nf|apply W12; exact Nf|apply W12; exact Nf|rewrite W7; reflexivity].
-      + constructor; unfold Qp, Cp, Fp; rewrite ?Ep', ?Ec', ?Ei', ?Hi; try tauto.
-        * apply in_remove_iff. exact Nf.
-        * split; [discriminate|intros H; injection H as ->; congruence].
-      + intros Hs. exfalso. apply Ne. apply (g_ser1 _ _ A); assumption.
+      + constructor; intros q0; unfold Qp, Cp, Fp; rewrite ?Ep', ?Ec', ?Ei'; try tauto.
+        * destruct (Nat.eq_dec q0 q) as [->|Nq0]; [rewrite upd_same|rewrite upd_other by exact Nq0; tauto].
+          apply in_remove_iff. exact Nf.
+        * destruct (Nat.eq_dec q0 q) as [->|Nq0]; [rewrite upd_same, Hi|rewrite upd_other by exact Nq0; tauto].
+          split; [discriminate|intros H; injection H as ->; congruence].
+      + intros Hs. exfalso. apply Ne. apply Hs1. exact Hs.
       + intros _. rewrite Em', W2, W3. auto. }
+  assert (Hgl : forall x', mem (base x') = m1 -> pw x' = upd (pw x) q (remove Nat.eq_dec f (pw x q)) -> chain x' = chain x ->
+                infl x' = upd (infl x) q None -> (forall u, u <> t -> stk (base x') u = stk (base x) u) ->
+                forall q', (q' < 2)%nat -> GL x' q').
+  { intros x' Em' Ep' Ec' Ei' Eo' q' Hq'. destruct (Lg q' Hq') as [L1 L2 L3 L4 L5 L6 L7].
+    assert (Eno : nodes x' q' = nodes x q') by (unfold nodes; rewrite Em', W5, Ec'; reflexivity).
+    constructor; rewrite ?Eno, ?Ec', ?Em', ?W5, ?W6; auto.
+    - apply (linked_frame m _ (stk (base x))); [rewrite W3; reflexivity| |exact L4].
+      intros u Hu. rewrite Eo'; [tauto|]. intros ->. apply (Sq q').
+      apply in_map_iff in Hu. destruct Hu as [[nd' u'] [Eq Hu]]. cbn in Eq. subst u'. apply (L5 nd' t Hu).
+    - intros nd' u Hu. rewrite W2. destruct (L5 _ _ Hu) as [B1 B2]. split; [exact B1|]. rewrite Ep'.
+      destruct (Nat.eq_dec q' q) as [->|Nq]; [rewrite upd_same|rewrite upd_other by exact Nq; exact B2].
+      apply in_in_remove; [|exact B2]. intros ->. apply Fnc. apply in_map_iff. exists (nd', f). auto.
+    - intros f' Hf'. rewrite Ei' in Hf'. destruct (Nat.eq_dec q' q) as [->|Nq]; [rewrite upd_same in Hf'; discriminate|].
+      rewrite upd_other in Hf' by exact Nq. rewrite Ep', upd_other by exact Nq. apply L7. exact Hf'. }
   destruct (wc + 1 <? count - 1) eqn:Hlt.
   - (* more waiters to collect *)
     apply Z.ltb_lt in Hlt.
-    assert (K : kstep bc (cret (cnt (base x))) m t (stk (base x) t)
-                = (m1, e ++ ev t 901 919 (Zn f), [KHead 0 (count - 1) (wc + 1); FC (BRet n k 1)])) by (rewrite Ec, E; exact K0).
+    assert (K : kstep bc (cret (two (base x)) (cnt (base x))) m t (stk (base x) t)
+                = (m1, e ++ ev t 901 919 (Zn f), [KHead q (count - 1) (wc + 1); FC (BRet n k 1)])) by (rewrite Ec, Etw, E; exact K0).
     destruct (lstep_view x t _ _ _ K) as (Em & Es & Eo & Ecn & Enn).
     assert (Gr : rets (lstep x t) = rets x).
     { rewrite lstep_rets. rewrite <- lstep_erase. rewrite Eb0, Es. reflexivity. }
     assert (Ga : arr (lstep x t) = arr x).
     { rewrite lstep_arr. rewrite <- lstep_erase. rewrite Eb0. reflexivity. }
-    assert (Eno : nodes (lstep x t) = nodes x) by (unfold nodes; rewrite Em, W5, Gc; reflexivity).
-    assert (Hobs : forall u, u <> t -> same_obs (stk (base x) u) (stk (base (lstep x t)) u)).
+    assert (Eno : forall q0, nodes (lstep x t) q0 = nodes x q0) by (intros q0; unfold nodes; rewrite Em, W5, Gc; reflexivity).
+    assert (Hobs : others_same x (lstep x t) t).
     { intros u Ne. rewrite Eo by exact Ne. apply same_obs_refl. }
     constructor.
-    + apply (GA_wake_continue count Hcount x _ t f wc); auto; try (rewrite Es; try reflexivity);
-        try (rewrite E; assumption); try (rewrite Em, W4; reflexivity).
-      * do 2 eexists; reflexivity.
-      * rewrite E. reflexivity.
-    + destruct Lg as [L1 L2 L3 L4 L5 L6 L7]. constructor; rewrite ?Eno, ?Gc, ?Gi, ?Em, ?W5, ?W6; auto.
-      * apply (linked_frame m _ (stk (base x))); [rewrite W3; reflexivity| |exact L4].
-        intros u Hu. rewrite Eo; [tauto|]. intros ->. apply Sq.
-        apply in_map_iff in Hu. destruct Hu as [[nd' u'] [Eq Hu]]. cbn in Eq. subst u'. apply (L5 nd' t Hu).
-      * intros nd' u Hu. rewrite W2. destruct (L5 _ _ Hu) as [B1 B2]. split; [exact B1|]. rewrite Gp.
-        apply in_in_remove; [|exact B2]. intros ->. apply Fnc. apply in_map_iff. exists (nd', f). auto.
-      * intros f' Hf'. discriminate.
+    + apply (GA_wake_continue count Hcount x _ t f wc); auto; rewrite ?Rt; fold q; auto;
+        try (rewrite Es; try reflexivity); try (rewrite E; assumption); try (rewrite Em, W4; reflexivity).
+      do 2 eexists; reflexivity.
+    + apply Hgl; auto.
     + apply (GN_frame x); auto; try (intros; rewrite Em, W7; reflexivity).
       intros u. destruct (Nat.eq_dec u t) as [->|Ne]; [rewrite Es, E, Hh; reflexivity|]. rewrite Eo by exact Ne. reflexivity.
-    + destruct M as [M1 M2 M3 M4]. constructor.
+    + destruct M as [M1 M0 M2 M3 M4]. constructor.
       * rewrite Ecn. exact M1.
+      * rewrite lstep_erase, step_two. exact M0.
       * rewrite Em. eapply slots_none_same; eauto.
       * intros u. rewrite Em, W8. apply M3.
       * intros u. destruct (Nat.eq_dec u t) as [->|Ne].
-        -- rewrite Es. constructor; [|exact Gi]. unfold serl, Qp, quiet. rewrite Gp, Em, W7.
+        -- rewrite Es. constructor; [|rewrite Gi; apply upd_same]. unfold serl, Qp, quiet. rewrite Gp, Em, W7.
            destruct (W12 t Ntf) as [-> ->]. rewrite (W1' t Ntf).
-           split; [intros H; apply in_remove in H; tauto|auto].
+           split; [|auto]. intros q0. destruct (Nat.eq_dec q0 q) as [->|Nq0]; [rewrite upd_same|rewrite upd_other by exact Nq0; apply Sq].
+           intros H. apply in_remove in H. destruct H as [H _]. exact (Sq q H).
         -- rewrite Eo by exact Ne. apply Hlok; auto.
   - (* the last waiter: the serial fiber returns *)
     apply Z.ltb_ge in Hlt.
-    assert (K : kstep bc (cret (cnt (base x))) m t (stk (base x) t)
+    assert (K : kstep bc (cret (two (base x)) (cnt (base x))) m t (stk (base x) t)
                 = (m1, (e ++ ev t 901 919 (Zn f)) ++ retev t k 1 ++ fst (start t n (S k)), start_stack t n (S k)))
-      by (rewrite Ec, E; exact K0).
+      by (rewrite Ec, Etw, E; exact K0).
     destruct (lstep_view x t _ _ _ K) as (Em & Es & Eo & Ecn & Enn).
     assert (Gr : rets (lstep x t) = rets x ++ [(t, k, 1)]).
     { rewrite lstep_rets. rewrite <- lstep_erase. rewrite Eb0, Es. destruct n; reflexivity. }
     assert (Ga : arr (lstep x t) = arr x).
     { rewrite lstep_arr. rewrite <- lstep_erase. rewrite Eb0. reflexivity. }
-    assert (Eno : nodes (lstep x t) = nodes x) by (unfold nodes; rewrite Em, W5, Gc; reflexivity).
-    assert (Hobs : forall u, u <> t -> same_obs (stk (base x) u) (stk (base (lstep x t)) u)).
+    assert (Hobs : others_same x (lstep x t) t).
     { intros u Ne. rewrite Eo by exact Ne. apply same_obs_refl. }
-    assert (Hpw : pw (lstep x t) = []).
-    { destruct (g_serw _ _ A t St) as (_ & _ & B3 & B4 & B5). rewrite E, Hwc in B3, B4, B5.
-      pose proof (remove_length _ f (g_pw_nodup _ _ A) Fq) as Hl'. rewrite Gp.
-      destruct (remove Nat.eq_dec f (pw x)); [reflexivity|]. cbn in Hl'. lia. }
+    assert (Hpw : pw (lstep x t) q = []).
+    { destruct (g_serw _ _ A t St) as (_ & _ & B3 & B4 & B5 & _). cbv zeta in B3. rewrite Rt in B3. fold q in B3.
+      rewrite E, Hwc in B3, B4, B5.
+      pose proof (remove_length _ f (g_pw_nodup _ _ A q) Fq) as Hl'. rewrite Gp, upd_same.
+      destruct (remove Nat.eq_dec f (pw x q)); [reflexivity|]. cbn in Hl'. lia. }
     constructor.
-    + apply (GA_serial_return count Hcount x _ t n k); auto; rewrite Em, W4; reflexivity.
-    + destruct Lg as [L1 L2 L3 L4 L5 L6 L7]. constructor; rewrite ?Eno, ?Gc, ?Gi, ?Em, ?W5, ?W6; auto.
-      * apply (linked_frame m _ (stk (base x))); [rewrite W3; reflexivity| |exact L4].
-        intros u Hu. rewrite Eo; [tauto|]. intros ->. apply Sq.
-        apply in_map_iff in Hu. destruct Hu as [[nd' u'] [Eq Hu]]. cbn in Eq. subst u'. apply (L5 nd' t Hu).
-      * intros nd' u Hu. rewrite W2. destruct (L5 _ _ Hu) as [B1 B2]. split; [exact B1|]. rewrite Gp.
-        apply in_in_remove; [|exact B2]. intros ->. apply Fnc. apply in_map_iff. exists (nd', f). auto.
-      * intros f' Hf'. discriminate.
+    + apply (GA_serial_return count Hcount x _ t n k); auto; fold q; auto; try (rewrite Em, W4; reflexivity).
+      * intros q0 Nq0. rewrite Gp, upd_other by exact Nq0. reflexivity.
+      * rewrite Gi. apply upd_same.
+      * intros q0 Nq0. rewrite Gi, upd_other by exact Nq0. reflexivity.
+    + apply Hgl; auto.
     + apply (GN_frame x); auto; try (intros; rewrite Em, W7; reflexivity).
-      intros u. destruct (Nat.eq_dec u t) as [->|Ne]; [rewrite Es, E, Hh; destruct n; reflexivity|]. rewrite Eo by exact Ne. reflexivity.
-    + destruct M as [M1 M2 M3 M4]. constructor.
+      * intros u. destruct (Nat.eq_dec u t) as [->|Ne]; [rewrite Es, E, Hh; destruct n; reflexivity|]. rewrite Eo by exact Ne. reflexivity.
+      * intros q0 _. unfold nodes. rewrite Em, W5, Gc. reflexivity.
+    + destruct M as [M1 M0 M2 M3 M4]. constructor.
       * rewrite Ecn. exact M1.
+      * rewrite lstep_erase, step_two. exact M0.
       * rewrite Em. eapply slots_none_same; eauto.
       * intros u. rewrite Em, W8. apply M3.
       * intros u. destruct (Nat.eq_dec u t) as [->|Ne].
@@ -2117,37 +2383,10 @@ Section Main.
 Variable count : Z.
 Hypothesis Hcount : 1 <= count.
 
-(* the regime: one round per fiber, or count <= 2 *)
-Definition regime (x : ist) : Prop := count <= 2 \/ SR x.
-
-Lemma regime_noser x t n k :
-  G count x -> regime x -> (t < nthr (base x))%nat ->
-  bot (stk (base x) t) = Some (BRet n k 0) -> ~ In t (pw x) -> n = O \/ noser x.
-Proof.
-  intros Gx [Hc|S] Ht Hb Hq.
-  - right. intros S HS.
-    pose proof (g_a _ _ Gx) as A.
-    destruct (g_serw _ _ A S HS) as (B1 & B2 & B3 & B4 & B5).
-    pose proof (g_nthr _ _ A) as Hn.
-    assert (NSt : S <> t).
-    { intros ->. destruct HS as (n' & k' & HS). rewrite Hb in HS. discriminate. }
-    destruct (Z.eq_dec count 1) as [C1|C1].
-    + rewrite C1 in Hn. change (Z.to_nat 1) with 1%nat in Hn. lia.
-    + assert (C2 : count = 2) by lia. rewrite C2 in Hn. change (Z.to_nat 2) with 2%nat in Hn.
-      destruct (pw x) as [|p l] eqn:Ep; [cbn in B3; lia|].
-      assert (Hp : In p (pw x)) by (rewrite Ep; left; reflexivity).
-      destruct (g_pw _ _ A p Hp) as (P1 & P2 & _).
-      assert (p <> S).
-      { intros ->. destruct HS as (n1 & k1 & H1). destruct P2 as (n2 & k2 & H2). congruence. }
-      assert (p <> t) by (intros Hpt; apply Hq; rewrite <- Hpt; left; reflexivity).
-      lia.
-  - left. pose proof (sr_bot _ S t _ Hb) as [H _]. exact H.
-Qed.
-
 Theorem g_step x t :
-  L1 count x -> G count x -> regime x -> status_of (base x) t = SReady -> G count (lstep x t).
+  L1 count x -> G count x -> status_of (base x) t = SReady -> G count (lstep x t).
 Proof.
-  intros Lx Gx Hreg Hst.
+  intros Lx Gx Hst.
   pose proof (ready_lt _ _ Hst) as Htn.
   pose proof (g_local _ _ (g_m _ _ Gx) t) as L.
   remember (stk (base x) t) as sg eqn:E. symmetry in E.
@@ -2163,9 +2402,7 @@ Proof.
   - eapply step_wyread; eauto.
   - (* YNext *) destruct H as [[-> _]|[-> P]].
     + eapply step_wynext_switch; eauto.
-    + eapply step_wreturn; eauto. apply (regime_noser x t n k); auto.
-      * rewrite E. reflexivity.
-      * apply P.
+    + eapply step_wreturn; eauto.
   - eapply step_wswread; eauto.
   - eapply step_wswdone; eauto.
   - eapply step_wmread; eauto.
@@ -2180,7 +2417,8 @@ Proof.
       * (* count = 1: nothing to collect *)
         apply Z.ltb_ge in Hc.
         assert (St : is_ser (stk (base x) t)) by (rewrite E; do 2 eexists; reflexivity).
-        destruct (g_serw _ _ (g_a _ _ Gx) t St) as (_ & _ & B3 & B4 & B5). rewrite E in B3, B4, B5. cbn [wcof] in B3, B4, B5.
+        destruct (g_serw _ _ (g_a _ _ Gx) t St) as (_ & _ & B3 & B4 & B5 & _). cbv zeta in B3.
+        rewrite E in B3, B4, B5. cbn [wcof] in B3, B4, B5.
         eapply (serial_return_nowake count Hcount x t n k);
           [exact Gx|rewrite E; reflexivity|rewrite E; cbn; tauto|rewrite E; reflexivity|rewrite E; exact I
           |assumption|assumption|rewrite E; cbn [wcof]; lia|rewrite E].
@@ -2218,12 +2456,12 @@ Proof.
       rewrite ret_kspin. assert (Hw : (wc <? count - 1) = false) by (apply Z.ltb_ge; lia). rewrite Hw. reflexivity.
 Qed.
 
-Lemma G_init rounds : length rounds = Z.to_nat count -> G count (iinit count rounds).
+Lemma G_init rounds : length rounds = Z.to_nat count -> G count (iinit true count rounds).
 Proof.
   intros Hl.
-  assert (Nser : forall u, ~ is_ser (stk (base (iinit count rounds)) u)).
+  assert (Nser : forall u, ~ is_ser (stk (base (iinit true count rounds)) u)).
   { intros u (n & k & H). cbn in H. discriminate. }
-  assert (Nwait : forall u, ~ is_wait (stk (base (iinit count rounds)) u)).
+  assert (Nwait : forall u, ~ is_wait (stk (base (iinit true count rounds)) u)).
   { intros u (n & k & H). cbn in H. discriminate. }
   constructor.
   - constructor.
@@ -2231,40 +2469,37 @@ Proof.
     + cbn. lia.
     + intros S S' H. exfalso. exact (Nser S H).
     + intros S H. exfalso. exact (Nser S H).
-    + intros _. cbn [pw iinit length base mem init kinit word]. rewrite Z.mod_0_l by lia. reflexivity.
-    + constructor.
-    + intros u [].
-    + intros u k _ H. cbn in H. injection H as <-. split; [exact Nser|]. cbn [iinit base mem init kinit word]. rewrite Z.div_0_l by lia. reflexivity.
+    + intros _. unfold gen. cbn [pw iinit length base mem init kinit word]. rewrite Z.mod_0_l by lia. auto.
+    + intros q. constructor.
+    + intros q u [].
+    + intros u k _ H. cbn in H. injection H as <-. unfold gen. cbn [iinit base mem init kinit word]. rewrite Z.div_0_l by lia. reflexivity.
     + intros u H. exfalso. exact (Nwait u H).
     + intros t k r [].
     + intros i t k v H. destruct i; discriminate.
     + intros u H. exfalso. exact (Nwait u H).
-    + intros _. reflexivity.
-  - constructor; cbn; auto.
+  - intros q Hq. constructor; cbn; auto.
     + constructor; [intros []|constructor].
     + intros nd [<-|[]]. discriminate.
     + intros nd u [].
     + constructor.
     + intros f H. discriminate.
   - constructor; cbn.
+    + intros q q' nd Hq Hq' [H|[]] [H'|[]]. lia.
     + intros u u' _ H. lia.
     + intros u u' H. congruence.
     + intros u u' H. exact H.
-    + intros u _ [H|[]]. lia.
-    + intros u H. congruence.
+    + intros u q Hq _ [H|[]]. lia.
+    + intros u q _ H. congruence.
   - constructor; cbn; auto.
     + intros t. repeat split.
     + intros u. constructor; [split; reflexivity|cbn; lia].
 Qed.
 
 Theorem ireach_G rounds x :
-  length rounds = Z.to_nat count -> (count <= 2 \/ Forall (fun r => r = 1%nat) rounds) ->
-  ireach count rounds x -> G count x.
+  length rounds = Z.to_nat count -> ireach true count rounds x -> G count x.
 Proof.
-  intros Hl Hr R. induction R as [|x t R IH Hs]; [apply G_init; exact Hl|].
-  apply g_step; auto.
-  - eapply ireach_l1; eauto.
-  - destruct Hr as [Hc|F]; [left; exact Hc|right; eapply ireach_sr; eauto].
+  intros Hl R. induction R as [|x t R IH Hs]; [apply G_init; exact Hl|].
+  apply g_step; auto. eapply ireach_l1; eauto.
 Qed.
 End Main.
 
@@ -2331,11 +2566,14 @@ Proof.
   lia.
 Qed.
 
-(* ---- quiescence, one round per fiber ---- *)
+
+
+(* ---- quiescence: every fiber performs R rounds ---- *)
 Definition quiescent (x : ist) : Prop := forall t, status_of (base x) t <> SReady.
 
 Lemma quiescent_shapes x : G count x -> quiescent x ->
-  forall u, (u < nthr (base x))%nat -> stk (base x) u = [] \/ (is_wait (stk (base x) u) /\ In u (pw x)).
+  forall u, (u < nthr (base x))%nat ->
+    stk (base x) u = [] \/ (is_wait (stk (base x) u) /\ In u (pw x (lq (rnd (stk (base x) u))))).
 Proof.
   intros Gx Hq u Hu. pose proof (g_local _ _ (g_m _ _ Gx) u) as L. specialize (Hq u).
   unfold status_of in Hq. apply Nat.ltb_lt in Hu. rewrite Hu in Hq.
@@ -2346,22 +2584,33 @@ Proof.
   exfalso. apply Hq. cbn. rewrite Pb. reflexivity.
 Qed.
 
-(* finished fibers have returned (every fiber performs exactly one round) *)
-Record DR (x : ist) : Prop := {
-  dr_next : forall t n k, (t < nthr (base x))%nat -> bot (stk (base x) t) = Some (BNext n k) -> n = 1%nat;
-  dr_done : forall t, (t < nthr (base x))%nat -> bot (stk (base x) t) = None -> exists r, In (t, 1%nat, r) (rets x)
+Definition done_upto (x : ist) (t j : nat) : Prop := forall k, (1 <= k <= j)%nat -> returned x t k.
+
+(* bookkeeping: rounds still to do + current round = R; earlier rounds have returned *)
+Record DR (R : nat) (x : ist) : Prop := {
+  dr_bot : forall t, (t < nthr (base x))%nat ->
+           match bot (stk (base x) t) with
+           | Some (BNext m k) => m = R /\ k = 1%nat
+           | Some (BArrived m k) => (m + k = R)%nat /\ done_upto x t (k - 1)
+           | Some (BRet m k _) => (m + k = R)%nat /\ done_upto x t (k - 1)
+           | None => done_upto x t R
+           end;
+  dr_arr : forall t k v, In (t, k, v) (arr x) -> (t < nthr (base x))%nat
 }.
 
-Lemma dr_init rounds : Forall (fun r => r = 1%nat) rounds -> DR (iinit count rounds).
+Lemma dr_init tw R rounds : Forall (fun r => r = R) rounds -> DR R (iinit tw count rounds).
 Proof.
   intros F. constructor; cbn.
-  - intros t n k Ht E. injection E as <- <-. rewrite Forall_forall in F. apply F. apply nth_In. exact Ht.
-  - intros t _ E. discriminate.
+  - intros t Ht. split; [|reflexivity]. rewrite Forall_forall in F. apply F. apply nth_In. exact Ht.
+  - intros t k v [].
 Qed.
 
-Lemma dr_step x t : L1 count x -> SR x -> status_of (base x) t = SReady -> DR x -> DR (lstep x t).
+Lemma done_upto_mono x x' t j : (forall a, In a (rets x) -> In a (rets x')) -> done_upto x t j -> done_upto x' t j.
+Proof. intros H D k Hk. destruct (D k Hk) as [r Hr]. exists r. auto. Qed.
+
+Lemma dr_step R x t : L1 count x -> status_of (base x) t = SReady -> DR R x -> DR R (lstep x t).
 Proof.
-  intros L S Hs [D1 D2].
+  intros L Hs [D1 D2].
   pose proof (lstep_cases count x t (l1_cnt _ _ L) (l1_slots _ _ L) (l1_shape _ _ L t)) as K.
   cbv zeta in K. destruct K as (_ & _ & K).
   pose proof (ready_lt _ _ Hs) as Ht.
@@ -2371,88 +2620,119 @@ Proof.
   { intros a Ha. destruct K as [(_ & _ & _ & _ & E3)|[(n & k & _ & _ & _ & _ & _ & E3)|[(_ & _ & _ & _ & _ & E3)|
       [(n & _ & _ & _ & _ & _ & E3)|[(k & r & _ & _ & _ & E3 & _)|(n & k & r & _ & _ & _ & E3 & _)]]]]];
       rewrite E3; try apply in_app_iff; auto. }
+  pose proof (D1 t Ht) as Dt.
   constructor; rewrite lstep_nthr.
-  - intros u n k Hu E. destruct (Nat.eq_dec u t) as [->|N]; [|rewrite Eo in E by exact N; eauto].
-    destruct K as [(B & _)|[(n' & k' & _ & B' & _)|[(_ & B' & _)|[(n' & _ & B' & _)|[(k' & r & _ & B' & _)|(n' & k' & r & _ & B' & _)]]]]];
-      try (rewrite B' in E; discriminate). rewrite B in E. eauto.
-  - intros u Hu E. destruct (Nat.eq_dec u t) as [->|N].
-    + destruct K as [(B & _)|[(n' & k' & _ & B' & _)|[(B & _ & _)|[(n' & _ & B' & _)|[(k' & r & B & _ & _ & E3 & _)|(n' & k' & r & _ & B' & _)]]]]];
-        try (rewrite B' in E; discriminate).
-      * rewrite B in E. destruct (D2 t Hu E) as [r Hr']. exists r. auto.
-      * exfalso. pose proof (D1 t _ _ Hu B). discriminate.
-      * pose proof (sr_bot _ S t _ B) as [_ ->]. exists r. rewrite E3. apply in_app_iff. right. left. reflexivity.
-    + rewrite Eo in E by exact N. destruct (D2 u Hu E) as [r Hr']. exists r. auto.
+  - intros u Hu. destruct (Nat.eq_dec u t) as [->|N].
+    + destruct K as [(B & _)|[(n' & k' & B & B' & _)|[(B & B' & _)|[(n' & B & B' & _)|[(k' & r & B & B' & _ & E3 & _)|(n' & k' & r & B & B' & _ & E3 & _)]]]]].
+      * rewrite B. destruct (bot (stk (base x) t)) as [[m k|m k|m k r]|]; auto;
+          try (destruct Dt as [Dt1 Dt2]; split; [exact Dt1|eapply done_upto_mono; eauto]).
+        eapply done_upto_mono; eauto.
+      * rewrite B'. rewrite B in Dt. destruct Dt as [Dt1 Dt2]. split; [exact Dt1|eapply done_upto_mono; eauto].
+      * rewrite B'. rewrite B in Dt. destruct Dt as [<- _]. intros k Hk. lia.
+      * rewrite B'. rewrite B in Dt. destruct Dt as [<- _]. split; [lia|]. intros k Hk. cbn in Hk. lia.
+      * rewrite B'. rewrite B in Dt. destruct Dt as [Dt1 Dt2]. cbn in Dt1. subst R.
+        intros k Hk. destruct (Nat.eq_dec k k') as [->|Nk].
+        -- exists r. rewrite E3. apply in_app_iff. right. left. reflexivity.
+        -- destruct (Dt2 k ltac:(lia)) as [r' Hr']. exists r'. auto.
+      * rewrite B'. rewrite B in Dt. destruct Dt as [Dt1 Dt2]. split; [lia|].
+        intros k Hk. replace (S k' - 1)%nat with k' in Hk by lia. destruct (Nat.eq_dec k k') as [->|Nk].
+        -- exists r. rewrite E3. apply in_app_iff. right. left. reflexivity.
+        -- destruct (Dt2 k ltac:(lia)) as [r' Hr']. exists r'. auto.
+    + rewrite Eo by exact N. specialize (D1 u Hu).
+      destruct (bot (stk (base x) u)) as [[m k|m k|m k r]|]; auto;
+        try (destruct D1 as [Du1 Du2]; split; [exact Du1|eapply done_upto_mono; eauto]).
+      eapply done_upto_mono; eauto.
+  - intros t0 k0 v0 H.
+    destruct K as [(_ & _ & _ & E2 & _)|[(n & k & _ & _ & _ & E2 & _)|[(_ & _ & _ & _ & E2 & _)|
+      [(n & _ & _ & _ & _ & E2 & _)|[(k & r & _ & _ & _ & _ & _ & E2)|(n & k & r & _ & _ & _ & _ & _ & E2)]]]]];
+      rewrite E2 in H; eauto.
+    apply in_app_iff in H. destruct H as [H|[H|[]]]; [eauto|]. injection H as <- _ _. exact Ht.
 Qed.
 
-Lemma ireach_dr rounds x :
-  Forall (fun r => r = 1%nat) rounds -> ireach count rounds x -> DR x.
+Lemma ireach_dr tw R rounds x :
+  Forall (fun r => r = R) rounds -> ireach tw count rounds x -> DR R x.
 Proof.
-  intros F R. induction R as [|x t R IH Hs]; [apply dr_init; exact F|].
-  apply dr_step; auto; [eapply ireach_l1; eauto|eapply ireach_sr; eauto].
+  intros F Rr. induction Rr as [|x t Rr IH Hs]; [apply dr_init; exact F|].
+  apply dr_step; auto. eapply ireach_l1; eauto.
 Qed.
 
 Lemma stk_nil_bot (sg : stack bc) : sg = [] -> bot sg = None.
 Proof. intros ->. reflexivity. Qed.
 
-Theorem single_round_quiescent rounds x :
-  length rounds = Z.to_nat count -> Forall (fun r => r = 1%nat) rounds ->
-  ireach count rounds x -> quiescent x ->
-  (forall t, (t < length rounds)%nat -> returned x t 1) /\
-  (exists t, In (t, 1%nat, 1) (rets x)).
+(* at quiescence every fiber has returned from every round, and every round had its serial fiber *)
+Theorem all_return_quiescent R rounds x :
+  length rounds = Z.to_nat count -> Forall (fun r => r = R) rounds ->
+  ireach true count rounds x -> quiescent x ->
+  (forall t k, (t < length rounds)%nat -> (1 <= k <= R)%nat -> returned x t k) /\
+  (forall k, (1 <= k <= R)%nat -> exists t, In (t, k, 1) (rets x)).
 Proof.
-  intros Hl F R Hq.
-  pose proof (ireach_l1 _ _ _ R) as L. pose proof (ireach_sr _ _ _ F R) as S.
-  pose proof (ireach_dr _ _ F R) as D. pose proof (ireach_nthr _ _ _ R) as Nt.
+  intros Hl F Rr Hq.
+  pose proof (ireach_l1 _ _ _ _ Rr) as L. pose proof (ireach_dr _ _ _ _ F Rr) as D.
+  pose proof (ireach_nthr _ _ _ _ Rr) as Nt.
   assert (Gx : G count x) by (apply (ireach_G count Hcount rounds); auto).
   pose proof (g_a _ _ Gx) as A.
-  pose proof (quiescent_shapes x Gx Hq) as Sh. rewrite Nt in Sh.
+  pose proof (quiescent_shapes x Gx Hq) as Sh.
   assert (Ns : noser x).
-  { intros S0 HS. destruct (g_serw _ _ A S0 HS) as (B1 & _). rewrite Nt in B1.
+  { intros S0 HS. destruct (g_serw _ _ A S0 HS) as (B1 & _).
     destruct (Sh S0 B1) as [E|[(n & k & E) _]]; destruct HS as (n' & k' & HS); [rewrite E in HS; discriminate|congruence]. }
-  assert (Hpw : pw x = []).
-  { destruct (pw x) as [|p l] eqn:Ep; [reflexivity|exfalso].
-    assert (Hp : In p (pw x)) by (rewrite Ep; left; reflexivity).
-    destruct (g_pw _ _ A p Hp) as (P1 & (n & k & P2) & _ & P4).
-    pose proof (sr_bot _ S p _ P2) as [_ Hk]. specialize (P4 Ns). unfold rnd in P4. rewrite P2 in P4. cbn in P4. subst k.
-    assert (Hw : word (mem (base x)) 0%nat < count).
-    { pose proof (g_word _ _ A). assert (word (mem (base x)) 0%nat / count = 0) by lia.
-      apply Z.div_small_iff in H0; lia. }
-    assert (Hall : forall u, (u < length rounds)%nat -> In u (pw x)).
-    { intros u Hu. destruct (Sh u Hu) as [E|[_ Hi]]; [|rewrite Ep; exact Hi]. exfalso.
-      rewrite <- Nt in Hu. destruct (dr_done _ D u Hu (stk_nil_bot _ E)) as [r Hr].
-      pose proof (g_rets _ _ A _ _ _ Hr). lia. }
-    assert (Hlen : (length (seq 0 (length rounds)) <= length (pw x))%nat).
-    { apply NoDup_incl_length; [apply seq_NoDup|]. intros u Hu. apply in_seq in Hu. apply Hall. lia. }
-    rewrite seq_length in Hlen. pose proof (g_noser _ _ A Ns) as Hm.
-    rewrite Z.mod_small in Hm by (pose proof (g_word _ _ A); lia). lia. }
-  assert (Hdone : forall t, (t < length rounds)%nat -> stk (base x) t = []).
-  { intros t Ht. destruct (Sh t Ht) as [E|[_ Hi]]; [exact E|]. rewrite Hpw in Hi. destruct Hi. }
-  assert (Hret : forall t, (t < length rounds)%nat -> returned x t 1).
-  { intros t Ht. rewrite <- Nt in Ht. apply (dr_done _ D t Ht). apply stk_nil_bot. apply Hdone. rewrite <- Nt. exact Ht. }
+  destruct (g_noser _ _ A Ns) as (N1 & N2 & _).
+  set (g := Z.to_nat (gen count x)) in *.
+  assert (Hg0 : 0 <= gen count x) by (unfold gen; apply Z.div_pos; [apply A|lia]).
+  assert (Hdone : forall t, (t < nthr (base x))%nat -> stk (base x) t = []).
+  { destruct (pw x (lq (S g))) as [|p l] eqn:Ep.
+    - intros t Ht. destruct (Sh t Ht) as [E|[Hw Hi]]; [exact E|exfalso].
+      destruct (g_pw _ _ A _ t Hi) as (_ & _ & C3 & C4 & C5). specialize (C5 Ns).
+      assert (rnd (stk (base x) t) = S g) by (unfold g; lia). rewrite H, Ep in Hi. destruct Hi.
+    - exfalso. assert (Hp : In p (pw x (lq (S g)))) by (rewrite Ep; left; reflexivity).
+      destruct (g_pw _ _ A _ p Hp) as (P1 & (n & k & P2) & _ & _ & P5). specialize (P5 Ns).
+      unfold rnd in P5. rewrite P2 in P5. cbn in P5.
+      pose proof (dr_bot _ _ D p P1) as Dp. rewrite P2 in Dp. destruct Dp as [Dp _].
+      assert (Hall : forall u, (u < nthr (base x))%nat -> In u (pw x (lq (S g)))).
+      { intros u Hu. destruct (Sh u Hu) as [E|[Hw Hi]].
+        - exfalso. pose proof (dr_bot _ _ D u Hu) as Du. rewrite (stk_nil_bot _ E) in Du.
+          destruct (Du R ltac:(lia)) as [r Hr]. pose proof (g_rets _ _ A _ _ _ Hr) as Hle.
+          assert (Z.of_nat R <= gen count x).
+          { unfold gen. apply Z.div_le_lower_bound; lia. }
+          lia.
+        - destruct (g_pw _ _ A _ u Hi) as (_ & _ & _ & _ & C5). specialize (C5 Ns).
+          assert (rnd (stk (base x) u) = S g) by (unfold g; lia). rewrite H in Hi. exact Hi. }
+      assert (Hlen : (length (seq 0 (nthr (base x))) <= length (pw x (lq (S g))))%nat).
+      { apply NoDup_incl_length; [apply seq_NoDup|]. intros u Hu. apply in_seq in Hu. apply Hall. lia. }
+      rewrite seq_length, (g_nthr _ _ A), Ep in Hlen.
+      pose proof (Z.mod_pos_bound (word (mem (base x)) 0%nat) count ltac:(lia)). lia. }
+  assert (Hret : forall t k, (t < length rounds)%nat -> (1 <= k <= R)%nat -> returned x t k).
+  { intros t k Ht Hk. rewrite <- Nt in Ht. pose proof (dr_bot _ _ D t Ht) as Dt.
+    rewrite (stk_nil_bot _ (Hdone t Ht)) in Dt. apply Dt. exact Hk. }
   split; [exact Hret|].
-  (* the fiber that fetched count-1 *)
-  destruct (single_round_facts count rounds x Hcount Hl F R) as (_ & Hle & _ & _).
-  assert (Hge : (length rounds <= length (arr x))%nat).
-  { assert (Hin : incl (seq 0 (length rounds)) (map (fun a => fst (fst a)) (arr x))).
-    { intros t Ht. apply in_seq in Ht. destruct (Hret t ltac:(lia)) as [r Hr].
-      destruct (l1_rets _ _ L _ _ _ Hr) as (v & Hv & _). apply in_map_iff. exists (t, 1%nat, v). auto. }
-    pose proof (NoDup_incl_length (seq_NoDup (length rounds) 0) Hin) as H. rewrite seq_length, map_length in H. exact H. }
-  assert (Hidx : (Z.to_nat (count - 1) < length (arr x))%nat) by lia.
-  destruct (nth_error (arr x) (Z.to_nat (count - 1))) as [[[t k] v]|] eqn:En; [|apply nth_error_None in En; lia].
-  pose proof (l1_tick _ _ L _ _ _ _ En) as Hv. rewrite Z2Nat.id in Hv by lia. subst v.
-  pose proof (nth_error_In _ _ En) as Hin.
-  destruct (sr_arr _ S _ _ _ Hin) as [-> Htl]. rewrite Nt in Htl.
-  destruct (Hret t Htl) as [r Hr]. exists t.
+  intros k Hk.
+  assert (Hn0 : (0 < length rounds)%nat) by (rewrite Hl; lia).
+  destruct (Hret O R Hn0 ltac:(lia)) as [r0 Hr0].
+  pose proof (g_rets _ _ A _ _ _ Hr0) as HR. rewrite (l1_word _ _ L) in HR.
+  set (i := Z.to_nat (Z.of_nat k * count - 1)).
+  assert (Hi : (i < length (arr x))%nat) by (unfold i; nia).
+  destruct (nth_error (arr x) i) as [[[t k'] v]|] eqn:En; [|apply nth_error_None in En; lia].
+  pose proof (l1_tick _ _ L _ _ _ _ En) as Hv.
+  pose proof (g_arr _ _ A _ _ _ _ En) as Hk'.
+  assert (Hiz : Z.of_nat i = Z.of_nat k * count - 1) by (unfold i; rewrite Z2Nat.id; nia).
+  assert (k' = k).
+  { apply Nat2Z.inj. rewrite Hk', Hiz.
+    assert (Hd : (Z.of_nat k * count - 1) / count = Z.of_nat k - 1).
+    { symmetry. apply (Z.div_unique _ count (Z.of_nat k - 1) (count - 1)); lia. }
+    lia. }
+  subst k'. pose proof (nth_error_In _ _ En) as Hin.
+  pose proof (dr_arr _ _ D _ _ _ Hin) as Htl. rewrite Nt in Htl.
+  destruct (Hret t k Htl Hk) as [r Hr]. exists t.
   destruct (l1_rets _ _ L _ _ _ Hr) as (v' & Hv' & ->).
-  assert (v' = count - 1).
+  assert (v' = v).
   { pose proof (l1_nodup_arr _ _ L) as Nd.
     destruct (In_nth_error _ _ Hv') as [i' Hi'].
-    assert (i' = Z.to_nat (count - 1)).
+    assert (i' = i).
     { eapply (NoDup_nth_error (map fst (arr x))); eauto.
       - rewrite map_length. apply nth_error_Some. rewrite Hi'. discriminate.
       - rewrite !nth_error_map, Hi', En. reflexivity. }
     subst i'. congruence. }
-  subst v'. unfold sbit in Hr. replace (count - 1 + 1) with count in Hr by lia. rewrite Z.mod_same in Hr by lia. exact Hr.
+  subst v'. unfold sbit in Hr. rewrite Hv, Hiz in Hr.
+  replace (Z.of_nat k * count - 1 + 1) with (Z.of_nat k * count) in Hr by lia. rewrite Z_mod_mult in Hr. exact Hr.
 Qed.
 
 (* one serial fiber per round (regime) *)
@@ -2479,19 +2759,21 @@ Proof.
   assert (i = i') by lia. subst i'. congruence.
 Qed.
 
-(* single consumer (regime): at most one fiber is inside the pop loop *)
-Lemma pop_loop_ser s t : Shape count (stk s t) -> in_pop_loop s t -> is_ser (stk s t).
+
+(* single consumer: at most one fiber is inside a pop loop (of either list) *)
+Lemma pop_loop_ser s t q : Shape count (stk s t) -> in_pop_loop s t q -> is_ser (stk s t).
 Proof.
-  unfold in_pop_loop. intros Sh H. destruct Sh as [|n|n k|f n k Hf|y n k Hy|f n k Hf|y wc n k Hy]; try contradiction.
-  - destruct Hf; contradiction.
-  - destruct Hy; contradiction.
+  unfold in_pop_loop, pop_list. intros Sh H.
+  destruct Sh as [|n|n k|q0 f n k Hf|y n k Hy|q0 f n k Hf|q0 y wc n k Hy]; try discriminate.
+  - destruct Hf; discriminate.
+  - destruct Hy; discriminate.
   - do 2 eexists. reflexivity.
   - do 2 eexists. destruct Hy; reflexivity.
 Qed.
 
-Lemma single_consumer_of_G x t u :
-  L1 count x -> G count x -> in_pop_loop (base x) t -> in_pop_loop (base x) u -> t = u.
+Lemma single_consumer_of_G x t u q q' :
+  L1 count x -> G count x -> in_pop_loop (base x) t q -> in_pop_loop (base x) u q' -> t = u.
 Proof.
-  intros L Gx Ht Hu. apply (g_ser1 _ _ (g_a _ _ Gx)); apply pop_loop_ser; auto; apply L.
+  intros L Gx Ht Hu. apply (g_ser1 _ _ (g_a _ _ Gx)); eapply pop_loop_ser; eauto; apply L.
 Qed.
 End Final.
